@@ -4,83 +4,103 @@ import TTV.Lemmas.Reactor
 /-! # C14 — Deferred-returning tests under `AsynchronousDeferredRunTest`
 
 Theorems about the model `TTV.AsyncRun` (`Model/Reactor.lean`, `Model/AsyncRun.lean`): the runner's staging and
-bookkeeping logic on the virtual-time reactor, for **every** program (any stages, side effects, cleanups, delays),
-every timeout, every set of interrupt instants, both runner variants, both logging options.
+bookkeeping logic on the virtual-time reactor, for **every** program (any stages, side effects, delays; cleanups
+nested to any depth - a cleanup may register cleanups; `KeyboardInterrupt`/`SystemExit` raised by or failing the
+Deferred of any stage), every timeout, every set of interrupt instants, both runner variants, both logging options.
+The reactor runs in *iterations* (`ReactorBase.runUntilCurrent`): a call scheduled during an iteration - even with
+delay 0 - waits for the next one; the result of `Spinner.run` is determined when `reactor.run()` returns, before the
+shake-out iterations of `Spinner._clean`.
 This property is *partial* with respect to the Twisted runtime: Deferred chaining, the log publisher and
 `DebugInfo`/GC are modelled (see `Model/AsyncRun.lean`), and covered only by the correspondence check.
 
 * `holds_model`              : the executable spec `Spec.C14.holds` is true of the model's trace (headline)
-* `C14_bracket`              : exactly one outcome between `startTest` and `stopTest`, `run()` returns
-* `C14_sequential`           : the stages that ran are a prefix of the path (setUp, [test, tearDown], cleanups LIFO);
-                               the next stage starts only after its predecessor's Deferred fired
+* `C14_bracket`              : exactly one outcome between `startTest` and `stopTest`
+* `C14_sequential`           : the stages that ran are a prefix of the path (setUp, [test, tearDown], cleanups LIFO,
+                               those registered by a cleanup right after it); the next stage starts only after its
+                               predecessor's Deferred fired
 * `C14_success_iff`          : success ⇔ in time ∧ every stage clean ∧ no expectation failed ∧ no unflushed logged error
                                ∧ no dropped failed Deferred ∧ nothing left scheduled
-* `C14_timeout_interrupt`    : not in time ⇒ error; `result.stop()` exactly for an interrupt before the timeout
+* `C14_timeout_interrupt`    : not in time ⇒ error; `result.stop()` only for an interrupt before the timeout, and
+                               always when one came while the chain was not over
+* `C14_unclaimed`            : `run()` re-raises only `KeyboardInterrupt`/`SystemExit`, after reporting an error; always
+                               when setUp / the test / tearDown raised one; only if a stage that ran raised one
 * `C14_clean_after`, `C14_observers_restored` : nothing pending, the log observers are the original ones (in order)
-* `C14_in_time_iff_recorded` : the declarative `inTime` ⇔ `Spinner.run` returned the chain's verdict
+* `C14_in_time_iff_recorded` : the declarative `inTime` ⇔ `Spinner.run` returned the chain's verdict (determined
+                               before `_clean`'s iterations)
 * `C14_loop_ends_by_crash`   : the reactor loop ends by a crash within the model's fuel
 
-Proof structure: `Reach` (what a chain step can do) · `Inv1` (queue/clock/spinner invariant of the loop) · `pot`
-(termination) · `Run`/`Susp`/`Fin` (chain invariant through suspensions) · `final_sem` (meaning of the final state). -/
+Proof structure: `Reach` (what a chain step can do) · `Inv1` (queue/clock/spinner invariant of the loop, incl. the
+iteration in which each queued call was scheduled) · `pot` (termination) · `Run`/`Susp`/`Fin` (chain invariant through
+suspensions) · `SpinEnd`/`IterEnd` (the states when `reactor.run()` returns and after `_clean`'s iterations) ·
+`final_sem` (meaning of the final state). -/
 namespace TTV.Props.C14
 open TTV.Reactor TTV.AsyncRun TTV.Spec.C14
 
 /-! ## what a step of the callback chain can do to the world -/
 
-/-! the chain never touches the list of log observers -/
-theorem side_observers (s : Side) (c : Chain) : (Chain.side s c).observers = c.observers := by cases s <;> rfl
-theorem caught_observers (k : Exc) (c : Chain) : (Chain.caught k c).observers = c.observers := rfl
-theorem log_observers (n : SName) (t : Nat) (c : Chain) : (Chain.log n t c).observers = c.observers := rfl
-theorem finish_observers (c : Chain) : c.finish.observers = c.observers := by
+/-! the chain never touches the list of log observers nor the iteration counter -/
+def Keeps (f : Chain → Chain) : Prop :=
+  ∀ c, (f c).observers = c.observers ∧ (f c).iter = c.iter ∧ (f c).stages = c.stages ∧ (f c).live = c.live
+
+theorem side_keeps (s : Side) : Keeps (Chain.side s) := fun c => by cases s <;> exact ⟨rfl, rfl, rfl, rfl⟩
+theorem finish_keeps : Keeps Chain.finish := fun c => by
   unfold Chain.finish
-  cases c.lastExc <;> simp only [] <;> split <;> rfl
-theorem noteMain_observers (r : Option Exc) (c : Chain) : (Chain.noteMain r c).observers = c.observers := by cases r <;> rfl
-theorem noteCleanup_observers (r : Option Exc) (c : Chain) : (Chain.noteCleanup r c).observers = c.observers := by
-  cases r <;> rfl
-theorem register_observers (cs : List Stage) (c : Chain) : (Chain.register cs c).observers = c.observers := by
+  cases c.lastExc <;> simp only [] <;> split <;> exact ⟨rfl, rfl, rfl, rfl⟩
+theorem noteMain_keeps (r : Option Exc) : Keeps (Chain.noteMain r) := fun c => by cases r <;> exact ⟨rfl, rfl, rfl, rfl⟩
+theorem noteCleanup_keeps (r : Option Exc) : Keeps (Chain.noteCleanup r) := fun c => by cases r <;> exact ⟨rfl, rfl, rfl, rfl⟩
+theorem register_keeps (cs : List Stage) : Keeps (Chain.register cs) := fun c => by
   induction cs generalizing c with
-  | nil => rfl
-  | cons s rest ih => simp only [Chain.register, List.foldl_cons] at ih ⊢; rw [ih]
+  | nil => exact ⟨rfl, rfl, rfl, rfl⟩
+  | cons s rest ih =>
+    simp only [Chain.register, List.foldl_cons] at ih ⊢
+    exact ih _
+theorem register_observers (cs : List Stage) (c : Chain) : (Chain.register cs c).observers = c.observers :=
+  (register_keeps cs c).1
 
 macro "obs_tac" : tactic =>
-  `(tactic| (intro c; first
-    | rfl
-    | exact side_observers _ c
-    | exact finish_observers c
-    | exact noteMain_observers _ c
-    | exact noteCleanup_observers _ c
-    | exact register_observers _ c))
+  `(tactic| first
+    | exact fun _ => ⟨rfl, rfl, rfl, rfl⟩
+    | exact side_keeps _
+    | exact finish_keeps
+    | exact noteMain_keeps _
+    | exact noteCleanup_keeps _
+    | exact register_keeps _)
 
 /-- `Reach k w w'`: `w'` arises from `w` by updates of the runner's own state (never of the log observers), by
-scheduling `k` delayed calls (never a `stop`) at times `≥ now`, and by firing the final Deferred (`deliver`) -/
+scheduling `k` delayed calls (never a `stop`) at times `≥ now`, by logging the start of a stage, and by firing the
+final Deferred (`deliver`) -/
 inductive Reach : Nat → W → W → Prop
   | refl (w : W) : Reach 0 w w
+  | log {k : Nat} {w w' : W} (n : SName) : Reach k (updU (Chain.log n w.now w.running) w) w' → Reach k w w'
   | upd {k : Nat} {w w' : W} (f : Chain → Chain) (h : Reach k (updU f w) w')
-      (hf : ∀ c, (f c).observers = c.observers := by obs_tac) : Reach k w w'
+      (hf : Keeps f := by obs_tac) : Reach k w w'
   | sched {k : Nat} {w w' : W} (d : Nat) (a : CAct) (ha : a ≠ .stop) :
-      Reach k (schedule (w.now + d) (.user 0 a) w) w' → Reach (k + 1) w w'
+      Reach k (schedule (w.now + d) (.user w.u.iter a) w) w' → Reach (k + 1) w w'
   | deliv {k : Nat} {w w' : W} (b : Nat) : Reach k (deliver (.value b) w) w' → Reach k w w'
 
 theorem Reach.trans {k j : Nat} {w w1 w2 : W} (h1 : Reach k w w1) (h2 : Reach j w1 w2) : Reach (k + j) w w2 := by
   induction h1 with
   | refl w => simpa using h2
+  | log n _ ih => exact Reach.log n (ih h2)
   | upd f _ hf ih => exact Reach.upd f (ih h2) hf
   | sched d a ha _ ih =>
     have := Reach.sched d a ha (ih h2)
     simpa [Nat.add_assoc, Nat.add_comm, Nat.add_left_comm] using this
   | deliv b _ ih => exact Reach.deliv b (ih h2)
 
-theorem Reach.upd1 (f : Chain → Chain) (w : W) (hf : ∀ c, (f c).observers = c.observers := by obs_tac) :
+theorem Reach.upd1 (f : Chain → Chain) (w : W) (hf : Keeps f := by obs_tac) :
     Reach 0 w (updU f w) := Reach.upd f (Reach.refl _) hf
 
 theorem Reach.cast {k j : Nat} {w w' : W} (h : Reach k w w') (e : k = j) : Reach j w w' := e ▸ h
 
 /-- an invariant kept by the three kinds of steps is kept along `Reach` -/
-theorem Reach.inv (P : W → Prop) (hupd : ∀ (w : W) (f : Chain → Chain), (∀ c, (f c).observers = c.observers) → P w → P (updU f w))
-    (hs : ∀ (w : W) (d : Nat) (a : CAct), a ≠ CAct.stop → P w → P (schedule (w.now + d) (.user 0 a) w))
+theorem Reach.inv (P : W → Prop) (hlog : ∀ (w : W) (n : SName), P w → P (updU (Chain.log n w.now w.running) w))
+    (hupd : ∀ (w : W) (f : Chain → Chain), Keeps f → P w → P (updU f w))
+    (hs : ∀ (w : W) (d : Nat) (a : CAct), a ≠ CAct.stop → P w → P (schedule (w.now + d) (.user w.u.iter a) w))
     (hd : ∀ (w : W) (b : Nat), P w → P (deliver (.value b) w)) {k : Nat} {w w' : W} (h : Reach k w w') : P w → P w' := by
   induction h with
   | refl w => exact id
+  | log n _ ih => exact fun hw => ih (hlog _ n hw)
   | upd f _ hf ih => exact fun hw => ih (hupd _ f hf hw)
   | sched d a ha _ ih => exact fun hw => ih (hs _ d a ha hw)
   | deliv b _ ih => exact fun hw => ih (hd _ b hw)
@@ -117,13 +137,19 @@ def behCalls : Beh → Nat
 
 def launchCalls (st : Stage) : Nat := (st.sides.map sideCalls).sum + behCalls st.beh
 
-theorem launchCalls_le (st : Stage) : launchCalls st ≤ stageCalls st := by
+theorem calls_eq (st : Stage) : st.calls = st.sides.length + 1 + callsL st.cleanups := by
+  cases st; simp [Stage.calls, Stage.sides, Stage.cleanups]
+
+theorem size_eq (st : Stage) : st.size = 1 + sizeL st.cleanups := by
+  cases st; simp [Stage.size, Stage.cleanups]
+
+theorem launchCalls_le (st : Stage) : launchCalls st ≤ st.sides.length + 1 := by
   have := sides_sum_le st.sides
-  simp only [launchCalls, stageCalls]
+  simp only [launchCalls]
   cases st.beh <;> simp [behCalls] <;> omega
 
 theorem launch_reach (n : SName) (st : Stage) (w : W) : Reach (launchCalls st) w (launch n st w) := by
-  have h12 := (Reach.upd1 (Chain.log n w.now) w).trans (sides_reach st.sides (updU (Chain.log n w.now) w))
+  have h12 := (Reach.log n (Reach.refl _)).trans (sides_reach st.sides (updU (Chain.log n w.now w.running) w))
   simp only [launch, launchCalls]
   cases st.beh with
   | ret => exact h12.cast (by simp [behCalls])
@@ -135,13 +161,13 @@ theorem launch_reach (n : SName) (st : Stage) (w : W) : Reach (launchCalls st) w
 theorem finishChain_reach (w : W) : Reach 0 w (finishChain w) :=
   Reach.upd Chain.finish (Reach.deliv _ (Reach.refl _))
 
-def stackCalls (stack : List (Nat × Stage)) : Nat := (stack.map fun ic => stageCalls ic.2).sum
+def stackCalls (stack : List (Nat × Stage)) : Nat := (stack.map fun ic => ic.2.calls).sum
 
 /-- what the chain may still schedule, by where it waits -/
 def rem (p : Prog) (c : Chain) : Nat :=
   match c.pos with
-  | .setUp => mstageCalls p.body + mstageCalls p.tearDown + stackCalls c.stack
-  | .body => mstageCalls p.tearDown + stackCalls c.stack
+  | .setUp => p.body.calls + p.tearDown.calls + stackCalls c.stack
+  | .body => p.tearDown.calls + stackCalls c.stack
   | .tearDown | .cleanup => stackCalls c.stack
   | _ => 0
 
@@ -185,7 +211,7 @@ theorem sidesC_frame (sides : List Side) (c : Chain) :
 
 /-- the chain state after `launch` -/
 theorem launch_u (n : SName) (st : Stage) (w : W) :
-    (launch n st w).u = st.sides.foldl (fun c s => Chain.side s c) (Chain.log n w.now w.u) := by
+    (launch n st w).u = st.sides.foldl (fun c s => Chain.side s c) (Chain.log n w.now w.running w.u) := by
   simp only [launch]
   cases st.beh <;> simp [sides_u]
 
@@ -193,162 +219,214 @@ theorem launch_frame (n : SName) (st : Stage) (w : W) :
     (launch n st w).u.pos = w.u.pos ∧ (launch n st w).u.stack = w.u.stack ∧
     (launch n st w).u.nextCleanup = w.u.nextCleanup := by
   rw [launch_u]
-  obtain ⟨h1, h2, h3, _⟩ := sidesC_frame st.sides (Chain.log n w.now w.u)
+  obtain ⟨h1, h2, h3, _⟩ := sidesC_frame st.sides (Chain.log n w.now w.running w.u)
   exact ⟨h1, h2, h3⟩
 
-/-- `runCleanups` schedules at most what the stack allows, and ends at `done` or waits in `cleanup` -/
-theorem runCleanups_reach (p : Prog) : ∀ (stack : List (Nat × Stage)) (w : W),
-    ∃ k, Reach k w (runCleanups stack w) ∧ k + rem p (runCleanups stack w).u ≤ stackCalls stack
-  | [], w => by
-      refine ⟨0, ?_, ?_⟩
-      · simp only [runCleanups]
-        exact Reach.upd _ (finishChain_reach _)
-      · simp [runCleanups, rem, finishChain_u, Chain.finish_pos]
-  | (i, c) :: rest, w => by
-      have hl : Reach (launchCalls c) w (launch (.cleanup i) c (updU (fun u => { u with stack := rest }) w)) :=
-        Reach.upd _ (launch_reach _ _ _)
-      have hp := launch_frame (.cleanup i) c (updU (fun u => { u with stack := rest }) w)
-      have hle := launchCalls_le c
-      simp only [runCleanups]
-      cases hs : statusOf c.beh with
-      | completed r =>
-        simp only []
-        obtain ⟨k, hk, hk2⟩ := runCleanups_reach p rest
-          (updU (Chain.noteCleanup r) (launch (.cleanup i) c (updU (fun u => { u with stack := rest }) w)))
-        refine ⟨launchCalls c + k, hl.trans (Reach.upd _ hk), ?_⟩
-        simp only [stackCalls, List.map_cons, List.sum_cons] at hk2 ⊢
-        omega
-      | pending =>
-        simp only []
-        refine ⟨launchCalls c, (hl.trans (Reach.upd1 _ _)).cast (by simp), ?_⟩
-        simp only [rem, updU_u, hp.2.1, stackCalls, List.map_cons, List.sum_cons]
-        omega
-
-theorem register_stackCalls (cs : List Stage) (c : Chain) :
-    stackCalls (Chain.register cs c).stack = stackCalls c.stack + (cs.map stageCalls).sum := by
+theorem register_stack (cs : List Stage) (c : Chain) :
+    (Chain.register cs c).stack = (number c.nextCleanup cs).reverse ++ c.stack ∧
+    (Chain.register cs c).nextCleanup = c.nextCleanup + cs.length := by
   induction cs generalizing c with
-  | nil => simp [Chain.register]
+  | nil => simp [Chain.register, number]
   | cons s rest ih =>
     simp only [Chain.register, List.foldl_cons] at ih ⊢
-    rw [ih]
-    simp [stackCalls]
+    obtain ⟨h1, h2⟩ := ih { c with stack := (c.nextCleanup, s) :: c.stack, nextCleanup := c.nextCleanup + 1 }
+    rw [h1, h2]
+    simp [number]
     omega
+
+theorem stackCalls_number (i : Nat) (cs : List Stage) : stackCalls (number i cs) = callsL cs := by
+  induction cs generalizing i with
+  | nil => simp [number, stackCalls, callsL]
+  | cons c rest ih =>
+    have := ih (i + 1)
+    simp only [stackCalls] at this
+    simp [number, stackCalls, callsL, this]
+
+theorem stackSize_number (i : Nat) (cs : List Stage) : stackSize (number i cs) = sizeL cs := by
+  induction cs generalizing i with
+  | nil => simp [number, stackSize, sizeL]
+  | cons c rest ih =>
+    have := ih (i + 1)
+    simp only [stackSize] at this
+    simp [number, stackSize, sizeL, this]
+
+theorem stackCalls_append (a b : List (Nat × Stage)) : stackCalls (a ++ b) = stackCalls a + stackCalls b := by
+  simp [stackCalls]
+
+theorem stackSize_append (a b : List (Nat × Stage)) : stackSize (a ++ b) = stackSize a + stackSize b := by
+  simp [stackSize]
+
+theorem stackCalls_reverse (a : List (Nat × Stage)) : stackCalls a.reverse = stackCalls a := by
+  simp [stackCalls, List.sum_reverse]
+
+theorem stackSize_reverse (a : List (Nat × Stage)) : stackSize a.reverse = stackSize a := by
+  simp [stackSize, List.sum_reverse]
+
+theorem register_stackCalls (cs : List Stage) (c : Chain) :
+    stackCalls (Chain.register cs c).stack = stackCalls c.stack + callsL cs := by
+  rw [(register_stack cs c).1, stackCalls_append, stackCalls_reverse, stackCalls_number]; omega
+
+theorem register_stackSize (cs : List Stage) (c : Chain) :
+    stackSize (Chain.register cs c).stack = stackSize c.stack + sizeL cs := by
+  rw [(register_stack cs c).1, stackSize_append, stackSize_reverse, stackSize_number]; omega
 
 theorem register_pos (cs : List Stage) (c : Chain) : (Chain.register cs c).pos = c.pos := by
   induction cs generalizing c with
   | nil => rfl
   | cons s rest ih => simp only [Chain.register, List.foldl_cons] at ih ⊢; rw [ih]
 
-theorem noteMain_stack (r : Option Exc) (c : Chain) : (Chain.noteMain r c).stack = c.stack := by
-  cases r <;> rfl
+theorem noteMain_stack (r : Option Exc) (c : Chain) : (Chain.noteMain r c).stack = c.stack ∧
+    (Chain.noteMain r c).nextCleanup = c.nextCleanup := by
+  cases r <;> exact ⟨rfl, rfl⟩
 
-theorem noteCleanup_stack (r : Option Exc) (c : Chain) : (Chain.noteCleanup r c).stack = c.stack := by
-  cases r <;> rfl
+theorem noteCleanup_stack (r : Option Exc) (c : Chain) : (Chain.noteCleanup r c).stack = c.stack ∧
+    (Chain.noteCleanup r c).nextCleanup = c.nextCleanup := by
+  cases r <;> exact ⟨rfl, rfl⟩
+
+/-- `runCleanups` schedules at most what the stack allows, and ends at `done` or waits in `cleanup` -/
+theorem runCleanups_reach (p : Prog) : ∀ (n : Nat) (w : W), stackSize w.u.stack < n →
+    ∃ k, Reach k w (runCleanups n w) ∧ k + rem p (runCleanups n w).u ≤ stackCalls w.u.stack
+  | 0, _, h => by omega
+  | n + 1, w, hn => by
+      unfold runCleanups
+      split
+      · exact ⟨0, finishChain_reach _, by simp [rem, finishChain_u, Chain.finish_pos]⟩
+      · rename_i i c rest hst
+        obtain ⟨w1, hw1⟩ : ∃ w1 : W, w1 = updU (fun u => Chain.register c.cleanups { u with stack := rest }) w := ⟨_, rfl⟩
+        have hs1 : stackCalls w1.u.stack = stackCalls rest + callsL c.cleanups := by
+          rw [hw1]; exact register_stackCalls c.cleanups _
+        have hz1 : stackSize w1.u.stack = stackSize rest + sizeL c.cleanups := by
+          rw [hw1]; exact register_stackSize c.cleanups _
+        have hl : Reach (launchCalls c) w (launch (.cleanup i) c w1) := by
+          rw [hw1]
+          exact Reach.upd _ (launch_reach _ _ _) (fun u => register_keeps _ _)
+        have hp := launch_frame (.cleanup i) c w1
+        have hle := launchCalls_le c
+        have hc := calls_eq c
+        have hsz := size_eq c
+        have hstack : stackCalls w.u.stack = c.calls + stackCalls rest := by rw [hst]; simp [stackCalls]
+        have hsize : stackSize w.u.stack = c.size + stackSize rest := by rw [hst]; simp [stackSize]
+        simp only [← hw1]
+        cases hs : statusOf c.beh with
+        | completed r =>
+          simp only []
+          obtain ⟨k, hk, hk2⟩ := runCleanups_reach p n (updU (Chain.noteCleanup r) (launch (.cleanup i) c w1))
+            (by simp only [updU_u, (noteCleanup_stack _ _).1, hp.2.1]; omega)
+          refine ⟨launchCalls c + k, hl.trans (Reach.upd _ hk), ?_⟩
+          simp only [updU_u, (noteCleanup_stack _ _).1, hp.2.1] at hk2
+          omega
+        | pending =>
+          simp only []
+          refine ⟨launchCalls c, (hl.trans (Reach.upd1 _ _)).cast (by simp), ?_⟩
+          simp only [rem, updU_u, hp.2.1]
+          omega
+
+theorem cleanUp_reach (p : Prog) (w : W) :
+    ∃ k, Reach k w (cleanUp w) ∧ k + rem p (cleanUp w).u ≤ stackCalls w.u.stack :=
+  runCleanups_reach p _ w (Nat.lt_succ_self _)
 
 theorem afterCleanup_reach (p : Prog) (r : Option Exc) (w : W) :
     ∃ k, Reach k w (afterCleanup r w) ∧ k + rem p (afterCleanup r w).u ≤ stackCalls w.u.stack := by
-  obtain ⟨k, hk, hk2⟩ := runCleanups_reach p (updU (Chain.noteCleanup r) w).u.stack (updU (Chain.noteCleanup r) w)
+  obtain ⟨k, hk, hk2⟩ := cleanUp_reach p (updU (Chain.noteCleanup r) w)
   refine ⟨k, Reach.upd _ hk, ?_⟩
-  simpa [afterCleanup, noteCleanup_stack] using hk2
+  simpa [afterCleanup, (noteCleanup_stack _ _).1] using hk2
 
 theorem afterTearDown_reach (p : Prog) (r : Option Exc) (w : W) :
     ∃ k, Reach k w (afterTearDown r w) ∧ k + rem p (afterTearDown r w).u ≤ stackCalls w.u.stack := by
-  obtain ⟨k, hk, hk2⟩ := runCleanups_reach p (updU (Chain.noteMain r) w).u.stack (updU (Chain.noteMain r) w)
+  obtain ⟨k, hk, hk2⟩ := cleanUp_reach p (updU (Chain.noteMain r) w)
   refine ⟨k, Reach.upd _ hk, ?_⟩
-  simpa [afterTearDown, noteMain_stack] using hk2
+  simpa [afterTearDown, (noteMain_stack _ _).1] using hk2
 
 theorem startTearDown_reach (p : Prog) (w : W) :
-    ∃ k, Reach k w (startTearDown p w) ∧ k + rem p (startTearDown p w).u ≤ mstageCalls p.tearDown + stackCalls w.u.stack := by
-  have hl : Reach (launchCalls p.tearDown.stage) w
-      (launch .tearDown p.tearDown.stage (updU (Chain.register p.tearDown.cleanups) w)) :=
+    ∃ k, Reach k w (startTearDown p w) ∧ k + rem p (startTearDown p w).u ≤ p.tearDown.calls + stackCalls w.u.stack := by
+  have hl : Reach (launchCalls p.tearDown) w
+      (launch .tearDown p.tearDown (updU (Chain.register p.tearDown.cleanups) w)) :=
     Reach.upd _ (launch_reach _ _ _)
-  have hp := launch_frame .tearDown p.tearDown.stage (updU (Chain.register p.tearDown.cleanups) w)
-  have hle := launchCalls_le p.tearDown.stage
+  have hp := launch_frame .tearDown p.tearDown (updU (Chain.register p.tearDown.cleanups) w)
+  have hle := launchCalls_le p.tearDown
   have hreg := register_stackCalls p.tearDown.cleanups w.u
+  have hm := calls_eq p.tearDown
   simp only [startTearDown]
-  cases hs : statusOf p.tearDown.stage.beh with
+  cases hs : statusOf p.tearDown.beh with
   | completed r =>
     simp only []
     obtain ⟨k, hk, hk2⟩ := afterTearDown_reach p r
-      (launch .tearDown p.tearDown.stage (updU (Chain.register p.tearDown.cleanups) w))
-    refine ⟨launchCalls p.tearDown.stage + k, hl.trans hk, ?_⟩
+      (launch .tearDown p.tearDown (updU (Chain.register p.tearDown.cleanups) w))
+    refine ⟨launchCalls p.tearDown + k, hl.trans hk, ?_⟩
     rw [hp.2.1] at hk2
     simp only [updU_u, hreg] at hk2
-    simp only [mstageCalls]
     omega
   | pending =>
     simp only []
-    refine ⟨launchCalls p.tearDown.stage, (hl.trans (Reach.upd1 _ _)).cast (by simp), ?_⟩
-    simp only [rem, updU_u, hp.2.1, hreg, mstageCalls]
+    refine ⟨launchCalls p.tearDown, (hl.trans (Reach.upd1 _ _)).cast (by simp), ?_⟩
+    simp only [rem, updU_u, hp.2.1, hreg]
     omega
 
 theorem afterBody_reach (p : Prog) (r : Option Exc) (w : W) :
-    ∃ k, Reach k w (afterBody p r w) ∧ k + rem p (afterBody p r w).u ≤ mstageCalls p.tearDown + stackCalls w.u.stack := by
+    ∃ k, Reach k w (afterBody p r w) ∧ k + rem p (afterBody p r w).u ≤ p.tearDown.calls + stackCalls w.u.stack := by
   obtain ⟨k, hk, hk2⟩ := startTearDown_reach p (updU (Chain.noteMain r) w)
   refine ⟨k, Reach.upd _ hk, ?_⟩
-  simpa [afterBody, noteMain_stack] using hk2
+  simpa [afterBody, (noteMain_stack _ _).1] using hk2
 
 theorem startBody_reach (p : Prog) (w : W) :
     ∃ k, Reach k w (startBody p w) ∧
-      k + rem p (startBody p w).u ≤ mstageCalls p.body + mstageCalls p.tearDown + stackCalls w.u.stack := by
-  have hl : Reach (launchCalls p.body.stage) w
-      (launch .body p.body.stage (updU (Chain.register p.body.cleanups) w)) :=
+      k + rem p (startBody p w).u ≤ p.body.calls + p.tearDown.calls + stackCalls w.u.stack := by
+  have hl : Reach (launchCalls p.body) w
+      (launch .body p.body (updU (Chain.register p.body.cleanups) w)) :=
     Reach.upd _ (launch_reach _ _ _)
-  have hp := launch_frame .body p.body.stage (updU (Chain.register p.body.cleanups) w)
-  have hle := launchCalls_le p.body.stage
+  have hp := launch_frame .body p.body (updU (Chain.register p.body.cleanups) w)
+  have hle := launchCalls_le p.body
   have hreg := register_stackCalls p.body.cleanups w.u
+  have hm := calls_eq p.body
   simp only [startBody]
-  cases hs : statusOf p.body.stage.beh with
+  cases hs : statusOf p.body.beh with
   | completed r =>
     simp only []
-    obtain ⟨k, hk, hk2⟩ := afterBody_reach p r (launch .body p.body.stage (updU (Chain.register p.body.cleanups) w))
-    refine ⟨launchCalls p.body.stage + k, hl.trans hk, ?_⟩
+    obtain ⟨k, hk, hk2⟩ := afterBody_reach p r (launch .body p.body (updU (Chain.register p.body.cleanups) w))
+    refine ⟨launchCalls p.body + k, hl.trans hk, ?_⟩
     rw [hp.2.1] at hk2
     simp only [updU_u, hreg] at hk2
-    have hm : mstageCalls p.body = stageCalls p.body.stage + (p.body.cleanups.map stageCalls).sum := rfl
     omega
   | pending =>
     simp only []
-    refine ⟨launchCalls p.body.stage, (hl.trans (Reach.upd1 _ _)).cast (by simp), ?_⟩
-    have hm : mstageCalls p.body = stageCalls p.body.stage + (p.body.cleanups.map stageCalls).sum := rfl
+    refine ⟨launchCalls p.body, (hl.trans (Reach.upd1 _ _)).cast (by simp), ?_⟩
     simp only [rem, updU_u, hp.2.1, hreg]
     omega
 
 theorem afterSetUp_reach (p : Prog) (r : Option Exc) (w : W) :
     ∃ k, Reach k w (afterSetUp p r w) ∧
-      k + rem p (afterSetUp p r w).u ≤ mstageCalls p.body + mstageCalls p.tearDown + stackCalls w.u.stack := by
+      k + rem p (afterSetUp p r w).u ≤ p.body.calls + p.tearDown.calls + stackCalls w.u.stack := by
   cases r with
   | none => exact startBody_reach p w
   | some e =>
-    obtain ⟨k, hk, hk2⟩ := runCleanups_reach p (updU (Chain.caught e) w).u.stack (updU (Chain.caught e) w)
-    refine ⟨k, Reach.upd _ hk, ?_⟩
+    obtain ⟨k, hk, hk2⟩ := cleanUp_reach p (updU (Chain.caught e) w)
+    refine ⟨k, Reach.upd _ hk (fun _ => ⟨rfl, rfl, rfl, rfl⟩), ?_⟩
     have hst : stackCalls (updU (Chain.caught e) w).u.stack = stackCalls w.u.stack := rfl
     simp only [afterSetUp]
     omega
 
 theorem startSetUp_reach (p : Prog) (w : W) :
     ∃ k, Reach k w (startSetUp p w) ∧
-      k + rem p (startSetUp p w).u ≤ mstageCalls p.setUp + mstageCalls p.body + mstageCalls p.tearDown + stackCalls w.u.stack := by
-  have hl : Reach (launchCalls p.setUp.stage) w
-      (launch .setUp p.setUp.stage (updU (Chain.register p.setUp.cleanups) w)) :=
+      k + rem p (startSetUp p w).u ≤ p.setUp.calls + p.body.calls + p.tearDown.calls + stackCalls w.u.stack := by
+  have hl : Reach (launchCalls p.setUp) w
+      (launch .setUp p.setUp (updU (Chain.register p.setUp.cleanups) w)) :=
     Reach.upd _ (launch_reach _ _ _)
-  have hp := launch_frame .setUp p.setUp.stage (updU (Chain.register p.setUp.cleanups) w)
-  have hle := launchCalls_le p.setUp.stage
+  have hp := launch_frame .setUp p.setUp (updU (Chain.register p.setUp.cleanups) w)
+  have hle := launchCalls_le p.setUp
   have hreg := register_stackCalls p.setUp.cleanups w.u
+  have hm := calls_eq p.setUp
   simp only [startSetUp]
-  cases hs : statusOf p.setUp.stage.beh with
+  cases hs : statusOf p.setUp.beh with
   | completed r =>
     simp only []
-    obtain ⟨k, hk, hk2⟩ := afterSetUp_reach p r (launch .setUp p.setUp.stage (updU (Chain.register p.setUp.cleanups) w))
-    refine ⟨launchCalls p.setUp.stage + k, hl.trans hk, ?_⟩
+    obtain ⟨k, hk, hk2⟩ := afterSetUp_reach p r (launch .setUp p.setUp (updU (Chain.register p.setUp.cleanups) w))
+    refine ⟨launchCalls p.setUp + k, hl.trans hk, ?_⟩
     rw [hp.2.1] at hk2
     simp only [updU_u, hreg] at hk2
-    have hm : mstageCalls p.setUp = stageCalls p.setUp.stage + (p.setUp.cleanups.map stageCalls).sum := rfl
     omega
   | pending =>
     simp only []
-    refine ⟨launchCalls p.setUp.stage, (hl.trans (Reach.upd1 _ _)).cast (by simp), ?_⟩
-    have hm : mstageCalls p.setUp = stageCalls p.setUp.stage + (p.setUp.cleanups.map stageCalls).sum := rfl
+    refine ⟨launchCalls p.setUp, (hl.trans (Reach.upd1 _ _)).cast (by simp), ?_⟩
     simp only [rem, updU_u, hp.2.1, hreg]
     omega
 
@@ -371,29 +449,37 @@ def isSD (c : DCall (QAct CAct)) : Bool :=
   | .user _ (.stageDone _) => true
   | _ => false
 
-/-- sorted by time, and the timeout call precedes every stage-firing call of the same instant (it was
-scheduled first) -/
+/-- the iteration in which a queued call was scheduled (0 = before the loop) -/
+def bornOf : QAct CAct → Nat
+  | .timeout => 0
+  | .user l _ => l
+
+/-- sorted by time; the timeout call precedes every stage-firing call of the same instant (it was scheduled first);
+calls of the same instant are in the order in which they were scheduled -/
 def SortedQ (q : List (DCall (QAct CAct))) : Prop :=
-  q.Pairwise fun a b => a.time ≤ b.time ∧ (isSD a = true → b.act.isTimeout = true → a.time < b.time)
+  q.Pairwise fun a b => a.time ≤ b.time ∧ (isSD a = true → b.act.isTimeout = true → a.time < b.time) ∧
+    (a.time = b.time → bornOf a.act ≤ bornOf b.act)
 
 theorem SortedQ.tail {c : DCall (QAct CAct)} {q : List (DCall (QAct CAct))} (h : SortedQ (c :: q)) : SortedQ q :=
   (List.pairwise_cons.mp h).2
 
 theorem SortedQ.head {c : DCall (QAct CAct)} {q : List (DCall (QAct CAct))} (h : SortedQ (c :: q)) :
-    ∀ x ∈ q, c.time ≤ x.time ∧ (isSD c = true → x.act.isTimeout = true → c.time < x.time) :=
+    ∀ x ∈ q, c.time ≤ x.time ∧ (isSD c = true → x.act.isTimeout = true → c.time < x.time) ∧
+      (c.time = x.time → bornOf c.act ≤ bornOf x.act) :=
   (List.pairwise_cons.mp h).1
 
 theorem insert_sortedQ (c : DCall (QAct CAct)) : ∀ q : List (DCall (QAct CAct)), SortedQ q →
-    (c.act.isTimeout = true → ∀ x ∈ q, isSD x = false) → SortedQ (insert c q)
-  | [], _, _ => by simp [Reactor.insert, SortedQ]
-  | d :: ds, h, hc => by
+    (c.act.isTimeout = true → ∀ x ∈ q, isSD x = false) → (∀ x ∈ q, bornOf x.act ≤ bornOf c.act) → SortedQ (insert c q)
+  | [], _, _, _ => by simp [Reactor.insert, SortedQ]
+  | d :: ds, h, hc, hb => by
       simp only [Reactor.insert]
       split
       · rename_i hle
-        refine List.pairwise_cons.mpr ⟨?_, insert_sortedQ c ds h.tail (fun ht x hx => hc ht x (List.mem_cons_of_mem _ hx))⟩
+        refine List.pairwise_cons.mpr ⟨?_, insert_sortedQ c ds h.tail (fun ht x hx => hc ht x (List.mem_cons_of_mem _ hx))
+          (fun x hx => hb x (List.mem_cons_of_mem _ hx))⟩
         intro x hx
         rcases mem_insert.mp hx with rfl | hx
-        · refine ⟨hle, fun hsd ht => ?_⟩
+        · refine ⟨hle, fun hsd ht => ?_, fun _ => hb d List.mem_cons_self⟩
           have := hc ht d List.mem_cons_self
           rw [this] at hsd; cases hsd
         · exact h.head x hx
@@ -404,7 +490,7 @@ theorem insert_sortedQ (c : DCall (QAct CAct)) : ∀ q : List (DCall (QAct CAct)
           rcases List.mem_cons.mp hx with rfl | hx
           · omega
           · have := (h.head x hx).1; omega
-        exact ⟨by omega, fun _ _ => hlt⟩
+        exact ⟨by omega, fun _ _ => hlt, fun he => by omega⟩
 
 theorem SortedQ.filter {q : List (DCall (QAct CAct))} (f : DCall (QAct CAct) → Bool) (h : SortedQ q) :
     SortedQ (q.filter f) := List.Pairwise.filter f h
@@ -423,18 +509,20 @@ structure Inv1 (p : Prog) (w : W) : Prop where
   stops : ∀ s ∈ p.stops, (⟨s, .user 0 .stop⟩ : DCall (QAct CAct)) ∈ w.calls ∨ (w.crashed = true ∧ s = w.now)
   stopcalls : ∀ c ∈ w.calls, ∀ l, c.act = .user l .stop → c.time ∈ p.stops
   cause : w.crashed = true → w.sp.tcall = .called ∨ w.sp.success.isSome = true ∨ ∃ s ∈ p.stops, s = w.now
+  born : ∀ c ∈ w.calls, bornOf c.act ≤ w.u.iter
 
-theorem inv1_upd {p : Prog} {w : W} (f : Chain → Chain) (h : Inv1 p w) : Inv1 p (updU f w) :=
-  ⟨h.sorted, h.ge, h.ttime, h.tcount, h.pend, h.called, h.cancelled, h.nounset, h.alive, h.stops, h.stopcalls, h.cause⟩
+theorem inv1_upd {p : Prog} {w : W} (f : Chain → Chain) (hf : w.u.iter ≤ (f w.u).iter) (h : Inv1 p w) : Inv1 p (updU f w) :=
+  ⟨h.sorted, h.ge, h.ttime, h.tcount, h.pend, h.called, h.cancelled, h.nounset, h.alive, h.stops, h.stopcalls, h.cause,
+   fun c hc => Nat.le_trans (h.born c hc) hf⟩
 
 theorem filter_insert_length (f : DCall (QAct CAct) → Bool) (c : DCall (QAct CAct)) (q : List (DCall (QAct CAct))) :
     ((insert c q).filter f).length = ((c :: q).filter f).length :=
   ((insert_perm c q).filter f).length_eq
 
 theorem inv1_sched {p : Prog} {w : W} (d : Nat) (a : CAct) (ha : a ≠ .stop) (h : Inv1 p w) :
-    Inv1 p (schedule (w.now + d) (.user 0 a) w) := by
-  refine ⟨?_, ?_, ?_, ?_, h.pend, h.called, h.cancelled, h.nounset, h.alive, ?_, ?_, h.cause⟩
-  · exact insert_sortedQ _ _ h.sorted (fun ht => by cases ht)
+    Inv1 p (schedule (w.now + d) (.user w.u.iter a) w) := by
+  refine ⟨?_, ?_, ?_, ?_, h.pend, h.called, h.cancelled, h.nounset, h.alive, ?_, ?_, h.cause, ?_⟩
+  · exact insert_sortedQ _ _ h.sorted (fun ht => by cases ht) h.born
   · intro c hc
     rcases mem_insert.mp hc with rfl | hc
     · show w.now ≤ w.now + d; omega
@@ -443,7 +531,7 @@ theorem inv1_sched {p : Prog} {w : W} (d : Nat) (a : CAct) (ha : a ≠ .stop) (h
     rcases mem_insert.mp hc with rfl | hc
     · cases ht
     · exact h.ttime c hc ht
-  · show ((Reactor.insert ⟨w.now + d, .user 0 a⟩ w.calls).filter (·.act.isTimeout)).length = _
+  · show ((Reactor.insert ⟨w.now + d, .user w.u.iter a⟩ w.calls).filter (·.act.isTimeout)).length = _
     rw [filter_insert_length, List.filter_cons_of_neg (by simp [QAct.isTimeout])]
     exact h.tcount
   · intro s hs
@@ -455,6 +543,10 @@ theorem inv1_sched {p : Prog} {w : W} (d : Nat) (a : CAct) (ha : a ≠ .stop) (h
     · simp only [QAct.user.injEq] at hcl
       exact absurd hcl.2 ha
     · exact h.stopcalls c hc l hcl
+  · intro c hc
+    rcases mem_insert.mp hc with rfl | hc
+    · exact Nat.le_refl _
+    · exact h.born c hc
 
 theorem filter_timeout_nil (q : List (DCall (QAct CAct))) :
     ((q.filter fun c => !c.act.isTimeout).filter (·.act.isTimeout)) = [] := by
@@ -476,7 +568,8 @@ theorem inv1_deliver {p : Prog} {w : W} (b : Nat) (h : Inv1 p w) : Inv1 p (deliv
     have hfail : (deliver (.value b) w).sp.failure = none := by unfold deliver; simp [hp, (h.pend hp).2]
     have hcalls : (deliver (.value b) w).calls = w.calls.filter (fun c => !c.act.isTimeout) := by
       rw [deliver_calls]; simp [hp]
-    refine ⟨?_, ?_, ?_, ?_, ?_, ?_, ?_, ?_, ?_, ?_, ?_, ?_⟩
+    refine ⟨?_, ?_, ?_, ?_, ?_, ?_, ?_, ?_, ?_, ?_, ?_, ?_,
+      (fun c hc => by rw [hcalls] at hc; simpa using h.born c (List.mem_filter.mp hc).1)⟩
     · rw [hcalls]; exact h.sorted.filter _
     · intro c hc; rw [hcalls] at hc; simpa using h.ge c (List.mem_filter.mp hc).1
     · intro c hc; rw [hcalls] at hc; exact h.ttime c (List.mem_filter.mp hc).1
@@ -499,7 +592,7 @@ theorem inv1_deliver {p : Prog} {w : W} (b : Nat) (h : Inv1 p w) : Inv1 p (deliv
       | false => exact absurd (h.alive hw).1 hp
     refine ⟨by simpa using h.sorted, by simpa using h.ge, by simpa using h.ttime, by simpa using h.tcount,
       by simpa using h.pend, by simpa using h.called, by simpa using h.cancelled, by simpa using h.nounset, ?_, ?_,
-      by simpa using h.stopcalls, ?_⟩
+      by simpa using h.stopcalls, ?_, by simpa using h.born⟩
     · intro hc; rw [stopReactor_crashed, hcr] at hc; simp at hc
     · intro s hs
       rcases h.stops s hs with h1 | h1
@@ -508,7 +601,8 @@ theorem inv1_deliver {p : Prog} {w : W} (b : Nat) (h : Inv1 p w) : Inv1 p (deliv
     · intro _; simpa using h.cause hcr
 
 theorem inv1_reach {p : Prog} {k : Nat} {w w' : W} (hr : Reach k w w') (h : Inv1 p w) : Inv1 p w' :=
-  Reach.inv (Inv1 p) (fun _ f _ h => inv1_upd f h) (fun _ d a ha h => inv1_sched d a ha h)
+  Reach.inv (Inv1 p) (fun w n h => inv1_upd _ (Nat.le_refl _) h)
+    (fun w f hf h => inv1_upd f (by rw [(hf w.u).2.1]; exact Nat.le_refl _) h) (fun _ d a ha h => inv1_sched d a ha h)
     (fun _ b h => inv1_deliver b h) hr h
 
 /-- popping the head keeps the queue part of the invariant -/
@@ -547,7 +641,10 @@ theorem inv1_pop {p : Prog} {w : W} (h : Inv1 p w) (c : DCall (QAct CAct)) (rest
       | true => simp
       | false => simp [logEvent, (h.alive hw).2]
     refine ⟨by simpa [execCall] using hsr, by simpa [execCall] using hger, by simpa [execCall] using httr, ?_,
-      by simp [execCall], ?_, by simp [execCall], by simp [execCall], ?_, ?_, by simpa [execCall] using hscr, ?_⟩
+      by simp [execCall], ?_, by simp [execCall], by simp [execCall], ?_, ?_, by simpa [execCall] using hscr, ?_,
+      (fun x hx => by
+        have hx' : x ∈ rest := by simpa [execCall] using hx
+        simpa [execCall] using h.born x (by rw [hc]; exact List.mem_cons_of_mem _ hx'))⟩
     · simp only [execCall, execTimeout_calls, execTimeout_tcall]
       simpa using hrest0
     · intro _
@@ -574,7 +671,8 @@ theorem inv1_pop {p : Prog} {w : W} (h : Inv1 p w) (c : DCall (QAct CAct)) (rest
     -- the state after the pop, before the action runs (for an action that is not a stop request)
     have hbase : a ≠ .stop → Inv1 p (logEvent (.user l) { w with calls := rest }) := by
       intro ha
-      refine ⟨hsr, hger, httr, htc, h.pend, h.called, h.cancelled, h.nounset, h.alive, ?_, hscr, h.cause⟩
+      refine ⟨hsr, hger, httr, htc, h.pend, h.called, h.cancelled, h.nounset, h.alive, ?_, hscr, h.cause,
+        fun x hx => h.born x (by rw [hc]; exact List.mem_cons_of_mem _ hx)⟩
       intro s hs'
       rcases h.stops s hs' with h1 | h1
       · rw [hc] at h1
@@ -595,12 +693,14 @@ theorem inv1_pop {p : Prog} {w : W} (h : Inv1 p w) (c : DCall (QAct CAct)) (rest
         simp only [execCall, exec]; split <;> rfl
       have hfr : (execCall (exec p) ⟨t, .user l .stop⟩ { w with calls := rest }).calls = rest ∧
           (execCall (exec p) ⟨t, .user l .stop⟩ { w with calls := rest }).now = w.now ∧
-          (execCall (exec p) ⟨t, .user l .stop⟩ { w with calls := rest }).sp = w.sp := by
-        simp only [execCall, exec]; split <;> exact ⟨rfl, rfl, rfl⟩
-      obtain ⟨e1, e2, e3⟩ := hfr
+          (execCall (exec p) ⟨t, .user l .stop⟩ { w with calls := rest }).sp = w.sp ∧
+          (execCall (exec p) ⟨t, .user l .stop⟩ { w with calls := rest }).u.iter = w.u.iter := by
+        simp only [execCall, exec]; split <;> exact ⟨rfl, rfl, rfl, rfl⟩
+      obtain ⟨e1, e2, e3, e4⟩ := hfr
       refine ⟨by rw [e1]; exact hsr, by rw [e1, e2]; exact hger, by rw [e1]; exact httr, by rw [e1, e3]; exact htc,
         by rw [e3]; exact h.pend, by rw [e3, e2]; exact h.called, by rw [e3]; exact h.cancelled, by rw [e3]; exact h.nounset,
-        ?_, ?_, by rw [e1]; exact hscr, ?_⟩
+        ?_, ?_, by rw [e1]; exact hscr, ?_,
+        by rw [e1, e4]; exact fun x hx => h.born x (by rw [hc]; exact List.mem_cons_of_mem _ hx)⟩
       · intro hcr'; rw [hcr] at hcr'; cases hcr'
       · intro s hs'
         rw [e1, e2]
@@ -621,7 +721,7 @@ theorem inv1_adv {p : Prog} {w : W} (h : Inv1 p w) (c : DCall (QAct CAct)) (rest
   have hs := h.sorted; rw [hc] at hs
   have hge := h.ge c (by rw [hc]; exact List.mem_cons_self)
   have hmax : max w.now c.time = c.time := by omega
-  refine ⟨h.sorted, ?_, h.ttime, h.tcount, h.pend, ?_, h.cancelled, h.nounset, h.alive, ?_, h.stopcalls, ?_⟩
+  refine ⟨h.sorted, ?_, h.ttime, h.tcount, h.pend, ?_, h.cancelled, h.nounset, h.alive, ?_, h.stopcalls, ?_, h.born⟩
   · intro x hx
     show max w.now c.time ≤ x.time
     rw [hmax]
@@ -639,18 +739,53 @@ theorem inv1_adv {p : Prog} {w : W} (h : Inv1 p w) (c : DCall (QAct CAct)) (rest
   · intro hcr'
     rw [hcr] at hcr'; cases hcr'
 
-theorem inv1_drain {p : Prog} (n : Nat) (w : W) (h : Inv1 p w) : Inv1 p (drain (exec p) n w) :=
-  drain_inv (exec p) (Inv1 p) (fun _ c rest h hc hd => inv1_pop h c rest hc hd) n w h
+/-! ### invariants through the reactor's iterations -/
 
-theorem inv1_spin {p : Prog} (f : W → Nat) (n : Nat) (w : W) (h : Inv1 p w) : Inv1 p (spin (exec p) f n w) :=
-  spin_inv (exec p) f (Inv1 p) (fun _ c rest h hc hd => inv1_pop h c rest hc hd)
-    (fun _ c rest h hc hcr => inv1_adv h c rest hc hcr) n w h
+theorem drainB_inv (p : Prog) (P : W → Prop)
+    (hpop : ∀ w c rest, P w → w.calls = c :: rest → c.time ≤ w.now → P (execCall (exec p) c { w with calls := rest })) :
+    ∀ n w, P w → P (drainB p n w)
+  | 0, _, h => h
+  | n + 1, w, h => by
+      unfold drainB
+      split
+      · exact h
+      · rename_i c rest hc
+        split
+        · rename_i hd
+          exact drainB_inv p P hpop n _ (hpop w c rest h hc hd.1)
+        · exact h
+
+theorem iterateB_inv (p : Prog) (P : W → Prop)
+    (hpop : ∀ w c rest, P w → w.calls = c :: rest → c.time ≤ w.now → P (execCall (exec p) c { w with calls := rest }))
+    (hit : ∀ w, P w → P (nextIter w)) (n : Nat) (w : W) (h : P w) : P (iterateB p n w) :=
+  drainB_inv p P hpop n _ (hit w h)
+
+theorem spinB_inv (p : Prog) (B : Nat) (P : W → Prop)
+    (hpop : ∀ w c rest, P w → w.calls = c :: rest → c.time ≤ w.now → P (execCall (exec p) c { w with calls := rest }))
+    (hit : ∀ w, P w → P (nextIter w))
+    (hadv : ∀ w c rest, P w → w.calls = c :: rest → w.crashed = false → P { w with now := max w.now c.time }) :
+    ∀ n w, P w → P (spinB p B n w)
+  | 0, _, h => h
+  | n + 1, w, h => by
+      unfold spinB
+      split
+      · exact h
+      · rename_i hcr
+        split
+        · exact h
+        · rename_i c rest hc
+          have hcr' : w.crashed = false := by simpa using hcr
+          exact spinB_inv p B P hpop hit hadv n _ (iterateB_inv p P hpop hit _ _ (hadv w c rest h hc hcr'))
+
+theorem inv1_nextIter {p : Prog} {w : W} (h : Inv1 p w) : Inv1 p (nextIter w) :=
+  inv1_upd _ (Nat.le_succ _) h
 
 /-! ## the loop ends: a potential that every executed call lowers -/
 
 theorem reach_calls_length {k : Nat} {w w' : W} (h : Reach k w w') : w'.calls.length ≤ w.calls.length + k := by
   induction h with
   | refl w => simp
+  | log n _ ih => simpa using ih
   | upd f _ _ ih => simpa using ih
   | sched d a ha _ ih =>
     simp only [schedule_calls, insert_length] at ih
@@ -686,79 +821,170 @@ theorem pot_pop (p : Prog) (w : W) (c : DCall (QAct CAct)) (rest : List (DCall (
       simp only [logEvent_calls, logEvent_u] at this hk2
       omega
 
-def NoDue (w : W) : Prop := ∀ c rest, w.calls = c :: rest → w.now < c.time
+/-- nothing that is still queued is both due and eligible for the iteration in progress -/
+def NoDue (w : W) : Prop := ∀ c ∈ w.calls, ¬ (c.time ≤ w.now ∧ eligible w.u.iter c = true)
 
-theorem drain_pot (p : Prog) : ∀ (n : Nat) (w : W), pot p (drain (exec p) n w) ≤ pot p w
+theorem pot_nextIter (p : Prog) (w : W) : pot p (nextIter w) = pot p w := rfl
+
+theorem drainB_pot (p : Prog) : ∀ (n : Nat) (w : W), pot p (drainB p n w) ≤ pot p w
   | 0, w => Nat.le_refl _
   | n + 1, w => by
-      unfold drain
+      unfold drainB
       split
       · exact Nat.le_refl _
       · rename_i c rest hc
         split
-        · exact Nat.le_trans (drain_pot p n _) (Nat.le_of_lt (pot_pop p w c rest hc))
+        · exact Nat.le_trans (drainB_pot p n _) (Nat.le_of_lt (pot_pop p w c rest hc))
         · exact Nat.le_refl _
 
-theorem drain_done (p : Prog) : ∀ (n : Nat) (w : W), pot p w ≤ n → NoDue (drain (exec p) n w)
-  | 0, w, h => by
+/-- the iteration counter does not change while an iteration runs -/
+theorem exec_iter (p : Prog) (c : DCall (QAct CAct)) (w : W) : (execCall (exec p) c w).u.iter = w.u.iter := by
+  rcases c with ⟨t, q⟩
+  cases q with
+  | timeout => simp [execCall]
+  | user l a =>
+    cases a with
+    | noop => rfl
+    | stop => simp only [execCall, exec]; split <;> rfl
+    | stageDone r =>
+      obtain ⟨k, hk, _⟩ := resume_reach p r (logEvent (.user l) w)
+      exact Reach.inv (fun w' : W => w'.u.iter = w.u.iter) (fun w' n h => h) (fun w' f hf h => by simp [(hf w'.u).2.1, h]) (fun _ _ _ _ h => h)
+        (fun w' b h => by simpa using h) hk rfl
+
+/-- the head is not (due and eligible): then nothing in the sorted queue is (inside an iteration) -/
+theorem noDue_of_head {p : Prog} {w : W} (hi : Inv1 p w) (hiter : 0 < w.u.iter)
+    (hh : ∀ c rest, w.calls = c :: rest → ¬ (c.time ≤ w.now ∧ eligible w.u.iter c = true)) : NoDue w := by
+  intro x hx ⟨hx1, hx2⟩
+  cases hcalls : w.calls with
+  | nil => rw [hcalls] at hx; cases hx
+  | cons c rest =>
+    have hs := hi.sorted
+    rw [hcalls] at hx hs
+    rcases List.mem_cons.mp hx with rfl | hx
+    · exact hh _ rest hcalls ⟨hx1, hx2⟩
+    · obtain ⟨h1, _, h3⟩ := hs.head x hx
+      have hgc := hi.ge c (by rw [hcalls]; exact List.mem_cons_self)
+      have hct : c.time = x.time := by omega
+      have hb := h3 hct
+      -- the head is due; `x`, scheduled no earlier than the head, is eligible: so is the head
+      apply hh c rest hcalls
+      refine ⟨by omega, ?_⟩
+      rcases c with ⟨tc, qc⟩
+      rcases x with ⟨tx, qx⟩
+      cases qc with
+      | timeout => rfl
+      | user lc ac =>
+        cases qx with
+        | timeout =>
+          simp only [bornOf] at hb
+          simp only [eligible, decide_eq_true_eq]
+          omega
+        | user lx ax =>
+          simp only [bornOf] at hb
+          simp only [eligible, decide_eq_true_eq] at hx2 ⊢
+          omega
+
+theorem drainB_done (p : Prog) : ∀ (n : Nat) (w : W), Inv1 p w → 0 < w.u.iter → pot p w ≤ n → NoDue (drainB p n w)
+  | 0, w, hi, hit, h => by
       have : w.calls = [] := List.eq_nil_of_length_eq_zero (by unfold pot at h; omega)
-      intro c rest hc; simp [drain, this] at hc
-  | n + 1, w, h => by
-      unfold drain
+      intro c hc; simp [drainB, this] at hc
+  | n + 1, w, hi, hit, h => by
+      unfold drainB
       split
-      · rename_i hc; intro c rest hc'; rw [hc] at hc'; cases hc'
+      · rename_i hc; intro c hc'; rw [hc] at hc'; cases hc'
       · rename_i c rest hc
         split
-        · have := pot_pop p w c rest hc
-          exact drain_done p n _ (by omega)
+        · rename_i hd
+          have := pot_pop p w c rest hc
+          exact drainB_done p n _ (inv1_pop hi c rest hc hd.1) (by rw [exec_iter]; exact hit) (by omega)
         · rename_i hnd
+          apply noDue_of_head hi hit
           intro c' rest' hc'
           rw [hc] at hc'
           obtain ⟨rfl, _⟩ := List.cons.inj hc'
-          omega
+          exact hnd
 
-theorem drain_pot_lt (p : Prog) (n : Nat) (w : W) (c : DCall (QAct CAct)) (rest : List (DCall (QAct CAct)))
-    (hc : w.calls = c :: rest) (hdue : c.time ≤ w.now) : pot p (drain (exec p) (n + 1) w) < pot p w := by
-  unfold drain
-  simp only [hc, hdue, if_true]
-  exact Nat.lt_of_le_of_lt (drain_pot p n _) (pot_pop p w c rest hc)
+theorem drainB_pot_lt (p : Prog) (n : Nat) (w : W) (c : DCall (QAct CAct)) (rest : List (DCall (QAct CAct)))
+    (hc : w.calls = c :: rest) (hdue : c.time ≤ w.now ∧ eligible w.u.iter c = true) :
+    pot p (drainB p (n + 1) w) < pot p w := by
+  unfold drainB
+  simp only [hc, hdue, and_self, if_true]
+  exact Nat.lt_of_le_of_lt (drainB_pot p n _) (pot_pop p w c rest hc)
 
-/-- the loop of `reactor.run()` ends because the reactor is crashed (or nothing is left), and then nothing
-that is still queued is due -/
-theorem spin_done (p : Prog) (B : Nat) : ∀ (n : Nat) (w : W), pot p w ≤ B → pot p w < n →
-    ((spin (exec p) (fun _ => B) n w).crashed = true ∨ (spin (exec p) (fun _ => B) n w).calls = []) ∧
-    (w.crashed = false → NoDue (spin (exec p) (fun _ => B) n w)) ∧
-    pot p (spin (exec p) (fun _ => B) n w) ≤ pot p w
-  | 0, _, _, h => by omega
-  | n + 1, w, hB, hn => by
-      unfold spin
+theorem drainB_crashed (p : Prog) (n : Nat) (w : W) : (drainB p n w).u.iter = w.u.iter := by
+  induction n generalizing w with
+  | zero => rfl
+  | succ n ih =>
+    unfold drainB
+    split
+    · rfl
+    · split
+      · rw [ih, exec_iter]
+      · rfl
+
+/-- the loop of `reactor.run()` ends because the reactor is crashed (or nothing is left), and then nothing that
+is still queued is due and eligible -/
+theorem spinB_done (p : Prog) (B : Nat) : ∀ (n : Nat) (w : W), Inv1 p w → pot p w ≤ B → pot p w < n →
+    ((spinB p B n w).crashed = true ∨ (spinB p B n w).calls = []) ∧
+    (w.crashed = false → w.calls ≠ [] → NoDue (spinB p B n w) ∧ 0 < (spinB p B n w).u.iter) ∧
+    pot p (spinB p B n w) ≤ pot p w
+  | 0, _, _, _, h => by omega
+  | n + 1, w, hi, hB, hn => by
+      unfold spinB
       split
       · rename_i hcr
         exact ⟨Or.inl hcr, (fun h => by rw [hcr] at h; cases h), Nat.le_refl _⟩
-      · split
+      · rename_i hcr
+        have hcr' : w.crashed = false := by simpa using hcr
+        split
         · rename_i hc
-          exact ⟨Or.inr hc, (fun _ c rest hc' => by rw [hc] at hc'; cases hc'), Nat.le_refl _⟩
+          exact ⟨Or.inr hc, (fun _ h => absurd hc h), Nat.le_refl _⟩
         · rename_i c rest hc
-          simp only []
-          obtain ⟨w1, hw1⟩ : ∃ w1 : W, w1 = { w with now := max w.now c.time } := ⟨_, rfl⟩
-          rw [← hw1]
+          obtain ⟨w1, hw1⟩ : ∃ w1 : W, w1 = nextIter { w with now := max w.now c.time } := ⟨_, rfl⟩
+          have hi1 : Inv1 p w1 := hw1 ▸ inv1_nextIter (inv1_adv hi c rest hc hcr')
           have hp1 : pot p w1 = pot p w := by rw [hw1]; rfl
           have hc1 : w1.calls = c :: rest := by rw [hw1]; exact hc
-          have hdue : c.time ≤ w1.now := by rw [hw1]; show c.time ≤ max w.now c.time; omega
+          have hit1 : 0 < w1.u.iter := by rw [hw1]; exact Nat.succ_pos _
+          have hdue : c.time ≤ w1.now ∧ eligible w1.u.iter c = true := by
+            refine ⟨by rw [hw1]; show c.time ≤ max w.now c.time; omega, ?_⟩
+            have hb := hi.born c (by rw [hc]; exact List.mem_cons_self)
+            have hiter1 : w1.u.iter = w.u.iter + 1 := by rw [hw1]; rfl
+            rw [hiter1]
+            rcases c with ⟨tc, qc⟩
+            cases qc with
+            | timeout => rfl
+            | user l a =>
+              simp only [bornOf] at hb
+              simp only [eligible, decide_eq_true_eq]
+              omega
           have hB1 : 1 ≤ B := by simp [pot, hc] at hB; omega
           obtain ⟨B', rfl⟩ : ∃ B', B = B' + 1 := ⟨B - 1, by omega⟩
-          have hlt := drain_pot_lt p B' w1 c rest hc1 hdue
-          have hnd := drain_done p (B' + 1) w1 (by omega)
-          have ih := spin_done p (B' + 1) n (drain (exec p) (B' + 1) w1) (by omega) (by omega)
-          refine ⟨ih.1, fun _ => ?_, by omega⟩
-          cases hcr2 : (drain (exec p) (B' + 1) w1).crashed with
-          | false => exact ih.2.1 hcr2
+          have hlt := drainB_pot_lt p B' w1 c rest hc1 hdue
+          have hnd := drainB_done p (B' + 1) w1 hi1 hit1 (by omega)
+          have hi2 : Inv1 p (drainB p (B' + 1) w1) :=
+            drainB_inv p (Inv1 p) (fun _ c rest h hc hd => inv1_pop h c rest hc hd) _ _ hi1
+          have hit2 : 0 < (drainB p (B' + 1) w1).u.iter := by rw [drainB_crashed]; exact hit1
+          have heq : iterateB p (B' + 1) { w with now := max w.now c.time } = drainB p (B' + 1) w1 := by
+            rw [hw1]; rfl
+          rw [heq]
+          have ih := spinB_done p (B' + 1) n (drainB p (B' + 1) w1) hi2 (by omega) (by omega)
+          refine ⟨ih.1, fun _ _ => ?_, by omega⟩
+          cases hcr2 : (drainB p (B' + 1) w1).crashed with
+          | false =>
+            cases hc2 : (drainB p (B' + 1) w1).calls with
+            | nil =>
+              have : spinB p (B' + 1) n (drainB p (B' + 1) w1) = drainB p (B' + 1) w1 := by
+                cases n with
+                | zero => rfl
+                | succ n => unfold spinB; simp [hcr2, hc2]
+              rw [this]; exact ⟨hnd, hit2⟩
+            | cons c2 r2 => exact ih.2.1 hcr2 (by rw [hc2]; simp)
           | true =>
-            have : spin (exec p) (fun _ => B' + 1) n (drain (exec p) (B' + 1) w1) = drain (exec p) (B' + 1) w1 := by
+            have : spinB p (B' + 1) n (drainB p (B' + 1) w1) = drainB p (B' + 1) w1 := by
               cases n with
               | zero => rfl
-              | succ n => unfold spin; simp [hcr2]
-            rw [this]; exact hnd
+              | succ n => unfold spinB; simp [hcr2]
+            rw [this]; exact ⟨hnd, hit2⟩
 
 /-! ## the stage log and the path -/
 
@@ -796,19 +1022,7 @@ theorem seqOk_append_path : ∀ (pre fut : List (SName × Stage)) (log : List (S
       | none => simp [seqOk, overAt, ih.2]
       | some e1 => simp only [List.cons_append, seqOk, overAt, ih.1, ih.2, and_self]
 
-/-! ### registering cleanups -/
-
-theorem register_stack (cs : List Stage) (c : Chain) :
-    (Chain.register cs c).stack = (number c.nextCleanup cs).reverse ++ c.stack ∧
-    (Chain.register cs c).nextCleanup = c.nextCleanup + cs.length := by
-  induction cs generalizing c with
-  | nil => simp [Chain.register, number]
-  | cons s rest ih =>
-    simp only [Chain.register, List.foldl_cons] at ih ⊢
-    obtain ⟨h1, h2⟩ := ih { c with stack := (c.nextCleanup, s) :: c.stack, nextCleanup := c.nextCleanup + 1 }
-    rw [h1, h2]
-    simp [number]
-    omega
+/-! ### registering cleanups, and the order in which they run -/
 
 /-- what `register` does to the stack only depends on the stack and the counter -/
 theorem register_congr (cs : List Stage) (c c' : Chain) (h1 : c.stack = c'.stack) (h2 : c.nextCleanup = c'.nextCleanup) :
@@ -817,48 +1031,58 @@ theorem register_congr (cs : List Stage) (c c' : Chain) (h1 : c.stack = c'.stack
   rw [(register_stack cs c).1, (register_stack cs c).2, (register_stack cs c').1, (register_stack cs c').2, h1, h2]
   exact ⟨rfl, rfl⟩
 
-theorem number_append : ∀ (i : Nat) (a b : List Stage), number i (a ++ b) = number i a ++ number (i + a.length) b
-  | _, [], b => by simp [number]
-  | i, x :: a, b => by
-      simp only [List.cons_append, number, number_append (i + 1) a b, List.length_cons]
-      have : i + 1 + a.length = i + (a.length + 1) := by omega
-      rw [this]
+/-- enough fuel is enough -/
+theorem expand_fuel : ∀ (n m next : Nat) (stack : List (Nat × Stage)), stackSize stack < n → stackSize stack < m →
+    expand n next stack = expand m next stack
+  | 0, _, _, _, h, _ => by omega
+  | _, 0, _, _, _, h => by omega
+  | n + 1, m + 1, next, [], _, _ => rfl
+  | n + 1, m + 1, next, (i, c) :: rest, hn, hm => by
+      have hsz := size_eq c
+      have h1 : stackSize ((number next c.cleanups).reverse ++ rest) = sizeL c.cleanups + stackSize rest := by
+        rw [stackSize_append, stackSize_reverse, stackSize_number]
+      have h2 : stackSize ((i, c) :: rest) = c.size + stackSize rest := by simp [stackSize]
+      simp only [expand]
+      rw [expand_fuel n m _ _ (by omega) (by omega)]
 
-def cleanupPath (stack : List (Nat × Stage)) : List (SName × Stage) := stack.map fun ic => (SName.cleanup ic.1, ic.2)
+/-- the cleanups still to run, from the chain state -/
+def cleanupsOf (c : Chain) : List (SName × Stage) := expand (stackSize c.stack + 1) c.nextCleanup c.stack
 
 /-- what the chain will still go through from where it waits -/
 def future (p : Prog) (c : Chain) : List (SName × Stage) :=
   match c.pos with
   | .setUp =>
-    if behOk p.setUp.stage.beh then
-      (SName.body, p.body.stage) :: (SName.tearDown, p.tearDown.stage) ::
-        cleanupPath (Chain.register p.tearDown.cleanups (Chain.register p.body.cleanups c)).stack
-    else cleanupPath c.stack
-  | .body => (SName.tearDown, p.tearDown.stage) :: cleanupPath (Chain.register p.tearDown.cleanups c).stack
-  | .tearDown | .cleanup => cleanupPath c.stack
+    if behOk p.setUp.beh then
+      (SName.body, p.body) :: (SName.tearDown, p.tearDown) ::
+        cleanupsOf (Chain.register p.tearDown.cleanups (Chain.register p.body.cleanups c))
+    else cleanupsOf c
+  | .body => (SName.tearDown, p.tearDown) :: cleanupsOf (Chain.register p.tearDown.cleanups c)
+  | .tearDown | .cleanup => cleanupsOf c
   | _ => []
+
+theorem cleanupsOf_congr (c c' : Chain) (h1 : c.stack = c'.stack) (h2 : c.nextCleanup = c'.nextCleanup) :
+    cleanupsOf c = cleanupsOf c' := by
+  simp only [cleanupsOf, h1, h2]
 
 /-- the path, seen from the start of `setUp` (cleanups of `setUp` registered on an empty stack) -/
 theorem path_eq (p : Prog) (c : Chain) (hs : c.stack = []) (hn : c.nextCleanup = 0) :
-    path p = (SName.setUp, p.setUp.stage) ::
-      (if behOk p.setUp.stage.beh then
-        (SName.body, p.body.stage) :: (SName.tearDown, p.tearDown.stage) ::
-          cleanupPath (Chain.register p.tearDown.cleanups
-            (Chain.register p.body.cleanups (Chain.register p.setUp.cleanups c))).stack
-       else cleanupPath (Chain.register p.setUp.cleanups c).stack) := by
-  simp only [path]
-  congr 1
+    path p = (SName.setUp, p.setUp) ::
+      (if behOk p.setUp.beh then
+        (SName.body, p.body) :: (SName.tearDown, p.tearDown) ::
+          cleanupsOf (Chain.register p.tearDown.cleanups
+            (Chain.register p.body.cleanups (Chain.register p.setUp.cleanups c)))
+       else cleanupsOf (Chain.register p.setUp.cleanups c)) := by
   have e1 := register_stack p.setUp.cleanups c
   rw [hs, hn] at e1
+  have e2 := register_stack p.body.cleanups (Chain.register p.setUp.cleanups c)
+  have e3 := register_stack p.tearDown.cleanups (Chain.register p.body.cleanups (Chain.register p.setUp.cleanups c))
+  simp only [path, cleanupsOf]
+  congr 1
   split
-  · have e2 := register_stack p.body.cleanups (Chain.register p.setUp.cleanups c)
-    have e3 := register_stack p.tearDown.cleanups (Chain.register p.body.cleanups (Chain.register p.setUp.cleanups c))
-    rw [e3.1, e2.1, e2.2, e1.1, e1.2]
-    simp only [List.cons_append, List.nil_append, cleanupPath, List.append_nil, Nat.zero_add, List.cons.injEq, true_and]
-    rw [number_append, number_append]
-    simp [List.reverse_append, Nat.zero_add]
-  · rw [e1.1]
-    simp [cleanupPath]
+  · rw [e3.1, e3.2, e2.1, e2.2, e1.1, e1.2]
+    simp
+  · rw [e1.1, e1.2]
+    simp
 
 /-! ## the chain invariant -/
 
@@ -919,6 +1143,8 @@ structure Book (pre : List (SName × Stage)) (c : Chain) : Prop where
   dropped : c.dropped = 0 ↔ (sidesOf pre).contains .dropfailed = false
   excs : c.excs ≠ [] ↔ c.fails = true
   obs : ∀ e ∈ c.stages, e.2.2 = c.observers.length
+  kiMain : ∀ x ∈ pre, isMain x.1 = true → x.2.beh = .raise .ki → Exc.ki ∈ c.excs
+  kiSome : (Exc.ki ∈ c.excs ∨ c.lastExc = some .ki) → ∃ x ∈ pre, hasKI x.2.beh = true
 
 /-- the chain is executing (synchronously, at `now`): `pre` has run and is over, `fut` is still to come -/
 structure Run (p : Prog) (w : W) (pre fut : List (SName × Stage)) : Prop where
@@ -930,7 +1156,7 @@ structure Run (p : Prog) (w : W) (pre fut : List (SName × Stage)) : Prop where
   book : Book pre w.u
   failsOk : (w.u.fails = true ∨ w.u.lastExc.isSome = true) ↔ ∃ x ∈ pre, behOk x.2.beh = false
   unrec : w.sp.success = none
-  tA : w.sp.tcall = .pending → allSyncL pre = true ∨ (w.now < p.timeout ∧ ∀ s ∈ p.stops, w.now ≤ s)
+  tA : w.sp.tcall = .pending → (allSyncL pre = true ∧ w.now = 0) ∨ (w.now < p.timeout ∧ ∀ s ∈ p.stops, w.now ≤ s)
   tB : w.sp.tcall ≠ .pending → allSyncL pre = false ∧ p.timeout ≤ w.now
 
 def isPending : Pos → Bool
@@ -943,7 +1169,7 @@ structure Susp (p : Prog) (w : W) : Prop where
     path p = (pre ++ [(n, st)]) ++ future p w.u ∧
     (pre ++ [(n, st)]).length = w.u.stages.length ∧
     seqOk (pre ++ [(n, st)]) w.u.stages (some 0) = true ∧
-    isSync st.beh = false ∧ isPending w.u.pos = true ∧ (w.u.pos = .setUp → st = p.setUp.stage) ∧
+    isSync st.beh = false ∧ isPending w.u.pos = true ∧ (w.u.pos = .setUp → st = p.setUp) ∧
     sdOf w.calls = (match overAt (some 0) (pre ++ [(n, st)]) w.u.stages with
       | some over => [(over, resOf st.beh)]
       | none => []) ∧
@@ -954,7 +1180,8 @@ structure Susp (p : Prog) (w : W) : Prop where
 
 /-- in time, as a proposition about the stages that ran and the log -/
 def InTimeP (p : Prog) (pre : List (SName × Stage)) (log : List (SName × Nat × Nat)) : Prop :=
-  allSyncL pre = true ∨ ∃ over, overAt (some 0) pre log = some over ∧ over < p.timeout ∧ ∀ s ∈ p.stops, over ≤ s
+  ∃ over, overAt (some 0) pre log = some over ∧
+    ((allSyncL pre = true ∧ over = 0) ∨ (over < p.timeout ∧ ∀ s ∈ p.stops, over ≤ s))
 
 /-- the chain is over -/
 structure Fin (p : Prog) (w : W) : Prop where
@@ -963,7 +1190,7 @@ structure Fin (p : Prog) (w : W) : Prop where
     sdOf w.calls = [] ∧ Book pre w.u ∧ w.u.pos = .done ∧
     (w.u.fails = true ↔ (∃ x ∈ pre, behOk x.2.beh = false) ∨ w.u.forced = true) ∧
     (∀ b, w.sp.success = some b → b = (if w.u.fails then 0 else 1) ∧ InTimeP p pre w.u.stages) ∧
-    (w.sp.success = none → ¬ InTimeP p pre w.u.stages)
+    (w.sp.success = none → allSyncL pre = false ∧ ∃ over, overAt (some 0) pre w.u.stages = some over ∧ p.timeout ≤ over)
 
 def CInv (p : Prog) (w : W) : Prop := Susp p w ∨ Fin p w
 
@@ -1013,7 +1240,7 @@ theorem launch_world (n : SName) (st : Stage) (w : W) :
       | .fire d => [(w.now + d, none)]
       | .failD d k => [(w.now + d, some k)]
       | _ => [])) := by
-  obtain ⟨h1, h2, h3⟩ := sidesW_frame st.sides (updU (Chain.log n w.now) w)
+  obtain ⟨h1, h2, h3⟩ := sidesW_frame st.sides (updU (Chain.log n w.now w.running) w)
   simp only [launch]
   cases st.beh with
   | ret => exact ⟨h1, h2, fun h => by rw [h3]; exact h⟩
@@ -1065,7 +1292,8 @@ theorem frame_pos (q : Pos) : Frame (fun u => { u with pos := q }) :=
 theorem book_frame {pre : List (SName × Stage)} {c : Chain} {g : Chain → Chain} (hg : Frame g) (h : Book pre c) :
     Book pre (g c) :=
   ⟨by rw [hg.forced]; exact h.forced, by rw [hg.logged]; exact h.logged, by rw [hg.dropped]; exact h.dropped,
-   by rw [hg.excs, hg.fails]; exact h.excs, by rw [hg.stages, hg.observers]; exact h.obs⟩
+   by rw [hg.excs, hg.fails]; exact h.excs, by rw [hg.stages, hg.observers]; exact h.obs,
+   by rw [hg.excs]; exact h.kiMain, by rw [hg.excs, hg.lastExc]; exact h.kiSome⟩
 
 theorem run_frame {p : Prog} {w : W} {pre fut : List (SName × Stage)} {g : Chain → Chain} (hg : Frame g)
     (h : Run p w pre fut) : Run p (updU g w) pre fut :=
@@ -1073,7 +1301,7 @@ theorem run_frame {p : Prog} {w : W} {pre fut : List (SName × Stage)} {g : Chai
    h.noSD, book_frame hg h.book, by simpa [hg.fails, hg.lastExc] using h.failsOk, h.unrec, h.tA, h.tB⟩
 
 /-- what noting the result of a completed stage may change -/
-structure NoteOK (r : Option Exc) (f : Chain → Chain) : Prop where
+structure NoteOK (r : Option Exc) (main : Bool) (f : Chain → Chain) : Prop where
   stages : ∀ c, (f c).stages = c.stages
   forced : ∀ c, (f c).forced = c.forced
   logged : ∀ c, (f c).logged = c.logged
@@ -1082,22 +1310,63 @@ structure NoteOK (r : Option Exc) (f : Chain → Chain) : Prop where
   excs : ∀ c, (c.excs ≠ [] ↔ c.fails = true) → ((f c).excs ≠ [] ↔ (f c).fails = true)
   fails : ∀ c, ((f c).fails = true ∨ (f c).lastExc.isSome = true) ↔
     (c.fails = true ∨ c.lastExc.isSome = true ∨ r.isSome = true)
+  mono : ∀ c e, e ∈ c.excs → e ∈ (f c).excs
+  kiMain : main = true → r = some .ki → ∀ c, Exc.ki ∈ (f c).excs
+  kiSome : ∀ c, (Exc.ki ∈ (f c).excs ∨ (f c).lastExc = some .ki) → (Exc.ki ∈ c.excs ∨ c.lastExc = some .ki ∨ r = some .ki)
 
-theorem noteOK_main (r : Option Exc) : NoteOK r (Chain.noteMain r) := by
+theorem noteOK_main (r : Option Exc) : NoteOK r true (Chain.noteMain r) := by
   cases r with
-  | none => exact ⟨fun _ => rfl, fun _ => rfl, fun _ => rfl, fun _ => rfl, fun _ => rfl, fun _ h => h, fun c => by simp [Chain.noteMain]⟩
+  | none =>
+    exact ⟨fun _ => rfl, fun _ => rfl, fun _ => rfl, fun _ => rfl, fun _ => rfl, fun _ h => h, (fun c => by simp [Chain.noteMain]),
+      fun _ _ h => h, (fun _ h => by cases h), (fun c h => by
+        rcases h with h | h
+        · exact Or.inl h
+        · exact Or.inr (Or.inl h))⟩
   | some k =>
-    refine ⟨fun _ => rfl, fun _ => rfl, fun _ => rfl, fun _ => rfl, fun _ => rfl, fun c _ => ?_, fun c => ?_⟩
+    refine ⟨fun _ => rfl, fun _ => rfl, fun _ => rfl, fun _ => rfl, fun _ => rfl, fun c _ => ?_, fun c => ?_,
+      fun c e h => ?_, fun _ h c => ?_, fun c h => ?_⟩
     · simp [Chain.noteMain, Chain.caught]
     · simp [Chain.noteMain, Chain.caught]
+    · simp [Chain.noteMain, Chain.caught, h]
+    · injection h with h; subst h; simp [Chain.noteMain, Chain.caught]
+    · simp only [Chain.noteMain, Chain.caught, List.mem_append, List.mem_singleton] at h
+      rcases h with (h | h) | h
+      · exact Or.inl h
+      · exact Or.inr (Or.inr (by rw [h]))
+      · exact Or.inr (Or.inl h)
 
-theorem noteOK_cleanup (r : Option Exc) : NoteOK r (Chain.noteCleanup r) := by
+theorem noteOK_cleanup (r : Option Exc) : NoteOK r false (Chain.noteCleanup r) := by
   cases r with
-  | none => exact ⟨fun _ => rfl, fun _ => rfl, fun _ => rfl, fun _ => rfl, fun _ => rfl, fun _ h => h, fun c => by simp [Chain.noteCleanup]⟩
+  | none =>
+    exact ⟨fun _ => rfl, fun _ => rfl, fun _ => rfl, fun _ => rfl, fun _ => rfl, fun _ h => h, (fun c => by simp [Chain.noteCleanup]),
+      fun _ _ h => h, (fun h => by cases h), (fun c h => by
+        rcases h with h | h
+        · exact Or.inl h
+        · exact Or.inr (Or.inl h))⟩
   | some k =>
-    refine ⟨fun _ => rfl, fun _ => rfl, fun _ => rfl, fun _ => rfl, fun _ => rfl, fun c h => ?_, fun c => ?_⟩
+    refine ⟨fun _ => rfl, fun _ => rfl, fun _ => rfl, fun _ => rfl, fun _ => rfl, fun c h => ?_, fun c => ?_,
+      fun c e h => h, (fun h => by cases h), fun c h => ?_⟩
     · simpa [Chain.noteCleanup] using h
     · simp [Chain.noteCleanup]
+    · simp only [Chain.noteCleanup] at h
+      rcases h with h | h
+      · exact Or.inl h
+      · exact Or.inr (Or.inr h)
+
+/-- the unclaimed-exception accounting after the result `r` of a stage of `pre` has been noted -/
+theorem ki_note {pre : List (SName × Stage)} {c : Chain} {r : Option Exc} {main : Bool} {f : Chain → Chain}
+    (hf : NoteOK r main f)
+    (hsome : (Exc.ki ∈ c.excs ∨ c.lastExc = some .ki ∨ r = some .ki) → ∃ x ∈ pre, hasKI x.2.beh = true)
+    (hmain : ∀ x ∈ pre, isMain x.1 = true → x.2.beh = .raise .ki → Exc.ki ∈ c.excs ∨ (main = true ∧ r = some .ki)) :
+    (∀ x ∈ pre, isMain x.1 = true → x.2.beh = .raise .ki → Exc.ki ∈ (f c).excs) ∧
+    ((Exc.ki ∈ (f c).excs ∨ (f c).lastExc = some .ki) → ∃ x ∈ pre, hasKI x.2.beh = true) := by
+  constructor
+  · intro x hx h1 h2
+    rcases hmain x hx h1 h2 with h | ⟨h3, h4⟩
+    · exact hf.mono c _ h
+    · exact hf.kiMain h3 h4 c
+  · intro h
+    exact hsome (hf.kiSome c h)
 
 theorem sidesOf_snoc (pre : List (SName × Stage)) (n : SName) (st : Stage) :
     sidesOf (pre ++ [(n, st)]) = sidesOf pre ++ st.sides := by
@@ -1109,11 +1378,14 @@ theorem contains_append (a b : List Side) (x : Side) : (a ++ b).contains x = (a.
   | cons y rest ih => simp [List.contains_cons, ih, Bool.or_assoc]
 
 /-- the accounting after a stage has been launched -/
-theorem book_launch {pre : List (SName × Stage)} {c : Chain} (n : SName) (st : Stage) (t : Nat) (h : Book pre c) :
-    Book (pre ++ [(n, st)]) (st.sides.foldl (fun c s => Chain.side s c) (Chain.log n t c)) := by
-  obtain ⟨f1, f2, f3, f4, f5, f6, f7, f8⟩ := sidesC_frame st.sides (Chain.log n t c)
-  obtain ⟨b1, b2, b3⟩ := sidesC_book st.sides (Chain.log n t c)
-  refine ⟨?_, ?_, ?_, ?_, ?_⟩
+theorem book_launch_core {pre : List (SName × Stage)} {c : Chain} (n : SName) (st : Stage) (t : Nat) (b : Bool) (h : Book pre c) :
+    let c' := st.sides.foldl (fun c s => Chain.side s c) (Chain.log n t b c)
+    c'.forced = (sidesOf (pre ++ [(n, st)])).contains .expect ∧ c'.logged = loggedLeft (sidesOf (pre ++ [(n, st)])) ∧
+    (c'.dropped = 0 ↔ (sidesOf (pre ++ [(n, st)])).contains .dropfailed = false) ∧ (c'.excs ≠ [] ↔ c'.fails = true) ∧
+    (∀ e ∈ c'.stages, e.2.2 = c'.observers.length) ∧ c'.excs = c.excs ∧ c'.lastExc = c.lastExc := by
+  obtain ⟨f1, f2, f3, f4, f5, f6, f7, f8⟩ := sidesC_frame st.sides (Chain.log n t b c)
+  obtain ⟨b1, b2, b3⟩ := sidesC_book st.sides (Chain.log n t b c)
+  refine ⟨?_, ?_, ?_, ?_, ?_, by rw [f4]; rfl, by rw [f6]; rfl⟩
   · rw [b1, sidesOf_snoc, contains_append]
     simp [Chain.log, h.forced]
   · rw [b2, sidesOf_snoc, loggedLeft_eq, List.foldl_append, ← loggedLeft_eq]
@@ -1129,12 +1401,28 @@ theorem book_launch {pre : List (SName × Stage)} {c : Chain} (n : SName) (st : 
     · exact h.obs e he
     · rfl
 
+/-- the accounting after a stage has been launched (its own exception, if any, not yet noted) -/
+theorem book_launch {pre : List (SName × Stage)} {c : Chain} (n : SName) (st : Stage) (t : Nat) (b : Bool) (h : Book pre c)
+    (hnew : isMain n = true → st.beh = .raise .ki → Exc.ki ∈ c.excs) :
+    Book (pre ++ [(n, st)]) (st.sides.foldl (fun c s => Chain.side s c) (Chain.log n t b c)) := by
+  obtain ⟨c1, c2, c3, c4, c5, c6, c7⟩ := book_launch_core n st t b h
+  refine ⟨c1, c2, c3, c4, c5, ?_, ?_⟩
+  · rw [c6]
+    intro x hx h1 h2
+    rcases List.mem_append.mp hx with hx | hx
+    · exact h.kiMain x hx h1 h2
+    · simp only [List.mem_singleton] at hx; subst hx; exact hnew h1 h2
+  · rw [c6, c7]
+    intro hk
+    obtain ⟨x, hx, hx2⟩ := h.kiSome hk
+    exact ⟨x, List.mem_append_left _ hx, hx2⟩
+
 theorem launch_stages (n : SName) (st : Stage) (w : W) :
     (launch n st w).u.stages = w.u.stages ++ [(n, w.now, w.u.observers.length)] ∧
     (launch n st w).u.fails = w.u.fails ∧ (launch n st w).u.lastExc = w.u.lastExc ∧
     (launch n st w).u.excs = w.u.excs := by
   rw [launch_u]
-  obtain ⟨_, _, _, f4, f5, f6, f7, _⟩ := sidesC_frame st.sides (Chain.log n w.now w.u)
+  obtain ⟨_, _, _, f4, f5, f6, f7, _⟩ := sidesC_frame st.sides (Chain.log n w.now w.running w.u)
   exact ⟨by rw [f7]; rfl, by rw [f5]; rfl, by rw [f6]; rfl, by rw [f4]; rfl⟩
 
 theorem allSyncL_snoc (pre : List (SName × Stage)) (n : SName) (st : Stage) :
@@ -1144,10 +1432,12 @@ theorem allSyncL_snoc (pre : List (SName × Stage)) (n : SName) (st : Stage) :
 /-- a synchronous stage: launched, over, its result noted -/
 theorem launch_completed {p : Prog} {w : W} {pre fut : List (SName × Stage)} {n : SName} {st : Stage}
     (h : Run p w pre ((n, st) :: fut)) (r : Option Exc) (hs : statusOf st.beh = .completed r)
-    (f : Chain → Chain) (hf : NoteOK r f) : Run p (updU f (launch n st w)) (pre ++ [(n, st)]) fut := by
+    (f : Chain → Chain) {main : Bool} (hf : NoteOK r main f) (hmain : isMain n = main) :
+    Run p (updU f (launch n st w)) (pre ++ [(n, st)]) fut := by
   obtain ⟨l1, l2, l3, l4⟩ := launch_stages n st w
   obtain ⟨w1, w2, w3⟩ := launch_world n st w
-  have hsync : isSync st.beh = true ∧ delayOf st.beh = some 0 ∧ (r.isSome = true ↔ behOk st.beh = false) := by
+  have hsync : isSync st.beh = true ∧ delayOf st.beh = some 0 ∧ (r.isSome = true ↔ behOk st.beh = false) ∧
+      (∀ k, st.beh = .raise k ↔ r = some k) := by
     cases hb : st.beh <;> simp [statusOf, hb] at hs <;> subst hs <;> simp [isSync, delayOf, behOk]
   have hsnoc := seqOk_snoc pre w.u.stages (some 0) w.now w.now w.u.observers.length n st h.len h.seq h.over (Nat.le_refl _)
   refine ⟨by simp [h.path], ?_, ?_, ?_, ?_, ?_, ?_, ?_, ?_, ?_⟩
@@ -1158,10 +1448,26 @@ theorem launch_completed {p : Prog} {w : W} {pre fut : List (SName × Stage)} {n
   · simp only [updU_calls]
     rw [w3 h.noSD]
     cases hb : st.beh <;> simp [statusOf, hb] at hs <;> rfl
-  · have hb := book_launch n st w.now h.book
-    rw [← launch_u] at hb
-    exact ⟨by simp [hf.forced, hb.forced], by simp [hf.logged, hb.logged], by simp [hf.dropped, hb.dropped],
-      by simpa using hf.excs _ hb.excs, by simpa [hf.stages, hf.observers] using hb.obs⟩
+  · obtain ⟨c1, c2, c3, c4, c5, c6, c7⟩ := book_launch_core n st w.now w.running h.book
+    rw [← launch_u] at c1 c2 c3 c4 c5 c6 c7
+    obtain ⟨k1, k2⟩ := ki_note (pre := pre ++ [(n, st)]) (c := (launch n st w).u) hf
+      (by
+        rw [c6, c7]
+        rintro (hk | hk | hk)
+        · obtain ⟨x, hx, hx2⟩ := h.book.kiSome (Or.inl hk); exact ⟨x, List.mem_append_left _ hx, hx2⟩
+        · obtain ⟨x, hx, hx2⟩ := h.book.kiSome (Or.inr hk); exact ⟨x, List.mem_append_left _ hx, hx2⟩
+        · refine ⟨(n, st), by simp, ?_⟩
+          have := (hsync.2.2.2 .ki).mpr hk
+          simp [hasKI, this])
+      (by
+        rw [c6]
+        intro x hx h1 h2
+        rcases List.mem_append.mp hx with hx | hx
+        · exact Or.inl (h.book.kiMain x hx h1 h2)
+        · simp only [List.mem_singleton] at hx; subst hx
+          exact Or.inr ⟨by rw [← hmain]; exact h1, (hsync.2.2.2 .ki).mp h2⟩)
+    exact ⟨by simp [hf.forced, c1], by simp [hf.logged, c2], by simp [hf.dropped, c3],
+      by simpa using hf.excs _ c4, by simpa [hf.stages, hf.observers] using c5, k1, k2⟩
   · simp only [updU_u]
     rw [hf.fails, l2, l3]
     constructor
@@ -1170,7 +1476,7 @@ theorem launch_completed {p : Prog} {w : W} {pre fut : List (SName × Stage)} {n
         exact ⟨x, List.mem_append_left _ hx, hx2⟩
       · obtain ⟨x, hx, hx2⟩ := h.failsOk.mp (Or.inr h1)
         exact ⟨x, List.mem_append_left _ hx, hx2⟩
-      · exact ⟨(n, st), by simp, hsync.2.2.mp h1⟩
+      · exact ⟨(n, st), by simp, hsync.2.2.1.mp h1⟩
     · rintro ⟨x, hx, hx2⟩
       rcases List.mem_append.mp hx with hx | hx
       · rcases h.failsOk.mpr ⟨x, hx, hx2⟩ with h1 | h1
@@ -1178,7 +1484,7 @@ theorem launch_completed {p : Prog} {w : W} {pre fut : List (SName × Stage)} {n
         · exact Or.inr (Or.inl h1)
       · simp only [List.mem_singleton] at hx
         subst hx
-        exact Or.inr (Or.inr (hsync.2.2.mpr hx2))
+        exact Or.inr (Or.inr (hsync.2.2.1.mpr hx2))
   · simp only [updU_sp, w2]; exact h.unrec
   · simp only [updU_sp, w2, updU_now, w1, allSyncL_snoc, hsync.1, Bool.and_true]; exact h.tA
   · simp only [updU_sp, w2, updU_now, w1, allSyncL_snoc, hsync.1, Bool.and_true]; exact h.tB
@@ -1202,7 +1508,8 @@ theorem launch_pending {p : Prog} {w : W} {pre fut : List (SName × Stage)} {n :
   obtain ⟨l1, l2, l3, l4⟩ := launch_stages n st w
   obtain ⟨w1, w2, w3⟩ := launch_world n st w
   have hsnoc := seqOk_snoc pre w.u.stages (some 0) w.now w.now w.u.observers.length n st h.len h.seq h.over (Nat.le_refl _)
-  have hb := book_launch n st w.now h.book
+  have hb := book_launch n st w.now w.running h.book (by
+    intro _ h2; rw [h2] at hs; simp [statusOf] at hs)
   rw [← launch_u] at hb
   refine ⟨by simp [h.path], by simp [l1, h.len], by rw [l1]; exact hsnoc.1, ?_, ?_, ?_, hb, by rw [l2, l3]; exact h.failsOk,
     by rw [w2]; exact h.unrec⟩
@@ -1214,7 +1521,7 @@ theorem launch_pending {p : Prog} {w : W} {pre fut : List (SName × Stage)} {n :
 
 theorem susp_of_pend {p : Prog} {w : W} {pre fut : List (SName × Stage)} {n : SName} {st : Stage}
     (h : Pend p w pre n st fut) (g : Chain → Chain) (hg : Frame g) (hpos : isPending (g w.u).pos = true)
-    (hfut : fut = future p (g w.u)) (hsu : (g w.u).pos = .setUp → st = p.setUp.stage) : Susp p (updU g w) :=
+    (hfut : fut = future p (g w.u)) (hsu : (g w.u).pos = .setUp → st = p.setUp) : Susp p (updU g w) :=
   ⟨pre, n, st, by show path p = pre ++ [(n, st)] ++ future p (g w.u); rw [← hfut]; exact h.path, by simpa [hg.stages] using h.len, by simpa [hg.stages] using h.seq,
     h.async, hpos, hsu, by simpa [hg.stages] using h.sd, by simpa [hg.stages] using h.never, book_frame hg h.book,
     by simpa [hg.fails, hg.lastExc] using h.failsOk, h.unrec⟩
@@ -1227,6 +1534,16 @@ theorem finish_fields (c : Chain) :
     ((c.excs ≠ [] ↔ c.fails = true) → (c.finish.excs ≠ [] ↔ c.finish.fails = true)) := by
   unfold Chain.finish
   cases h1 : c.lastExc <;> cases h2 : c.forced <;> simp [h1, h2]
+
+theorem finish_ki (c : Chain) :
+    (∀ e ∈ c.excs, e ∈ c.finish.excs) ∧ (Exc.ki ∈ c.finish.excs → Exc.ki ∈ c.excs ∨ c.lastExc = some .ki) ∧
+    c.finish.lastExc = c.lastExc := by
+  refine ⟨?_, ?_, ?_⟩ <;> unfold Chain.finish <;> cases h1 : c.lastExc <;> cases h2 : c.forced <;> simp [h1, h2]
+  all_goals first
+    | (intro e h; exact Or.inl h)
+    | (intro h; rcases h with h | h
+       · exact Or.inl h
+       · exact Or.inr h.symm)
 
 theorem finishChain_fin {p : Prog} {w : W} {pre : List (SName × Stage)} (h : Run p w pre []) : Fin p (finishChain w) := by
   obtain ⟨f1, f2, f3, f4, f5, f6, f7, f8⟩ := finish_fields w.u
@@ -1242,8 +1559,13 @@ theorem finishChain_fin {p : Prog} {w : W} {pre : List (SName × Stage)} (h : Ru
   refine ⟨pre, by simpa using h.path, by rw [hu, f3]; exact h.len, by rw [hu, f3]; exact h.seq, hcalls, ?_, by rw [hu]; exact f7,
     by rw [hu]; exact hfails, ?_, ?_⟩
   · rw [hu]
+    obtain ⟨g1, g2, g3⟩ := finish_ki w.u
     exact ⟨by rw [f2]; exact h.book.forced, by rw [f4]; exact h.book.logged, by rw [f5]; exact h.book.dropped,
-      f8 h.book.excs, by rw [f3, f6]; exact h.book.obs⟩
+      f8 h.book.excs, by rw [f3, f6]; exact h.book.obs, fun x hx h1 h2 => g1 _ (h.book.kiMain x hx h1 h2),
+      fun hk => h.book.kiSome (by
+        rcases hk with hk | hk
+        · exact g2 hk
+        · rw [g3] at hk; exact Or.inr hk)⟩
   · intro b hb
     by_cases hp : w.sp.tcall = .pending
     · have hs : (finishChain w).sp.success = some (if w.u.finish.fails then 0 else 1) := by
@@ -1253,9 +1575,7 @@ theorem finishChain_fin {p : Prog} {w : W} {pre : List (SName × Stage)} (h : Ru
       injection hb with hb
       refine ⟨by rw [hu, ← hb], ?_⟩
       rw [hu, f3]
-      rcases h.tA hp with h1 | h1
-      · exact Or.inl h1
-      · exact Or.inr ⟨w.now, h.over, h1.1, h1.2⟩
+      exact ⟨w.now, h.over, h.tA hp⟩
     · have : (finishChain w).sp.success = none := by
         simp only [finishChain]
         rw [deliver_of_not_pending _ _ (by simpa using hp)]
@@ -1269,101 +1589,126 @@ theorem finishChain_fin {p : Prog} {w : W} {pre : List (SName × Stage)} (h : Ru
       rw [hs] at hn; cases hn
     · obtain ⟨h1, h2⟩ := h.tB hp
       rw [hu, f3]
-      rintro (h3 | ⟨over, h3, h4, _⟩)
-      · rw [h1] at h3; cases h3
-      · rw [h.over] at h3
-        injection h3 with h3
-        omega
+      exact ⟨h1, w.now, h.over, h2⟩
 
-theorem launch_stack (n : SName) (st : Stage) (w : W) : (launch n st w).u.stack = w.u.stack := (launch_frame n st w).2.1
+theorem launch_stack (n : SName) (st : Stage) (w : W) : (launch n st w).u.stack = w.u.stack ∧
+    (launch n st w).u.nextCleanup = w.u.nextCleanup := ⟨(launch_frame n st w).2.1, (launch_frame n st w).2.2⟩
 
-theorem runCleanups_cinv {p : Prog} : ∀ (stack : List (Nat × Stage)) (w : W) (pre : List (SName × Stage)),
-    Run p w pre (cleanupPath stack) → CInv p (runCleanups stack w)
-  | [], w, pre, h => by
-      simp only [runCleanups]
-      exact Or.inr (finishChain_fin (run_frame (frame_stack []) h))
-  | (i, c) :: rest, w, pre, h => by
-      have h' : Run p (updU (fun u => { u with stack := rest }) w) pre ((SName.cleanup i, c) :: cleanupPath rest) :=
-        run_frame (frame_stack rest) h
-      simp only [runCleanups]
-      cases hs : statusOf c.beh with
-      | completed r =>
-        simp only []
-        exact runCleanups_cinv rest _ _ (launch_completed h' r hs _ (noteOK_cleanup r))
-      | pending =>
-        simp only []
-        have hp := launch_pending h' hs
-        refine Or.inl (susp_of_pend hp _ (frame_pos .cleanup) rfl ?_ (by intro h; cases h))
-        simp [future, launch_stack]
+theorem isMain_cleanup (i : Nat) : isMain (.cleanup i) = false := rfl
 
-theorem afterRun_cinv {p : Prog} {w : W} {pre : List (SName × Stage)} (h : Run p w pre (cleanupPath w.u.stack)) :
-    CInv p (runCleanups w.u.stack w) := runCleanups_cinv _ _ _ h
+theorem runCleanups_cinv {p : Prog} : ∀ (n : Nat) (w : W) (pre : List (SName × Stage)), stackSize w.u.stack < n →
+    Run p w pre (expand n w.u.nextCleanup w.u.stack) → CInv p (runCleanups n w)
+  | 0, _, _, hn, _ => by omega
+  | n + 1, w, pre, hn, h => by
+      unfold runCleanups
+      split
+      · rename_i hst
+        rw [hst] at h
+        exact Or.inr (finishChain_fin (by simpa [expand] using h))
+      · rename_i i c rest hst
+        obtain ⟨w1, hw1⟩ : ∃ w1 : W, w1 = updU (fun u => Chain.register c.cleanups { u with stack := rest }) w := ⟨_, rfl⟩
+        have hreg := register_stack c.cleanups { w.u with stack := rest }
+        have hst1 : w1.u.stack = (number w.u.nextCleanup c.cleanups).reverse ++ rest := by rw [hw1]; exact hreg.1
+        have hnx1 : w1.u.nextCleanup = w.u.nextCleanup + c.cleanups.length := by rw [hw1]; exact hreg.2
+        have hz1 : stackSize w1.u.stack = sizeL c.cleanups + stackSize rest := by
+          rw [hst1, stackSize_append, stackSize_reverse, stackSize_number]
+        have hsz := size_eq c
+        have hsize : stackSize w.u.stack = c.size + stackSize rest := by rw [hst]; simp [stackSize]
+        have hfr : Frame (fun u => Chain.register c.cleanups { u with stack := rest }) := by
+          have f1 := frame_register c.cleanups
+          exact ⟨fun u => f1.stages _, fun u => f1.forced _, fun u => f1.logged _, fun u => f1.dropped _, fun u => f1.excs _,
+            fun u => f1.fails _, fun u => f1.lastExc _, fun u => f1.observers _⟩
+        have h' : Run p w1 pre ((SName.cleanup i, c) :: expand n w1.u.nextCleanup w1.u.stack) := by
+          rw [hw1]
+          have := run_frame hfr h
+          rw [hst] at this
+          simpa [expand, hreg.1, hreg.2] using this
+        simp only [← hw1]
+        have hls := launch_stack (.cleanup i) c w1
+        cases hs : statusOf c.beh with
+        | completed r =>
+          simp only []
+          have hr := launch_completed h' r hs _ (noteOK_cleanup r) (isMain_cleanup i)
+          apply runCleanups_cinv n _ _ (by simp only [updU_u, (noteCleanup_stack _ _).1, hls.1]; omega)
+          simpa [(noteCleanup_stack _ _).1, (noteCleanup_stack _ _).2, hls.1, hls.2] using hr
+        | pending =>
+          simp only []
+          have hp := launch_pending h' hs
+          refine Or.inl (susp_of_pend hp _ (frame_pos .cleanup) rfl ?_ (by intro h; cases h))
+          simp only [future, cleanupsOf, hls.1, hls.2]
+          exact expand_fuel _ _ _ _ (by omega) (by omega)
+
+theorem cleanUp_cinv {p : Prog} {w : W} {pre : List (SName × Stage)} (h : Run p w pre (cleanupsOf w.u)) :
+    CInv p (cleanUp w) := runCleanups_cinv _ _ _ (Nat.lt_succ_self _) h
 
 theorem startTearDown_cinv {p : Prog} {w : W} {pre : List (SName × Stage)}
-    (h : Run p w pre ((SName.tearDown, p.tearDown.stage) :: cleanupPath (Chain.register p.tearDown.cleanups w.u).stack)) :
+    (h : Run p w pre ((SName.tearDown, p.tearDown) :: cleanupsOf (Chain.register p.tearDown.cleanups w.u))) :
     CInv p (startTearDown p w) := by
   have h' := run_frame (frame_register p.tearDown.cleanups) h
+  have hls := launch_stack .tearDown p.tearDown (updU (Chain.register p.tearDown.cleanups) w)
   simp only [startTearDown]
-  cases hs : statusOf p.tearDown.stage.beh with
+  cases hs : statusOf p.tearDown.beh with
   | completed r =>
     simp only [afterTearDown]
-    have hr := launch_completed h' r hs _ (noteOK_main r)
-    apply afterRun_cinv
-    simpa [noteMain_stack, launch_stack] using hr
+    have hr := launch_completed h' r hs _ (noteOK_main r) rfl
+    apply cleanUp_cinv
+    rw [cleanupsOf_congr _ (Chain.register p.tearDown.cleanups w.u)
+      (by simp [(noteMain_stack _ _).1, hls.1]) (by simp [(noteMain_stack _ _).2, hls.2])]
+    exact hr
   | pending =>
     simp only []
     have hp := launch_pending h' hs
     refine Or.inl (susp_of_pend hp _ (frame_pos .tearDown) rfl ?_ (by intro h; cases h))
-    simp [future, launch_stack]
+    simp only [future]
+    exact cleanupsOf_congr _ _ (by simp [hls.1]) (by simp [hls.2])
 
 theorem startBody_cinv {p : Prog} {w : W} {pre : List (SName × Stage)}
-    (h : Run p w pre ((SName.body, p.body.stage) :: (SName.tearDown, p.tearDown.stage) ::
-      cleanupPath (Chain.register p.tearDown.cleanups (Chain.register p.body.cleanups w.u)).stack)) :
+    (h : Run p w pre ((SName.body, p.body) :: (SName.tearDown, p.tearDown) ::
+      cleanupsOf (Chain.register p.tearDown.cleanups (Chain.register p.body.cleanups w.u)))) :
     CInv p (startBody p w) := by
   have h' := run_frame (frame_register p.body.cleanups) h
-  have hfr := launch_frame .body p.body.stage (updU (Chain.register p.body.cleanups) w)
+  have hls := launch_stack .body p.body (updU (Chain.register p.body.cleanups) w)
   simp only [startBody]
-  cases hs : statusOf p.body.stage.beh with
+  cases hs : statusOf p.body.beh with
   | completed r =>
     simp only [afterBody]
-    have hr := launch_completed h' r hs _ (noteOK_main r)
+    have hr := launch_completed h' r hs _ (noteOK_main r) rfl
     apply startTearDown_cinv
     have hc := register_congr p.tearDown.cleanups
-      (updU (Chain.noteMain r) (launch .body p.body.stage (updU (Chain.register p.body.cleanups) w))).u
+      (updU (Chain.noteMain r) (launch .body p.body (updU (Chain.register p.body.cleanups) w))).u
       (Chain.register p.body.cleanups w.u)
-      (by simp [noteMain_stack, hfr.2.1])
-      (by cases r <;> simp [Chain.noteMain, Chain.caught, hfr.2.2])
-    rw [hc.1]
+      (by simp [(noteMain_stack _ _).1, hls.1]) (by simp [(noteMain_stack _ _).2, hls.2])
+    rw [cleanupsOf_congr _ _ hc.1 hc.2]
     exact hr
   | pending =>
     simp only []
     have hp := launch_pending h' hs
     refine Or.inl (susp_of_pend hp _ (frame_pos .body) rfl ?_ (by intro h; cases h))
     have hc := register_congr p.tearDown.cleanups
-      ({ (launch .body p.body.stage (updU (Chain.register p.body.cleanups) w)).u with pos := .body })
-      (Chain.register p.body.cleanups w.u) (by simp [hfr.2.1]) (by simp [hfr.2.2])
+      ({ (launch .body p.body (updU (Chain.register p.body.cleanups) w)).u with pos := .body })
+      (Chain.register p.body.cleanups w.u) (by simp [hls.1]) (by simp [hls.2])
     simp only [future]
-    rw [hc.1]
+    rw [cleanupsOf_congr _ _ hc.1 hc.2]
 
 /-- the futures the chain has when `setUp` is over, by its result -/
 theorem afterSetUp_cinv {p : Prog} {w : W} {pre : List (SName × Stage)} (r : Option Exc)
-    (hr : r.isSome = true ↔ behOk p.setUp.stage.beh = false)
-    (h : ∀ f, NoteOK r f → Run p (updU f w) pre
-      (if behOk p.setUp.stage.beh then
-        (SName.body, p.body.stage) :: (SName.tearDown, p.tearDown.stage) ::
-          cleanupPath (Chain.register p.tearDown.cleanups (Chain.register p.body.cleanups w.u)).stack
-       else cleanupPath w.u.stack)) :
+    (hr : r.isSome = true ↔ behOk p.setUp.beh = false)
+    (h : ∀ f, NoteOK r true f → Run p (updU f w) pre
+      (if behOk p.setUp.beh then
+        (SName.body, p.body) :: (SName.tearDown, p.tearDown) ::
+          cleanupsOf (Chain.register p.tearDown.cleanups (Chain.register p.body.cleanups w.u))
+       else cleanupsOf w.u)) :
     CInv p (afterSetUp p r w) := by
   cases r with
   | some k =>
-    have hb : behOk p.setUp.stage.beh = false := hr.mp rfl
+    have hb : behOk p.setUp.beh = false := hr.mp rfl
     have := h (Chain.noteMain (some k)) (noteOK_main _)
     simp only [hb, Bool.false_eq_true, if_false] at this
     simp only [afterSetUp]
-    exact afterRun_cinv this
+    exact cleanUp_cinv this
   | none =>
-    have hb : behOk p.setUp.stage.beh = true := by
-      cases hb' : behOk p.setUp.stage.beh with
+    have hb : behOk p.setUp.beh = true := by
+      cases hb' : behOk p.setUp.beh with
       | true => rfl
       | false => have := hr.mpr hb'; cases this
     have := h (Chain.noteMain none) (noteOK_main _)
@@ -1374,52 +1719,59 @@ theorem afterSetUp_cinv {p : Prog} {w : W} {pre : List (SName × Stage)} (r : Op
 theorem startSetUp_cinv {p : Prog} {w : W} (h : Run p w [] (path p)) (hs : w.u.stack = []) (hn : w.u.nextCleanup = 0) :
     CInv p (startSetUp p w) := by
   have hpath := path_eq p w.u hs hn
-  have h0 : Run p w [] ((SName.setUp, p.setUp.stage) ::
-      (if behOk p.setUp.stage.beh then
-        (SName.body, p.body.stage) :: (SName.tearDown, p.tearDown.stage) ::
-          cleanupPath (Chain.register p.tearDown.cleanups
-            (Chain.register p.body.cleanups (Chain.register p.setUp.cleanups w.u))).stack
-       else cleanupPath (Chain.register p.setUp.cleanups w.u).stack)) := by
+  have h0 : Run p w [] ((SName.setUp, p.setUp) ::
+      (if behOk p.setUp.beh then
+        (SName.body, p.body) :: (SName.tearDown, p.tearDown) ::
+          cleanupsOf (Chain.register p.tearDown.cleanups
+            (Chain.register p.body.cleanups (Chain.register p.setUp.cleanups w.u)))
+       else cleanupsOf (Chain.register p.setUp.cleanups w.u))) := by
     rw [← hpath]; exact h
   have h' := run_frame (frame_register p.setUp.cleanups) h0
-  have hfr := launch_frame .setUp p.setUp.stage (updU (Chain.register p.setUp.cleanups) w)
+  have hls := launch_stack .setUp p.setUp (updU (Chain.register p.setUp.cleanups) w)
   -- the futures expressed by the chain state after the launch (same stack and counter)
   have hcongr : ∀ c' : Chain, c'.stack = (Chain.register p.setUp.cleanups w.u).stack →
       c'.nextCleanup = (Chain.register p.setUp.cleanups w.u).nextCleanup →
-      (if behOk p.setUp.stage.beh then
-        (SName.body, p.body.stage) :: (SName.tearDown, p.tearDown.stage) ::
-          cleanupPath (Chain.register p.tearDown.cleanups (Chain.register p.body.cleanups c')).stack
-       else cleanupPath c'.stack) =
-      (if behOk p.setUp.stage.beh then
-        (SName.body, p.body.stage) :: (SName.tearDown, p.tearDown.stage) ::
-          cleanupPath (Chain.register p.tearDown.cleanups
-            (Chain.register p.body.cleanups (Chain.register p.setUp.cleanups w.u))).stack
-       else cleanupPath (Chain.register p.setUp.cleanups w.u).stack) := by
+      (if behOk p.setUp.beh then
+        (SName.body, p.body) :: (SName.tearDown, p.tearDown) ::
+          cleanupsOf (Chain.register p.tearDown.cleanups (Chain.register p.body.cleanups c'))
+       else cleanupsOf c') =
+      (if behOk p.setUp.beh then
+        (SName.body, p.body) :: (SName.tearDown, p.tearDown) ::
+          cleanupsOf (Chain.register p.tearDown.cleanups
+            (Chain.register p.body.cleanups (Chain.register p.setUp.cleanups w.u)))
+       else cleanupsOf (Chain.register p.setUp.cleanups w.u)) := by
     intro c' h1 h2
     have hb := register_congr p.body.cleanups c' (Chain.register p.setUp.cleanups w.u) h1 h2
     have ht := register_congr p.tearDown.cleanups _ _ hb.1 hb.2
-    rw [ht.1, h1]
+    rw [cleanupsOf_congr _ _ ht.1 ht.2, cleanupsOf_congr c' _ h1 h2]
   simp only [startSetUp]
-  cases hst : statusOf p.setUp.stage.beh with
+  cases hst : statusOf p.setUp.beh with
   | completed r =>
     simp only []
     apply afterSetUp_cinv r
-    · cases hb : p.setUp.stage.beh <;> simp [statusOf, hb] at hst <;> subst hst <;> simp [behOk]
+    · cases hb : p.setUp.beh <;> simp [statusOf, hb] at hst <;> subst hst <;> simp [behOk]
     · intro f hf
-      have hr := launch_completed h' r hst f hf
-      rw [hcongr _ hfr.2.1 hfr.2.2]
+      have hr := launch_completed h' r hst f hf rfl
+      rw [hcongr _ hls.1 hls.2]
       simpa using hr
   | pending =>
     simp only []
     have hp := launch_pending h' hst
     refine Or.inl (susp_of_pend hp _ (frame_pos .setUp) rfl ?_ (fun _ => rfl))
     simp only [future]
-    exact (hcongr _ (by simp [hfr.2.1]) (by simp [hfr.2.2])).symm
+    exact (hcongr _ (by simp [hls.1]) (by simp [hls.2])).symm
 
-theorem book_note {pre : List (SName × Stage)} {c : Chain} {r : Option Exc} {f : Chain → Chain} (hf : NoteOK r f)
-    (h : Book pre c) : Book pre (f c) :=
-  ⟨by rw [hf.forced]; exact h.forced, by rw [hf.logged]; exact h.logged, by rw [hf.dropped]; exact h.dropped,
-   hf.excs c h.excs, by rw [hf.stages, hf.observers]; exact h.obs⟩
+theorem book_note {pre : List (SName × Stage)} {c : Chain} {r : Option Exc} {main : Bool} {f : Chain → Chain}
+    (hf : NoteOK r main f) (h : Book pre c) (hr : r = some .ki → ∃ x ∈ pre, hasKI x.2.beh = true) : Book pre (f c) := by
+  obtain ⟨k1, k2⟩ := ki_note (pre := pre) (c := c) hf
+    (by
+      rintro (hk | hk | hk)
+      · exact h.kiSome (Or.inl hk)
+      · exact h.kiSome (Or.inr hk)
+      · exact hr hk)
+    (fun x hx h1 h2 => Or.inl (h.kiMain x hx h1 h2))
+  exact ⟨by rw [hf.forced]; exact h.forced, by rw [hf.logged]; exact h.logged, by rw [hf.dropped]; exact h.dropped,
+   hf.excs c h.excs, by rw [hf.stages, hf.observers]; exact h.obs, k1, k2⟩
 
 /-- **the pending stage's Deferred fires**: the chain resumes from a suspended state -/
 theorem resume_cinv {p : Prog} {w0 : W} (hs : Susp p w0) (hi : Inv1 p w0) (t l : Nat) (r : Option Exc)
@@ -1451,11 +1803,17 @@ theorem resume_cinv {p : Prog} {w0 : W} (hs : Susp p w0) (hi : Inv1 p w0) (t l :
     have hwcalls : wp.calls = rest := by rw [hwp]; rfl
     rw [← hwp]
     have hs0 := hi.sorted; rw [hc] at hs0
-    have key : ∀ f, NoteOK r f → Run p (updU f wp) (pre ++ [(n, st)]) (future p w0.u) := by
-      intro f hf
+    have hrki : r = some .ki → ∃ x ∈ pre ++ [(n, st)], hasKI x.2.beh = true := by
+      intro hk
+      refine ⟨(n, st), by simp, ?_⟩
+      rw [hres] at hk
+      cases hb : st.beh <;> simp [hb, resOf] at hk
+      subst hk; rfl
+    have key : ∀ (main : Bool) f, NoteOK r main f → Run p (updU f wp) (pre ++ [(n, st)]) (future p w0.u) := by
+      intro main f hf
       refine ⟨hpath, by simp [hf.stages, hwu, hlen], by simp [hf.stages, hwu, hseq],
         by simp [hf.stages, hwu, hov, hwnow, ← hnow, hto], by simp [hwcalls, hrest],
-        by simpa [hwu] using book_note hf hbook, ?_, by simpa [hwsp] using hunrec, ?_, ?_⟩
+        by simpa [hwu] using book_note hf hbook hrki, ?_, by simpa [hwsp] using hunrec, ?_, ?_⟩
       · simp only [updU_u, hwu]
         rw [hf.fails]
         constructor
@@ -1482,7 +1840,7 @@ theorem resume_cinv {p : Prog} {w0 : W} (hs : Susp p w0) (hi : Inv1 p w0) (t l :
           simp only [if_true] at htc
           obtain ⟨x, hx⟩ := List.exists_mem_of_length_pos (by omega : 0 < (rest.filter (·.act.isTimeout)).length)
           obtain ⟨hx1, hx2⟩ := List.mem_filter.mp hx
-          have := (hs0.head x hx1).2 rfl hx2
+          have := (hs0.head x hx1).2.1 rfl hx2
           have hxt := hi.ttime x (by rw [hc]; exact List.mem_cons_of_mem _ hx1) hx2
           simp at this; omega
         · intro s hs'
@@ -1509,26 +1867,28 @@ theorem resume_cinv {p : Prog} {w0 : W} (hs : Susp p w0) (hi : Inv1 p w0) (t l :
       have hst := hsu hpos'
       apply afterSetUp_cinv r (by rw [← hst]; exact hrok)
       intro f hf
-      have := key f hf
+      have := key _ f hf
       simpa [future, hpos', hwu] using this
     | body =>
       simp only [afterBody]
       apply startTearDown_cinv
-      have := key _ (noteOK_main r)
+      have := key _ _ (noteOK_main r)
       have hcg := register_congr p.tearDown.cleanups (updU (Chain.noteMain r) wp).u w0.u
-        (by simp [noteMain_stack, hwu]) (by cases r <;> simp [Chain.noteMain, Chain.caught, hwu])
-      rw [hcg.1]
+        (by simp [(noteMain_stack _ _).1, hwu]) (by simp [(noteMain_stack _ _).2, hwu])
+      rw [cleanupsOf_congr _ _ hcg.1 hcg.2]
       simpa [future, hpos'] using this
     | tearDown =>
       simp only [afterTearDown]
-      apply afterRun_cinv
-      have := key _ (noteOK_main r)
-      simpa [future, hpos', noteMain_stack, hwu] using this
+      apply cleanUp_cinv
+      have := key _ _ (noteOK_main r)
+      rw [cleanupsOf_congr _ w0.u (by simp [(noteMain_stack _ _).1, hwu]) (by simp [(noteMain_stack _ _).2, hwu])]
+      simpa [future, hpos'] using this
     | cleanup =>
       simp only [afterCleanup]
-      apply afterRun_cinv
-      have := key _ (noteOK_cleanup r)
-      simpa [future, hpos', noteCleanup_stack, hwu] using this
+      apply cleanUp_cinv
+      have := key _ _ (noteOK_cleanup r)
+      rw [cleanupsOf_congr _ w0.u (by simp [(noteCleanup_stack _ _).1, hwu]) (by simp [(noteCleanup_stack _ _).2, hwu])]
+      simpa [future, hpos'] using this
 
 /-! ### the chain invariant through the loop -/
 
@@ -1537,17 +1897,17 @@ theorem future_congr (p : Prog) (c c' : Chain) (hpos : c.pos = c'.pos) (hs : c.s
   have h1 := register_congr p.body.cleanups c c' hs hn
   have h2 := register_congr p.tearDown.cleanups _ _ h1.1 h1.2
   have h3 := register_congr p.tearDown.cleanups c c' hs hn
-  simp only [future, hpos, h2.1, h3.1, hs]
+  simp only [future, hpos, cleanupsOf_congr _ _ h2.1 h2.2, cleanupsOf_congr _ _ h3.1 h3.2, cleanupsOf_congr c c' hs hn]
 
-theorem future_realStops (p : Prog) (c : Chain) (k : Nat) : future p { c with realStops := k } = future p c :=
+theorem future_realStops (p : Prog) (c : Chain) (k j : Nat) : future p { c with realStops := k, iter := j } = future p c :=
   future_congr p _ _ rfl rfl rfl
 
 /-- a step that leaves the chain state (up to the stop counter), the stage-firing calls and the recorded
 success alone keeps the chain invariant -/
-theorem cinv_congr {p : Prog} {w w' : W} (h : CInv p w) (k : Nat) (hu : w'.u = { w.u with realStops := k })
+theorem cinv_congr {p : Prog} {w w' : W} (h : CInv p w) (k j : Nat) (hu : w'.u = { w.u with realStops := k, iter := j })
     (hsd : sdOf w'.calls = sdOf w.calls) (hsucc : w'.sp.success = w.sp.success) : CInv p w' := by
   have hb : ∀ pre, Book pre w.u → Book pre w'.u := by
-    intro pre hb; rw [hu]; exact ⟨hb.forced, hb.logged, hb.dropped, hb.excs, hb.obs⟩
+    intro pre hb; rw [hu]; exact ⟨hb.forced, hb.logged, hb.dropped, hb.excs, hb.obs, hb.kiMain, hb.kiSome⟩
   rcases h with h | h
   · obtain ⟨pre, n, st, h1, h2, h3, h4, h5, h6, h7, h8, h9, h10, h11⟩ := h.ex
     refine Or.inl ⟨pre, n, st, ?_, ?_, ?_, h4, ?_, ?_, ?_, ?_, hb _ h9, ?_, by rw [hsucc]; exact h11⟩
@@ -1572,19 +1932,19 @@ theorem cinv_pop {p : Prog} {w : W} (h : CInv p w) (hi : Inv1 p w) (c : DCall (Q
   rcases c with ⟨t, q⟩
   cases q with
   | timeout =>
-    refine cinv_congr h w.u.realStops (by simp [execCall]) ?_ (by simp [execCall])
+    refine cinv_congr h w.u.realStops w.u.iter (by simp [execCall]) ?_ (by simp [execCall])
     simp only [execCall, execTimeout_calls, hc]; rfl
   | user l a =>
     cases a with
     | noop =>
-      refine cinv_congr h w.u.realStops rfl ?_ rfl
+      refine cinv_congr h w.u.realStops w.u.iter rfl ?_ rfl
       simp only [execCall, exec, logEvent_calls, hc]; rfl
     | stop =>
       simp only [execCall, exec]
       split
-      · refine cinv_congr h w.u.realStops rfl ?_ rfl
+      · refine cinv_congr h w.u.realStops w.u.iter rfl ?_ rfl
         simp only [logEvent_calls, hc]; rfl
-      · refine cinv_congr h (w.u.realStops + 1) rfl ?_ rfl
+      · refine cinv_congr h (w.u.realStops + 1) w.u.iter rfl ?_ rfl
         simp only [logEvent_calls, hc]; rfl
     | stageDone r =>
       rcases h with h | h
@@ -1594,16 +1954,23 @@ theorem cinv_pop {p : Prog} {w : W} (h : CInv p w) (hi : Inv1 p w) (c : DCall (Q
         cases h4
 
 theorem cinv_now {p : Prog} {w : W} (h : CInv p w) (t : Nat) : CInv p { w with now := t } :=
-  cinv_congr h w.u.realStops rfl rfl rfl
+  cinv_congr h w.u.realStops w.u.iter rfl rfl rfl
 
 /-- both invariants together, through `drain` and `spin` -/
 def LInv (p : Prog) (w : W) : Prop := Inv1 p w ∧ CInv p w
 
-theorem linv_drain {p : Prog} (n : Nat) (w : W) (h : LInv p w) : LInv p (drain (exec p) n w) :=
-  drain_inv (exec p) (LInv p) (fun _ c rest h hc hd => ⟨inv1_pop h.1 c rest hc hd, cinv_pop h.2 h.1 c rest hc hd⟩) n w h
+theorem linv_pop {p : Prog} (w : W) (c : DCall (QAct CAct)) (rest : List (DCall (QAct CAct))) (h : LInv p w)
+    (hc : w.calls = c :: rest) (hd : c.time ≤ w.now) : LInv p (execCall (exec p) c { w with calls := rest }) :=
+  ⟨inv1_pop h.1 c rest hc hd, cinv_pop h.2 h.1 c rest hc hd⟩
 
-theorem linv_spin {p : Prog} (f : W → Nat) (n : Nat) (w : W) (h : LInv p w) : LInv p (spin (exec p) f n w) :=
-  spin_inv (exec p) f (LInv p) (fun _ c rest h hc hd => ⟨inv1_pop h.1 c rest hc hd, cinv_pop h.2 h.1 c rest hc hd⟩)
+theorem linv_nextIter {p : Prog} (w : W) (h : LInv p w) : LInv p (nextIter w) :=
+  ⟨inv1_nextIter h.1, cinv_congr h.2 w.u.realStops (w.u.iter + 1) rfl rfl rfl⟩
+
+theorem linv_iterate {p : Prog} (n : Nat) (w : W) (h : LInv p w) : LInv p (iterateB p n w) :=
+  iterateB_inv p (LInv p) linv_pop linv_nextIter n w h
+
+theorem linv_spin {p : Prog} (B n : Nat) (w : W) (h : LInv p w) : LInv p (spinB p B n w) :=
+  spinB_inv p B (LInv p) linv_pop linv_nextIter
     (fun _ c rest h hc hcr => ⟨inv1_adv h.1 c rest hc hcr, cinv_now h.2 _⟩) n w h
 
 /-! ## the run: from the start of `Spinner.run` to the end of `_clean`'s iterations -/
@@ -1618,15 +1985,17 @@ def entryW (p : Prog) : W :=
            sp := { w.sp with tcall := .pending, spinning := true } }
 
 theorem spinPhase_eq (p : Prog) :
-    spinPhase p (prepare p) = spin (exec p) (fun _ => bound p) (bound p + 1) (startSetUp p (entryW p)) := rfl
+    spinPhase p (prepare p) = spinB p (bound p) (bound p + 1) (startSetUp p (entryW p)) := rfl
 
 theorem schedStops_spec : ∀ (stops : List Nat) (w : W),
     (schedStops stops w).now = w.now ∧ (schedStops stops w).u = w.u ∧ (schedStops stops w).sp = w.sp ∧
     (schedStops stops w).crashed = w.crashed ∧
     (∀ c, c ∈ (schedStops stops w).calls ↔ c ∈ w.calls ∨ ∃ s ∈ stops, c = ⟨w.now + s, .user 0 .stop⟩) ∧
-    (SortedQ w.calls → SortedQ (schedStops stops w).calls) ∧
+    (SortedQ w.calls → (∀ x ∈ w.calls, bornOf x.act = 0) → SortedQ (schedStops stops w).calls) ∧
     (schedStops stops w).calls.length = w.calls.length + stops.length
-  | [], w => by simp [schedStops]
+  | [], w => by
+      refine ⟨rfl, rfl, rfl, rfl, ?_, fun h _ => h, rfl⟩
+      intro c; simp [schedStops]
   | s :: rest, w => by
       obtain ⟨h1, h2, h3, h4, h5, h6, h7⟩ := schedStops_spec rest (schedule (w.now + s) (.user 0 .stop) w)
       simp only [schedStops]
@@ -1643,8 +2012,12 @@ theorem schedStops_spec : ∀ (stops : List Nat) (w : W),
           · exact Or.inl (Or.inr h)
           · exact Or.inl (Or.inl h)
           · exact Or.inr h
-      · intro hs
-        exact h6 (insert_sortedQ _ _ hs (fun ht => by cases ht))
+      · intro hs hb0
+        refine h6 (insert_sortedQ _ _ hs (fun ht => by cases ht) (fun x hx => by rw [hb0 x hx]; exact Nat.zero_le _)) ?_
+        intro x hx
+        rcases mem_insert.mp hx with rfl | hx
+        · rfl
+        · exact hb0 x hx
       · rw [h7]; simp [insert_length]; omega
 
 theorem prepare_spec (p : Prog) :
@@ -1653,7 +2026,7 @@ theorem prepare_spec (p : Prog) :
     (∀ c, c ∈ (prepare p).calls ↔ ∃ s ∈ p.stops, c = ⟨s, .user 0 .stop⟩) ∧ SortedQ (prepare p).calls ∧
     (prepare p).calls.length = p.stops.length := by
   obtain ⟨h1, h2, h3, h4, h5, h6, h7⟩ := schedStops_spec p.stops ({ u := { observers := (duringObs p).1 } } : W)
-  refine ⟨h1, h2, h3, h4, ?_, h6 (by simp [SortedQ]), by rw [prepare]; simpa using h7⟩
+  refine ⟨h1, h2, h3, h4, ?_, h6 (by simp [SortedQ]) (by simp), by rw [prepare]; simpa using h7⟩
   intro c
   rw [prepare, h5 c]
   simp
@@ -1668,8 +2041,12 @@ theorem entry_inv1 (p : Prog) : Inv1 p (entryW p) := by
     exact ⟨rfl, rfl⟩
   have hf0 : (prepare p).calls.filter (·.act.isTimeout) = [] :=
     List.filter_eq_nil_iff.mpr (fun x hx => by simp [(hnot x hx).1])
-  refine ⟨?_, ?_, ?_, ?_, ?_, ?_, ?_, ?_, ?_, ?_, ?_, ?_⟩
-  · rw [hcalls]; exact insert_sortedQ _ _ h6 (fun _ x hx => (hnot x hx).2)
+  have hborn0 : ∀ x ∈ (prepare p).calls, bornOf x.act = 0 := by
+    intro x hx
+    obtain ⟨s, _, rfl⟩ := (h5 x).mp hx
+    rfl
+  refine ⟨?_, ?_, ?_, ?_, ?_, ?_, ?_, ?_, ?_, ?_, ?_, ?_, ?_⟩
+  · rw [hcalls]; exact insert_sortedQ _ _ h6 (fun _ x hx => (hnot x hx).2) (fun x hx => by rw [hborn0 x hx]; exact Nat.zero_le _)
   · intro c _; simp [entryW, h1]
   · intro c hc ht
     rw [hcalls] at hc
@@ -1694,6 +2071,11 @@ theorem entry_inv1 (p : Prog) : Inv1 p (entryW p) := by
     · obtain ⟨s, hs, rfl⟩ := (h5 c).mp hc
       exact hs
   · intro h; simp [entryW] at h
+  · intro c hc
+    rw [hcalls] at hc
+    rcases mem_insert.mp hc with rfl | hc
+    · exact Nat.zero_le _
+    · rw [hborn0 c hc]; exact Nat.zero_le _
 
 theorem entry_run (p : Prog) : Run p (entryW p) [] (path p) ∧ (entryW p).u.stack = [] ∧ (entryW p).u.nextCleanup = 0 := by
   obtain ⟨h1, h2, h3, h4, h5, h6, h7⟩ := prepare_spec p
@@ -1707,15 +2089,16 @@ theorem entry_run (p : Prog) : Run p (entryW p) [] (path p) ∧ (entryW p).u.sta
     obtain ⟨s, _, rfl⟩ := (h5 x).mp hx
     rfl
   refine ⟨⟨by simp, by simp [hu], by simp [hu, seqOk], by simp [hu, overAt, hnow], hsd, ?_, by simp [hu],
-    by simp [entryW], fun _ => Or.inl rfl, fun h => by simp [entryW] at h⟩, by simp [hu], by simp [hu]⟩
+    by simp [entryW], fun _ => Or.inl ⟨rfl, hnow⟩, fun h => by simp [entryW] at h⟩, by simp [hu], by simp [hu]⟩
   rw [hu]
-  exact ⟨by simp [sidesOf], by simp [sidesOf, loggedLeft], by simp [sidesOf], by simp, by simp⟩
+  exact ⟨by simp [sidesOf], by simp [sidesOf, loggedLeft], by simp [sidesOf], by simp, by simp, by simp, by simp⟩
 
 /-- a step of the chain never un-crashes the reactor, and crashes it only by recording a result -/
 theorem reach_crashed {k : Nat} {w w' : W} (h : Reach k w w') :
     (w.crashed = true → w'.crashed = true) ∧ (w'.crashed = true → w.crashed = true ∨ w'.sp.success.isSome = true ∨ w.sp.tcall ≠ .pending) := by
   induction h with
   | refl w => exact ⟨id, Or.inl⟩
+  | log n _ ih => exact ih
   | upd f _ _ ih => exact ih
   | sched d a ha _ ih => exact ih
   | deliv b _ ih =>
@@ -1732,6 +2115,7 @@ theorem reach_crashed {k : Nat} {w w' : W} (h : Reach k w w') :
         intro k w1 w2 hr
         induction hr with
         | refl w => exact fun h _ => h
+        | log n _ ih => exact ih
         | upd f _ _ ih => exact ih
         | sched d a ha _ ih => exact ih
         | deliv b' _ ih =>
@@ -1790,26 +2174,50 @@ theorem sinv_pop {p : Prog} {b : Nat} {w : W} (h : SInv p b w) (c : DCall (QAct 
     | stageDone r =>
       obtain ⟨k, hk, _⟩ := resume_reach p r (logEvent (.user l) { w with calls := rest })
       have : (fun w : W => w.sp.tcall ≠ .pending ∧ w.sp.success = some b) (resume p r (logEvent (.user l) { w with calls := rest })) :=
-        Reach.inv (fun w : W => w.sp.tcall ≠ .pending ∧ w.sp.success = some b) (fun _ _ _ h => h) (fun _ _ _ _ h => h)
+        Reach.inv (fun w : W => w.sp.tcall ≠ .pending ∧ w.sp.success = some b) (fun _ _ h => h) (fun _ _ _ h => h)
+          (fun _ _ _ _ h => h)
           (fun w b' h => by
             rw [deliver_of_not_pending _ _ h.1]
             exact ⟨by simpa using h.1, by simpa using h.2⟩) hk ⟨hnp, h.2⟩
       exact this.2
 
-theorem sinv_drain {p : Prog} {b : Nat} (n : Nat) (w : W) (h : SInv p b w) : SInv p b (drain (exec p) n w) :=
-  drain_inv (exec p) (SInv p b) (fun _ c rest h hc hd => sinv_pop h c rest hc hd) n w h
+theorem sinv_nextIter {p : Prog} {b : Nat} (w : W) (h : SInv p b w) : SInv p b (nextIter w) :=
+  ⟨inv1_nextIter h.1, h.2⟩
 
-theorem drain_noDue {p : Prog} (n : Nat) (w : W) (h : NoDue w) : drain (exec p) n w = w := by
-  cases n with
-  | zero => rfl
-  | succ n =>
-    unfold drain
-    split
-    · rfl
-    · rename_i c rest hc
-      have := h c rest hc
-      have hn : ¬ c.time ≤ w.now := by omega
-      simp [hn]
+theorem sinv_iterate {p : Prog} {b : Nat} (n : Nat) (w : W) (h : SInv p b w) : SInv p b (iterateB p n w) :=
+  iterateB_inv p (SInv p b) (fun _ c rest h hc hd => sinv_pop h c rest hc hd) sinv_nextIter n w h
+
+theorem sinv_spin {p : Prog} {b : Nat} (B n : Nat) (w : W) (h : SInv p b w) : SInv p b (spinB p B n w) :=
+  spinB_inv p B (SInv p b) (fun _ c rest h hc hd => sinv_pop h c rest hc hd) sinv_nextIter
+    (fun _ c rest h hc hcr => ⟨inv1_adv h.1 c rest hc hcr, h.2⟩) n w h
+
+/-- the timeout has fired: it stays fired (a late result is not recorded) -/
+def TInv (p : Prog) (w : W) : Prop := Inv1 p w ∧ w.sp.tcall = .called
+
+theorem tinv_pop {p : Prog} {w : W} (h : TInv p w) (c : DCall (QAct CAct)) (rest : List (DCall (QAct CAct)))
+    (hc : w.calls = c :: rest) (hdue : c.time ≤ w.now) : TInv p (execCall (exec p) c { w with calls := rest }) := by
+  refine ⟨inv1_pop h.1 c rest hc hdue, ?_⟩
+  have hnp : w.sp.tcall ≠ .pending := by rw [h.2]; simp
+  rcases c with ⟨t, q⟩
+  cases q with
+  | timeout =>
+    have htc := h.1.tcount
+    rw [hc, List.filter_cons_of_pos (by rfl)] at htc
+    simp [hnp] at htc
+  | user l a =>
+    cases a with
+    | noop => exact h.2
+    | stop => simp only [execCall, exec]; split <;> exact h.2
+    | stageDone r =>
+      obtain ⟨k, hk, _⟩ := resume_reach p r (logEvent (.user l) { w with calls := rest })
+      exact Reach.inv (fun w : W => w.sp.tcall = .called) (fun _ _ h => h) (fun _ _ _ h => h)
+          (fun _ _ _ _ h => h)
+          (fun w b' h => by
+            rw [deliver_of_not_pending _ _ (by rw [h]; simp)]
+            simpa using h) hk h.2
+
+theorem tinv_iterate {p : Prog} (n : Nat) (w : W) (h : TInv p w) : TInv p (iterateB p n w) :=
+  iterateB_inv p (TInv p) (fun _ c rest h hc hd => tinv_pop h c rest hc hd) (fun _ h => ⟨inv1_nextIter h.1, h.2⟩) n w h
 
 theorem crashed_pop {p : Prog} {w : W} (h : w.crashed = true) (c : DCall (QAct CAct)) (rest : List (DCall (QAct CAct))) :
     (execCall (exec p) c { w with calls := rest }).crashed = true := by
@@ -1824,18 +2232,115 @@ theorem crashed_pop {p : Prog} {w : W} (h : w.crashed = true) (c : DCall (QAct C
       obtain ⟨k, hk, _⟩ := resume_reach p r (logEvent (.user l) { w with calls := rest })
       exact (reach_crashed hk).1 h
 
+theorem crashed_iterate {p : Prog} (n : Nat) (w : W) (h : w.crashed = true) : (iterateB p n w).crashed = true :=
+  iterateB_inv p (fun w => w.crashed = true) (fun _ c rest h _ _ => crashed_pop h c rest) (fun _ h => h) n w h
+
 theorem linv_flags {p : Prog} {w : W} (h : LInv p w) (a b : Bool) : LInv p { w with running := a, stopPatched := b } :=
   ⟨⟨h.1.sorted, h.1.ge, h.1.ttime, h.1.tcount, h.1.pend, h.1.called, h.1.cancelled, h.1.nounset, h.1.alive, h.1.stops,
-    h.1.stopcalls, h.1.cause⟩, cinv_congr h.2 w.u.realStops rfl rfl rfl⟩
+    h.1.stopcalls, h.1.cause, h.1.born⟩, cinv_congr h.2 w.u.realStops w.u.iter rfl rfl rfl⟩
 
-/-- the state in which `_clean` collects the junk -/
-theorem end_state (p : Prog) :
-    LInv p (afterIter p) ∧ (afterIter p).crashed = true ∧
-    ((afterIter p).sp.success = none → ∀ c ∈ (afterIter p).calls, (afterIter p).now < c.time) := by
+/-! ### properties of the chain's state alone, through the calls the reactor runs -/
+
+theorem pop_uinv {p : Prog} (P : W → Prop)
+    (hlog : ∀ (w : W) (n : SName), P w → P (updU (Chain.log n w.now w.running) w))
+    (hfr : ∀ w w' : W, w'.u.stages = w.u.stages → w'.u.live = w.u.live → w'.u.observers = w.u.observers →
+      w'.running = w.running → w'.sels = w.sels → P w → P w')
+    {w : W} (h : P w) (c : DCall (QAct CAct)) (rest : List (DCall (QAct CAct))) :
+    P (execCall (exec p) c { w with calls := rest }) := by
+  rcases c with ⟨t, q⟩
+  cases q with
+  | timeout => exact hfr w _ (by simp [execCall]) (by simp [execCall]) (by simp [execCall]) (by simp [execCall]) (by simp [execCall]) h
+  | user l a =>
+    cases a with
+    | noop => exact hfr w _ rfl rfl rfl rfl rfl h
+    | stop => simp only [execCall, exec]; split <;> exact hfr w _ rfl rfl rfl rfl rfl h
+    | stageDone r =>
+      obtain ⟨k, hk, _⟩ := resume_reach p r (logEvent (.user l) { w with calls := rest })
+      exact Reach.inv P hlog
+        (fun w f hf h => hfr w _ (hf w.u).2.2.1 (hf w.u).2.2.2 (hf w.u).1 rfl rfl h)
+        (fun w _ _ _ h => hfr w _ rfl rfl rfl rfl rfl h)
+        (fun w b h => hfr w _ (by simp) (by simp) (by simp) (by simp) (by simp) h) hk (hfr w _ rfl rfl rfl rfl rfl h)
+
+/-- while `reactor.run()` runs: every logged stage was started by the running reactor -/
+def Live1 (w : W) : Prop := w.running = true ∧ w.u.live.length = w.u.stages.length ∧ w.u.live.all id = true
+
+theorem live1_frame (w w' : W) (h1 : w'.u.stages = w.u.stages) (h2 : w'.u.live = w.u.live) (h3 : w'.running = w.running)
+    (h : Live1 w) : Live1 w' := by
+  unfold Live1; rw [h1, h2, h3]; exact h
+
+theorem live1_log (w : W) (n : SName) (h : Live1 w) : Live1 (updU (Chain.log n w.now w.running) w) := by
+  obtain ⟨h1, h2, h3⟩ := h
+  refine ⟨h1, ?_, ?_⟩
+  · simp [Chain.log, h2]
+  · simp only [updU_u, Chain.log, List.all_append, h3, h1]; rfl
+
+theorem live1_pop {p : Prog} {w : W} (h : Live1 w) (c : DCall (QAct CAct)) (rest : List (DCall (QAct CAct))) :
+    Live1 (execCall (exec p) c { w with calls := rest }) :=
+  pop_uinv Live1 live1_log (fun w w' h1 h2 _ h3 _ h => live1_frame w w' h1 h2 h3 h) h c rest
+
+/-- during `_clean`'s iterations: the log only grows -/
+def Live2 (l0 : List Bool) (w : W) : Prop := w.u.live.length = w.u.stages.length ∧ ∃ extra, w.u.live = l0 ++ extra
+
+theorem live2_pop {p : Prog} {l0 : List Bool} {w : W} (h : Live2 l0 w) (c : DCall (QAct CAct)) (rest : List (DCall (QAct CAct))) :
+    Live2 l0 (execCall (exec p) c { w with calls := rest }) :=
+  pop_uinv (Live2 l0)
+    (fun w n h => by
+      obtain ⟨h1, extra, h2⟩ := h
+      refine ⟨by simp [Chain.log, h1], extra ++ [w.running], ?_⟩
+      simp [Chain.log, h2])
+    (fun w w' h1 h2 _ _ _ h => by unfold Live2; rw [h1, h2]; exact h) h c rest
+
+/-! ### what never changes during a run: no selectables, the log observers -/
+
+def Static (p : Prog) (w : W) : Prop := w.sels = [] ∧ w.u.observers = (duringObs p).1
+
+theorem static_pop {p : Prog} {w : W} (h : Static p w) (c : DCall (QAct CAct)) (rest : List (DCall (QAct CAct))) :
+    Static p (execCall (exec p) c { w with calls := rest }) :=
+  pop_uinv (Static p) (fun w n h => ⟨h.1, by simpa [Chain.log] using h.2⟩)
+    (fun w w' _ _ h1 _ h2 h => ⟨by rw [h2]; exact h.1, by rw [h1]; exact h.2⟩) h c rest
+
+theorem static_reach {p : Prog} {k : Nat} {w w' : W} (hr : Reach k w w') (h : Static p w) : Static p w' :=
+  Reach.inv (Static p) (fun w n h => ⟨h.1, by simpa [Chain.log] using h.2⟩) (fun w f hf h => ⟨h.1, by simp [(hf w.u).1, h.2]⟩)
+    (fun _ _ _ _ h => h) (fun w b h => ⟨by simpa using h.1, by simpa using h.2⟩) hr h
+
+/-! ### the state when `reactor.run()` returns, and after `_clean`'s iterations -/
+
+theorem start_static (p : Prog) : Static p (startW p) := by
+  have h0 : Static p (entryW p) := by
+    obtain ⟨_, h2, _⟩ := prepare_spec p
+    have hs : (prepare p).sels = [] := by
+      have : ∀ (stops : List Nat) (w : W), (schedStops stops w).sels = w.sels := by
+        intro stops; induction stops with
+        | nil => intro w; rfl
+        | cons s rest ih => intro w; simp only [schedStops]; rw [ih]; rfl
+      rw [prepare, this]
+    exact ⟨by simpa [entryW] using hs, by simp [entryW, h2]⟩
+  obtain ⟨k, hk, _⟩ := startSetUp_reach p (entryW p)
+  exact static_reach hk h0
+
+theorem start_live (p : Prog) : Live1 (startW p) := by
+  have h0 : Live1 (entryW p) := by
+    obtain ⟨_, h2, _⟩ := prepare_spec p
+    exact ⟨rfl, by simp [entryW, h2], by simp [entryW, h2]⟩
+  obtain ⟨k, hk, _⟩ := startSetUp_reach p (entryW p)
+  exact Reach.inv Live1 live1_log (fun w f hf h => live1_frame w _ (hf w.u).2.2.1 (hf w.u).2.2.2 rfl h)
+    (fun w _ _ _ h => live1_frame w _ rfl rfl rfl h)
+    (fun w b h => live1_frame w _ (by simp) (by simp) (by simp) h) hk h0
+
+/-- when `reactor.run()` has returned -/
+structure SpinEnd (p : Prog) (w : W) : Prop where
+  linv : LInv p w
+  crashed : w.crashed = true
+  static : Static p w
+  lenLive : w.u.live.length = w.u.stages.length
+  allLive : w.u.live.all id = true
+  noDue : w.sp.success = none → NoDue w
+
+theorem spin_end (p : Prog) : SpinEnd p (afterSpin p) := by
   have hS := start_linv p
   have hE : LInv p (spinPhase p (prepare p)) := by rw [spinPhase_eq]; exact linv_spin _ _ _ hS
-  obtain ⟨hd1, hd2, _⟩ := spin_done p (bound p) (bound p + 1) (startW p) (start_pot p) (by have := start_pot p; omega)
-  have hsp : spin (exec p) (fun _ => bound p) (bound p + 1) (startW p) = spinPhase p (prepare p) := (spinPhase_eq p).symm
+  obtain ⟨hd1, hd2, _⟩ := spinB_done p (bound p) (bound p + 1) (startW p) hS.1 (start_pot p) (by have := start_pot p; omega)
+  have hsp : spinB p (bound p) (bound p + 1) (startW p) = spinPhase p (prepare p) := (spinPhase_eq p).symm
   rw [hsp] at hd1 hd2
   have hcrE : (spinPhase p (prepare p)).crashed = true := by
     rcases hd1 with h | h
@@ -1847,17 +2352,15 @@ theorem end_state (p : Prog) :
         rw [(hE.1.alive hcr).1, h] at htc
         simp at htc
   have hA : LInv p (afterSpin p) := linv_flags hE false false
-  have hI : LInv p (afterIter p) := by
-    unfold afterIter; split
-    · exact linv_drain _ _ (linv_drain _ _ hA)
-    · exact hA
-  have hcrI : (afterIter p).crashed = true := by
-    have hcrA : (afterSpin p).crashed = true := hcrE
-    unfold afterIter; split
-    · exact drain_inv (exec p) (fun w => w.crashed = true) (fun _ c rest h _ _ => crashed_pop h c rest) _ _
-        (drain_inv (exec p) (fun w => w.crashed = true) (fun _ c rest h _ _ => crashed_pop h c rest) _ _ hcrA)
-    · exact hcrA
-  refine ⟨hI, hcrI, ?_⟩
+  have hst : Static p (spinPhase p (prepare p)) := by
+    rw [spinPhase_eq]
+    exact spinB_inv p _ (Static p) (fun _ c rest h _ _ => static_pop h c rest) (fun _ h => h) (fun _ _ _ h _ _ => h) _ _
+      (start_static p)
+  have hlv : Live1 (spinPhase p (prepare p)) := by
+    rw [spinPhase_eq]
+    exact spinB_inv p _ Live1 (fun _ c rest h _ _ => live1_pop h c rest) (fun _ h => h) (fun _ _ _ h _ _ => h) _ _
+      (start_live p)
+  refine ⟨hA, hcrE, hst, hlv.2.1, hlv.2.2, ?_⟩
   intro hnone
   -- no success recorded: the chain was suspended when the loop started, so the loop ran and was drained
   have hstart : (startW p).crashed = false := by
@@ -1869,73 +2372,69 @@ theorem end_state (p : Prog) :
       have hsS : SInv p b (startW p) := ⟨hS.1, hb⟩
       have hsE : SInv p b (spinPhase p (prepare p)) := by
         rw [spinPhase_eq]
-        exact spin_inv (exec p) _ (SInv p b) (fun _ c rest h hc hd => sinv_pop h c rest hc hd)
-          (fun _ c rest h hc hcr => ⟨inv1_adv h.1 c rest hc hcr, h.2⟩) _ _ hsS
-      have hsA : SInv p b (afterSpin p) := ⟨hA.1, hsE.2⟩
-      have hsI : SInv p b (afterIter p) := by
-        unfold afterIter; split
-        · exact sinv_drain _ _ (sinv_drain _ _ hsA)
-        · exact hsA
-      rw [hsI.2] at hnone; cases hnone
-  have hndE : NoDue (spinPhase p (prepare p)) := hd2 hstart
-  have hndA : NoDue (afterSpin p) := hndE
-  have hIA : afterIter p = afterSpin p := by
-    unfold afterIter; split
-    · rw [drain_noDue _ _ hndA, drain_noDue _ _ hndA]
-    · rfl
-  rw [hIA]
-  intro c hc
-  have hs := hA.1.sorted
-  cases hcalls : (afterSpin p).calls with
-  | nil => rw [hcalls] at hc; cases hc
-  | cons d ds =>
-    have hd := hndA d ds hcalls
-    rw [hcalls] at hc hs
-    rcases List.mem_cons.mp hc with rfl | hc
-    · exact hd
-    · have := (hs.head c hc).1; omega
+        exact sinv_spin _ _ _ hsS
+      have : (afterSpin p).sp.success = some b := hsE.2
+      rw [this] at hnone; cases hnone
+  have hne : (startW p).calls ≠ [] := by
+    intro he
+    have htc := hS.1.tcount
+    rw [(hS.1.alive hstart).1, he] at htc
+    simp at htc
+  exact (hd2 hstart hne).1
 
-/-! ### what never changes during a run: no selectables, the log observers -/
+/-- after `_clean`'s iterations -/
+structure IterEnd (p : Prog) (w : W) : Prop where
+  linv : LInv p w
+  crashed : w.crashed = true
+  static : Static p w
+  live : Live2 (afterSpin p).u.live w
+  succ : ∀ b, (afterSpin p).sp.success = some b → w.sp.success = some b
+  called : (afterSpin p).sp.tcall = .called → w.sp.tcall = .called
+  now : w.now = (afterSpin p).now
 
-def Static (p : Prog) (w : W) : Prop := w.sels = [] ∧ w.u.observers = (duringObs p).1
+theorem iterate_now (p : Prog) (n : Nat) (w : W) : (iterateB p n w).now = w.now := by
+  have : ∀ n (w : W), (drainB p n w).now = w.now := by
+    intro n
+    induction n with
+    | zero => intro w; rfl
+    | succ n ih =>
+      intro w
+      unfold drainB
+      split
+      · rfl
+      · split
+        · rename_i c rest hc hd
+          rw [ih]
+          rcases c with ⟨t, q⟩
+          cases q with
+          | timeout => simp [execCall]
+          | user l a =>
+            cases a with
+            | noop => rfl
+            | stop => simp only [execCall, exec]; split <;> rfl
+            | stageDone r =>
+              obtain ⟨k, hk, _⟩ := resume_reach p r (logEvent (.user l) { w with calls := rest })
+              exact Reach.inv (fun w' : W => w'.now = w.now) (fun _ _ h => h) (fun _ _ _ h => h) (fun _ _ _ _ h => h)
+                (fun w' b h => by simpa using h) hk rfl
+        · rfl
+  exact this n (nextIter w)
 
-theorem static_reach {p : Prog} {k : Nat} {w w' : W} (hr : Reach k w w') (h : Static p w) : Static p w' :=
-  Reach.inv (Static p) (fun w f hf h => ⟨h.1, by simp [hf, h.2]⟩) (fun _ _ _ _ h => h)
-    (fun w b h => ⟨by simpa using h.1, by simpa using h.2⟩) hr h
+theorem iterEnd_step {p : Prog} {w : W} (n : Nat) (h : IterEnd p w) : IterEnd p (iterateB p n w) := by
+  refine ⟨linv_iterate n w h.linv, crashed_iterate n w h.crashed, ?_, ?_, ?_, ?_, by rw [iterate_now]; exact h.now⟩
+  · exact iterateB_inv p (Static p) (fun _ c rest h _ _ => static_pop h c rest) (fun _ h => h) n w h.static
+  · exact iterateB_inv p (Live2 _) (fun _ c rest h _ _ => live2_pop h c rest) (fun _ h => h) n w h.live
+  · intro b hb
+    exact (sinv_iterate n w ⟨h.linv.1, h.succ b hb⟩).2
+  · intro hc
+    exact (tinv_iterate n w ⟨h.linv.1, h.called hc⟩).2
 
-theorem static_pop {p : Prog} {w : W} (h : Static p w) (c : DCall (QAct CAct)) (rest : List (DCall (QAct CAct))) :
-    Static p (execCall (exec p) c { w with calls := rest }) := by
-  rcases c with ⟨t, q⟩
-  cases q with
-  | timeout => exact ⟨by simpa [execCall] using h.1, by simpa [execCall] using h.2⟩
-  | user l a =>
-    cases a with
-    | noop => exact h
-    | stop => simp only [execCall, exec]; split <;> exact h
-    | stageDone r =>
-      obtain ⟨k, hk, _⟩ := resume_reach p r (logEvent (.user l) { w with calls := rest })
-      exact static_reach hk h
-
-theorem static_end (p : Prog) : Static p (afterIter p) := by
-  have h0 : Static p (entryW p) := by
-    obtain ⟨_, h2, _⟩ := prepare_spec p
-    have hs : (prepare p).sels = [] := by
-      have : ∀ (stops : List Nat) (w : W), (schedStops stops w).sels = w.sels := by
-        intro stops; induction stops with
-        | nil => intro w; rfl
-        | cons s rest ih => intro w; simp only [schedStops]; rw [ih]; rfl
-      rw [prepare, this]
-    exact ⟨by simpa [entryW] using hs, by simp [entryW, h2]⟩
-  obtain ⟨k, hk, _⟩ := startSetUp_reach p (entryW p)
-  have hS : Static p (startW p) := static_reach hk h0
-  have hE : Static p (spinPhase p (prepare p)) := by
-    rw [spinPhase_eq]
-    exact spin_inv (exec p) _ (Static p) (fun _ c rest h _ _ => static_pop h c rest) (fun _ _ _ h _ _ => h) _ _ hS
-  have hA : Static p (afterSpin p) := hE
+theorem iter_end (p : Prog) : IterEnd p (afterIter p) := by
+  have hs := spin_end p
+  have h0 : IterEnd p (afterSpin p) :=
+    ⟨hs.linv, hs.crashed, hs.static, ⟨hs.lenLive, [], by simp⟩, fun _ h => h, id, rfl⟩
   unfold afterIter; split
-  · exact drain_inv (exec p) (Static p) (fun _ c rest h _ _ => static_pop h c rest) _ _
-      (drain_inv (exec p) (Static p) (fun _ c rest h _ _ => static_pop h c rest) _ _ hA)
-  · exact hA
+  · exact iterEnd_step _ (iterEnd_step _ h0)
+  · exact h0
 
 /-! ### the log fixtures put the observers back -/
 
@@ -2022,116 +2521,167 @@ theorem sdOf_of_mem {q : List (DCall (QAct CAct))} {c : DCall (QAct CAct)} (hc :
   | timeout => simp [isSD] at h
   | user l a => cases a <;> simp [isSD] at h this
 
-/-- the meaning of the final state, by the stages `pre` that ran -/
-structure FinalSem (p : Prog) (w : W) (pre : List (SName × Stage)) : Prop where
-  path : path p = pre ++ future p w.u
-  len : pre.length = w.u.stages.length
-  seq : seqOk pre w.u.stages (some 0) = true
-  book : Book pre w.u
-  rec_iff : (∃ b, w.sp.success = some b) ↔ (future p w.u = [] ∧ InTimeP p pre w.u.stages)
-  recd : ∀ b, w.sp.success = some b → b = (if w.u.fails then 0 else 1) ∧
-    (w.u.fails = true ↔ (∃ x ∈ pre, behOk x.2.beh = false) ∨ w.u.forced = true) ∧ ∀ c ∈ w.calls, isLeftover c = true
-  pending_iff : w.sp.tcall = .pending ↔
-    (¬ (future p w.u = [] ∧ InTimeP p pre w.u.stages) ∧ ∃ s ∈ p.stops, s < p.timeout)
+/-- the meaning of the final state, by the stages `pre` that ran (`fut`: those that did not) -/
+structure FinalSem (p : Prog) (pre fut : List (SName × Stage)) : Prop where
+  path : path p = pre ++ fut
+  len : pre.length = (afterIter p).u.stages.length
+  seq : seqOk pre (afterIter p).u.stages (some 0) = true
+  book : Book pre (afterIter p).u
+  cases : (∃ b, getResult (afterSpin p).sp = .value b) ∨ getResult (afterSpin p).sp = .timeout ∨
+    getResult (afterSpin p).sp = .noresult
+  /-- `Spinner.run` returned the chain's verdict -/
+  value : ∀ b, getResult (afterSpin p).sp = .value b →
+    fut = [] ∧ (afterIter p).u.live.length = (afterIter p).u.stages.length ∧ (afterIter p).u.live.all id = true ∧
+    InTimeP p pre (afterIter p).u.stages ∧ b = (if (afterIter p).u.fails then 0 else 1) ∧
+    ((afterIter p).u.fails = true ↔ (∃ x ∈ pre, behOk x.2.beh = false) ∨ (afterIter p).u.forced = true) ∧
+    ∀ c ∈ (afterIter p).calls, isLeftover c = true
+  /-- it raised `TimeoutError` -/
+  timeout : getResult (afterSpin p).sp = .timeout →
+    (∀ s ∈ p.stops, p.timeout ≤ s) ∧ allSyncL pre = false ∧
+    ∀ over, overAt (some 0) pre (afterIter p).u.stages = some over → p.timeout ≤ over
+  /-- it raised `NoResultError` -/
+  noresult : getResult (afterSpin p).sp = .noresult → ∃ s ∈ p.stops, s < p.timeout
 
-theorem final_sem (p : Prog) : ∃ pre, FinalSem p (afterIter p) pre := by
-  obtain ⟨⟨hi, hc⟩, hcr, hnd⟩ := end_state p
-  -- the part that only needs `rec_iff`
-  have hpend : ∀ pre, ((∃ b, (afterIter p).sp.success = some b) ↔ (future p (afterIter p).u = [] ∧ InTimeP p pre (afterIter p).u.stages)) →
-      ((afterIter p).sp.tcall = .pending ↔
-        (¬ (future p (afterIter p).u = [] ∧ InTimeP p pre (afterIter p).u.stages) ∧ ∃ s ∈ p.stops, s < p.timeout)) := by
-    intro pre hrec
-    constructor
-    · intro hp
-      obtain ⟨hs, _⟩ := hi.pend hp
-      refine ⟨fun h => ?_, ?_⟩
-      · obtain ⟨b, hb⟩ := hrec.mpr h
-        rw [hs] at hb; cases hb
-      · rcases hi.cause hcr with h1 | h1 | ⟨s, hs1, hs2⟩
-        · rw [hp] at h1; cases h1
-        · rw [hs] at h1; cases h1
-        · refine ⟨s, hs1, ?_⟩
-          have htc := hi.tcount
-          rw [hp] at htc
-          simp only [if_true] at htc
-          obtain ⟨x, hx⟩ := List.exists_mem_of_length_pos (by omega : 0 < ((afterIter p).calls.filter (·.act.isTimeout)).length)
-          obtain ⟨hx1, hx2⟩ := List.mem_filter.mp hx
-          have := hnd hs x hx1
-          rw [hi.ttime x hx1 hx2] at this
-          omega
-    · rintro ⟨hn, s, hs1, hs2⟩
-      rcases result_cases hi with h | h | h
+theorem final_sem (p : Prog) : ∃ pre fut, FinalSem p pre fut := by
+  have hs := spin_end p
+  have he := iter_end p
+  have hi := he.linv.1
+  -- what the chain's state after the iterations says
+  have hcommon : ∃ pre fut, path p = pre ++ fut ∧ pre.length = (afterIter p).u.stages.length ∧
+      seqOk pre (afterIter p).u.stages (some 0) = true ∧ Book pre (afterIter p).u ∧
+      (∀ b, (afterIter p).sp.success = some b → fut = [] ∧ InTimeP p pre (afterIter p).u.stages ∧
+        b = (if (afterIter p).u.fails then 0 else 1) ∧
+        ((afterIter p).u.fails = true ↔ (∃ x ∈ pre, behOk x.2.beh = false) ∨ (afterIter p).u.forced = true) ∧
+        sdOf (afterIter p).calls = []) ∧
+      ((afterIter p).sp.tcall = .called → allSyncL pre = false ∧
+        ∀ over, overAt (some 0) pre (afterIter p).u.stages = some over → p.timeout ≤ over) := by
+    rcases he.linv.2 with hc | hc
+    · obtain ⟨pre0, n, st, h1, h2, h3, h4, h5, h6, h7, h8, h9, h10, h11⟩ := hc.ex
+      refine ⟨pre0 ++ [(n, st)], future p (afterIter p).u, h1, h2, h3, h9, ?_, ?_⟩
+      · intro b hb; rw [h11] at hb; cases hb
+      · intro hcalled
+        refine ⟨by rw [allSyncL_snoc, h4]; simp, ?_⟩
+        intro over ho
+        rw [ho] at h7
+        obtain ⟨c, hc1, hc2⟩ := mem_sdOf (t := over) (r := resOf st.beh) (by rw [h7]; simp)
+        have := hi.ge c hc1
+        have := (hi.called hcalled).1
+        omega
+    · obtain ⟨pre, h1, h2, h3, h4, h5, h6, h7, h8, h9⟩ := hc.ex
+      refine ⟨pre, [], by simpa using h1, h2, h3, h5, ?_, ?_⟩
+      · intro b hb
+        exact ⟨rfl, (h8 b hb).2, (h8 b hb).1, h7, h4⟩
+      · intro hcalled
+        obtain ⟨hsync, over, ho, hle⟩ := h9 (hi.called hcalled).2.2.1
+        refine ⟨hsync, ?_⟩
+        intro over' ho'
+        rw [ho] at ho'; injection ho' with ho'; omega
+  obtain ⟨pre, fut, c1, c2, c3, c4, c5, c6⟩ := hcommon
+  refine ⟨pre, fut, c1, c2, c3, c4, ?_, ?_, ?_, ?_⟩
+  · rcases result_cases hs.linv.1 with h | h | h
+    · exact Or.inr (Or.inr h.2.2)
+    · exact Or.inr (Or.inl h.2.2)
+    · obtain ⟨b, _, hb⟩ := h.2
+      exact Or.inl ⟨b, hb⟩
+  · intro b hb
+    have hsuccS : (afterSpin p).sp.success = some b := by
+      rcases result_cases hs.linv.1 with h | h | h
+      · rw [h.2.2] at hb; cases hb
+      · rw [h.2.2] at hb; cases hb
+      · obtain ⟨b', hb1, hb2⟩ := h.2
+        rw [hb2] at hb; injection hb with hb; subst hb; exact hb1
+    have hsucc : (afterIter p).sp.success = some b := he.succ b hsuccS
+    obtain ⟨d1, d2, d3, d4, d5⟩ := c5 b hsucc
+    -- the chain was over when `reactor.run()` returned: the iterations log nothing
+    have hlenS : (afterSpin p).u.stages.length = (Spec.C14.path p).length := by
+      rcases hs.linv.2 with hc | hc
+      · obtain ⟨_, _, _, _, _, _, _, _, _, _, _, _, _, h11⟩ := hc.ex
+        rw [h11] at hsuccS; cases hsuccS
+      · obtain ⟨pre', h1, h2, _⟩ := hc.ex
+        rw [h1, h2]
+    obtain ⟨hl1, extra, hl2⟩ := he.live
+    have hextra : extra = [] := by
+      have : (afterIter p).u.live.length = (afterSpin p).u.live.length + extra.length := by rw [hl2]; simp
+      have h3 : (Spec.C14.path p).length = pre.length := by rw [c1, d1]; simp
+      have h4 := hs.lenLive
+      exact List.eq_nil_of_length_eq_zero (by omega)
+    refine ⟨d1, hl1, ?_, d2, d3, d4, ?_⟩
+    · rw [hl2, hextra, List.append_nil]; exact hs.allLive
+    · intro c hc
+      have hnp : (afterIter p).sp.tcall ≠ .pending := by
+        intro hp; have := (hi.pend hp).1; rw [hsucc] at this; cases this
+      have htc := hi.tcount
+      simp only [hnp, if_false, List.length_eq_zero_iff] at htc
+      have hnt : c.act.isTimeout = false := by
+        cases hto : c.act.isTimeout with
+        | false => rfl
+        | true =>
+          have : c ∈ (afterIter p).calls.filter (·.act.isTimeout) := List.mem_filter.mpr ⟨hc, hto⟩
+          rw [htc] at this; cases this
+      have hnsd : isSD c = false := by
+        cases hsd : isSD c with
+        | false => rfl
+        | true => exact absurd d5 (sdOf_of_mem hc hsd)
+      rcases c with ⟨t, a⟩
+      cases a with
+      | timeout => simp [QAct.isTimeout] at hnt
+      | user l a => cases a <;> simp [isSD] at hnsd <;> rfl
+  · intro ht
+    have hcalledS : (afterSpin p).sp.tcall = .called := by
+      rcases result_cases hs.linv.1 with h | h | h
+      · rw [h.2.2] at ht; cases ht
       · exact h.1
-      · have := (hi.called h.1).2.2.2 s hs1; omega
-      · obtain ⟨b, hb, _⟩ := h.2
-        exact absurd (hrec.mp ⟨b, hb⟩) hn
-  rcases hc with hc | hc
-  · -- the chain is still waiting: nothing recorded
-    obtain ⟨pre0, n, st, h1, h2, h3, h4, h5, h6, h7, h8, h9, h10, h11⟩ := hc.ex
-    have hrec : (∃ b, (afterIter p).sp.success = some b) ↔
-        (future p (afterIter p).u = [] ∧ InTimeP p (pre0 ++ [(n, st)]) (afterIter p).u.stages) := by
-      constructor
-      · rintro ⟨b, hb⟩; rw [h11] at hb; cases hb
-      · rintro ⟨_, hin⟩
-        exfalso
-        rcases hin with hin | ⟨over, ho1, ho2, ho3⟩
-        · rw [allSyncL_snoc, h4] at hin; simp at hin
-        · rw [ho1] at h7
-          obtain ⟨c, hc1, hc2⟩ := mem_sdOf (t := over) (r := resOf st.beh) (by rw [h7]; simp)
-          have hlt := hnd h11 c hc1
-          rcases hi.cause hcr with h | h | ⟨s, hs1, hs2⟩
-          · have := (hi.called h).1; omega
-          · rw [h11] at h; cases h
-          · have := ho3 s hs1; omega
-    exact ⟨pre0 ++ [(n, st)], h1, h2, h3, h9, hrec, (fun b hb => by rw [h11] at hb; cases hb), hpend _ hrec⟩
-  · obtain ⟨pre, h1, h2, h3, h4, h5, h6, h7, h8, h9⟩ := hc.ex
-    have hfut : future p (afterIter p).u = [] := by simp [future, h6]
-    have hrec : (∃ b, (afterIter p).sp.success = some b) ↔
-        (future p (afterIter p).u = [] ∧ InTimeP p pre (afterIter p).u.stages) := by
-      constructor
-      · rintro ⟨b, hb⟩; exact ⟨hfut, (h8 b hb).2⟩
-      · rintro ⟨_, hin⟩
-        cases hs : (afterIter p).sp.success with
-        | none => exact absurd hin (h9 hs)
-        | some b => exact ⟨b, rfl⟩
-    refine ⟨pre, by rw [hfut]; simpa using h1, h2, h3, h5, hrec, ?_, hpend _ hrec⟩
-    intro b hb
-    refine ⟨(h8 b hb).1, h7, ?_⟩
-    intro c hc
-    have hnp : (afterIter p).sp.tcall ≠ .pending := by
-      intro hp; have := (hi.pend hp).1; rw [hb] at this; cases this
-    have htc := hi.tcount
-    simp only [hnp, if_false, List.length_eq_zero_iff] at htc
-    have hnt : c.act.isTimeout = false := by
-      cases hto : c.act.isTimeout with
-      | false => rfl
-      | true =>
-        have : c ∈ (afterIter p).calls.filter (·.act.isTimeout) := List.mem_filter.mpr ⟨hc, hto⟩
-        rw [htc] at this; cases this
-    have hnsd : isSD c = false := by
-      cases hsd : isSD c with
-      | false => rfl
-      | true => exact absurd h4 (sdOf_of_mem hc hsd)
-    rcases c with ⟨t, a⟩
-    cases a with
-    | timeout => simp [QAct.isTimeout] at hnt
-    | user l a => cases a <;> simp [isSD] at hnsd <;> rfl
+      · obtain ⟨b', _, hb2⟩ := h.2
+        rw [hb2] at ht; cases ht
+    exact ⟨(hs.linv.1.called hcalledS).2.2.2, c6 (he.called hcalledS)⟩
+  · intro hn
+    have hS := hs.linv.1
+    have hpend : (afterSpin p).sp.tcall = .pending ∧ (afterSpin p).sp.success = none := by
+      rcases result_cases hS with h | h | h
+      · exact ⟨h.1, h.2.1⟩
+      · rw [h.2.2] at hn; cases hn
+      · obtain ⟨b', _, hb2⟩ := h.2
+        rw [hb2] at hn; cases hn
+    have hnd := hs.noDue hpend.2
+    rcases hS.cause hs.crashed with h1 | h1 | ⟨s, hs1, hs2⟩
+    · rw [hpend.1] at h1; cases h1
+    · rw [hpend.2] at h1; cases h1
+    · refine ⟨s, hs1, ?_⟩
+      have htc := hS.tcount
+      rw [hpend.1] at htc
+      simp only [if_true] at htc
+      obtain ⟨x, hx⟩ := List.exists_mem_of_length_pos (by omega : 0 < ((afterSpin p).calls.filter (·.act.isTimeout)).length)
+      obtain ⟨hx1, hx2⟩ := List.mem_filter.mp hx
+      have hge := hS.ge x hx1
+      have htt := hS.ttime x hx1 hx2
+      have hne : ¬ (x.time ≤ (afterSpin p).now ∧ eligible (afterSpin p).u.iter x = true) := hnd x hx1
+      have hel : eligible (afterSpin p).u.iter x = true := by
+        rcases x with ⟨t, a⟩
+        cases a with
+        | timeout => rfl
+        | user l a => simp [QAct.isTimeout] at hx2
+      have : ¬ x.time ≤ (afterSpin p).now := fun h => hne ⟨h, hel⟩
+      omega
 
 /-! ## the spec's vocabulary in terms of the stages that ran -/
 
 theorem spec_terms (p : Prog) (t : Trace) (pre fut : List (SName × Stage)) (hp : path p = pre ++ fut)
     (hl : pre.length = t.stages.length) :
-    ranStages p t = pre.map (·.2) ∧ (complete p t = true ↔ fut = []) ∧ (lastInTime p t = true ↔ InTimeP p pre t.stages) ∧
-    sidesRan p t = sidesOf pre ∧ cSequential p t = seqOk pre t.stages (some 0) := by
+    ranStages p t = pre.map (·.2) ∧ (complete p t = true ↔ fut = []) ∧
+    (lastBeforeTimeout p t = true ↔
+      (allSyncL pre = true ∨ ∃ over, overAt (some 0) pre t.stages = some over ∧ over < p.timeout)) ∧
+    sidesRan p t = sidesOf pre ∧ cSequential p t = seqOk pre t.stages (some 0) ∧
+    (path p).take t.stages.length = pre ∧ overAt (some 0) (path p) t.stages = overAt (some 0) pre t.stages := by
+  have htake : (path p).take t.stages.length = pre := by rw [hp, ← hl, List.take_left']; rfl
   have hran : ranStages p t = pre.map (·.2) := by
-    simp only [ranStages, hp, ← hl, List.take_left']
+    simp only [ranStages, htake]
   have hov := (seqOk_append_path pre fut t.stages (some 0) hl)
-  refine ⟨hran, ?_, ?_, ?_, ?_⟩
+  refine ⟨hran, ?_, ?_, ?_, ?_, htake, by rw [hp, hov.2]⟩
   · simp only [complete, hp, List.length_append, ← hl, beq_iff_eq]
     constructor
     · intro h; exact List.eq_nil_of_length_eq_zero (by omega)
     · intro h; simp [h]
-  · simp only [lastInTime, hran, hp, hov.2, Bool.or_eq_true, InTimeP, allSyncL, List.all_map]
+  · simp only [lastBeforeTimeout, hran, hp, hov.2, Bool.or_eq_true, allSyncL, List.all_map]
     constructor
     · rintro (h | h)
       · exact Or.inl h
@@ -2140,14 +2690,12 @@ theorem spec_terms (p : Prog) (t : Trace) (pre fut : List (SName × Stage)) (hp 
         | none => rw [ho] at h; cases h
         | some over =>
           rw [ho] at h
-          simp only [Bool.and_eq_true, decide_eq_true_eq, List.all_eq_true] at h
-          exact ⟨over, rfl, h.1, h.2⟩
-    · rintro (h | ⟨over, ho, h1, h2⟩)
+          exact ⟨over, rfl, by simpa using h⟩
+    · rintro (h | ⟨over, ho, h1⟩)
       · exact Or.inl h
       · right
         rw [ho]
-        simp only [Bool.and_eq_true, decide_eq_true_eq, List.all_eq_true]
-        exact ⟨h1, h2⟩
+        simpa using h1
   · simp only [sidesRan, hran, sidesOf, List.map_map]
     rfl
   · simp only [cSequential, hp, hov.1]
@@ -2155,17 +2703,25 @@ theorem spec_terms (p : Prog) (t : Trace) (pre fut : List (SName × Stage)) (hp 
 /-! ## `_run_core`'s accounting -/
 
 theorem outcomeOf_err_tail (xs ys : List Exc) (hy : ∀ y ∈ ys, y = Exc.err) : outcomeOf (xs ++ [.err] ++ ys) = .error := by
-  simp only [outcomeOf, List.reverse_append, List.reverse_cons, List.reverse_nil, List.nil_append, List.append_assoc]
-  cases hr : ys.reverse with
-  | nil => simp
-  | cons y r =>
-    have : y = .err := hy y (by rw [← List.mem_reverse, hr]; exact List.mem_cons_self)
-    subst this
-    simp
+  unfold outcomeOf
+  split
+  · rfl
+  · simp only [List.reverse_append, List.reverse_cons, List.reverse_nil, List.nil_append, List.append_assoc]
+    cases hr : ys.reverse with
+    | nil => simp
+    | cons y r =>
+      have : y = .err := hy y (by rw [← List.mem_reverse, hr]; exact List.mem_cons_self)
+      subst this
+      simp
 
 theorem isOutcome_outcomeOf (xs : List Exc) : isOutcome (outcomeOf xs) = true ∧ outcomeOf xs ≠ .success := by
-  simp only [outcomeOf]
-  split <;> simp [isOutcome]
+  unfold outcomeOf
+  split
+  · simp [isOutcome]
+  · split <;> simp [isOutcome]
+
+theorem outcomeOf_ki (xs : List Exc) (h : xs.contains .ki = true) : outcomeOf xs = .error := by
+  unfold outcomeOf; rw [if_pos h]
 
 theorem account_value (b : Nat) (excs : List Exc) (logged dropped : Nat) (junk : Bool) :
     (account (.value b) excs logged dropped junk).stopReq = false ∧
@@ -2173,6 +2729,11 @@ theorem account_value (b : Nat) (excs : List Exc) (logged dropped : Nat) (junk :
     ((account (.value b) excs logged dropped junk).excs = [] ↔ excs = [] ∧ logged = 0 ∧ dropped = 0 ∧ junk = false) := by
   by_cases h1 : logged > 0 <;> by_cases h2 : dropped > 0 <;> cases junk <;>
     simp [account, h1, h2] <;> omega
+
+theorem account_ki (r : Res) (excs : List Exc) (logged dropped : Nat) (junk : Bool) :
+    Exc.ki ∈ (account r excs logged dropped junk).excs ↔ Exc.ki ∈ excs := by
+  cases r <;> by_cases h1 : logged > 0 <;> by_cases h2 : dropped > 0 <;> cases junk <;>
+    simp [account, h1, h2, List.mem_replicate]
 
 theorem account_other (r : Res) (hr : ∀ b, r ≠ .value b) (excs : List Exc) (logged dropped : Nat) (junk : Bool) :
     (account r excs logged dropped junk).successful = false ∧ (account r excs logged dropped junk).excs ≠ [] ∧
@@ -2214,34 +2775,30 @@ theorem account_other (r : Res) (hr : ∀ b, r ≠ .value b) (excs : List Exc) (
 
 /-! ## the clauses of the executable spec hold of the model's trace -/
 
-/-- the account `_run_core` draws up at the end -/
+/-- the account `_run_core` draws up at the end: what `Spinner.run` returned or raised (decided before `_clean`'s
+iterations) and the chain's state after them -/
 def finalAccount (p : Prog) : Account :=
-  account (getResult (afterIter p).sp) (afterIter p).u.excs (afterIter p).u.logged (afterIter p).u.dropped
+  account (getResult (afterSpin p).sp) (afterIter p).u.excs (afterIter p).u.logged (afterIter p).u.dropped
     (!(leftovers (afterIter p)).isEmpty)
 
 theorem model_fields (p : Prog) :
     (model p).events = [.startTest] ++ outcomeEvents (finalAccount p) ++ [.stopTest] ∧
-    (model p).stopRequested = (finalAccount p).stopReq ∧ (model p).raised = false ∧
+    (model p).stopRequested = (finalAccount p).stopReq ∧ (model p).raised = (finalAccount p).excs.contains .ki ∧
     (model p).stages = (afterIter p).u.stages ∧
     (model p).leftover = ((afterIter p).calls.filter isLeftover).length ∧ (model p).pending = 0 ∧
-    (model p).obsRestored = (afterObs p == List.range p.nObs) := ⟨rfl, rfl, rfl, rfl, rfl, rfl, rfl⟩
+    (model p).obsRestored = (afterObs p == List.range p.nObs) ∧ (model p).live = (afterIter p).u.live :=
+  ⟨rfl, rfl, rfl, rfl, rfl, rfl, rfl, rfl⟩
 
 /-- exactly one outcome, and which -/
-theorem events_shape (p : Prog) (pre : List (SName × Stage)) (hf : FinalSem p (afterIter p) pre) :
+theorem events_shape (p : Prog) (pre fut : List (SName × Stage)) (hf : FinalSem p pre fut) :
     ∃ X, (model p).events = [.startTest, X, .stopTest] ∧ isOutcome X = true ∧
       (X = .success ↔ (finalAccount p).successful = true) ∧
-      ((∀ b, getResult (afterIter p).sp ≠ .value b) → X = .error) := by
-  obtain ⟨⟨hi, _⟩, _, _⟩ := end_state p
+      ((∀ b, getResult (afterSpin p).sp ≠ .value b) → X = .error) ∧
+      ((finalAccount p).excs.contains .ki = true → X = .error) := by
   rw [(model_fields p).1]
-  by_cases hv : ∃ b, getResult (afterIter p).sp = .value b
+  by_cases hv : ∃ b, getResult (afterSpin p).sp = .value b
   · obtain ⟨b, hb⟩ := hv
-    have hsucc : (afterIter p).sp.success = some b := by
-      rcases result_cases hi with h | h | h
-      · rw [h.2.2] at hb; cases hb
-      · rw [h.2.2] at hb; cases hb
-      · obtain ⟨b', hb1, hb2⟩ := h.2
-        rw [hb2] at hb; injection hb with hb; subst hb; exact hb1
-    obtain ⟨hb1, _, _⟩ := hf.recd b hsucc
+    obtain ⟨_, _, _, _, hb1, _, _⟩ := hf.value b hb
     obtain ⟨_, a2, a3⟩ := account_value b (afterIter p).u.excs (afterIter p).u.logged (afterIter p).u.dropped
       (!(leftovers (afterIter p)).isEmpty)
     have hb1' : b = 1 ↔ (afterIter p).u.excs = [] := by
@@ -2268,23 +2825,24 @@ theorem events_shape (p : Prog) (pre : List (SName × Stage)) (hf : FinalSem p (
     simp only [outcomeEvents]
     by_cases hs : (finalAccount p).successful = true
     · have he := hiff.mp hs
-      refine ⟨.success, by simp [hs, he], rfl, by simp [hs], fun h => absurd hb (h b)⟩
+      refine ⟨.success, by simp [hs, he], rfl, by simp [hs], fun h => absurd hb (h b), fun h => ?_⟩
+      rw [he] at h; cases h
     · have he : (finalAccount p).excs ≠ [] := fun h => hs (hiff.mpr h)
       have hs' : (finalAccount p).successful = false := by simpa using hs
       obtain ⟨o1, o2⟩ := isOutcome_outcomeOf (finalAccount p).excs
-      refine ⟨outcomeOf (finalAccount p).excs, ?_, o1, ?_, fun h => absurd hb (h b)⟩
+      refine ⟨outcomeOf (finalAccount p).excs, ?_, o1, ?_, fun h => absurd hb (h b), outcomeOf_ki _⟩
       · simp [hs', he]
       · constructor
         · intro h; exact absurd h o2
         · intro h; rw [hs'] at h; cases h
-  · have hv' : ∀ b, getResult (afterIter p).sp ≠ .value b := fun b hb => hv ⟨b, hb⟩
+  · have hv' : ∀ b, getResult (afterSpin p).sp ≠ .value b := fun b hb => hv ⟨b, hb⟩
     obtain ⟨o1, o2, o3, _⟩ := account_other _ hv' (afterIter p).u.excs (afterIter p).u.logged (afterIter p).u.dropped
       (!(leftovers (afterIter p)).isEmpty)
-    refine ⟨.error, ?_, rfl, ?_, fun _ => rfl⟩
+    refine ⟨.error, ?_, rfl, ?_, fun _ => rfl, fun _ => rfl⟩
     · simp only [outcomeEvents, finalAccount, o1, Bool.false_eq_true, if_false, List.nil_append]
-      have : (account (getResult (afterIter p).sp) (afterIter p).u.excs (afterIter p).u.logged (afterIter p).u.dropped
+      have : (account (getResult (afterSpin p).sp) (afterIter p).u.excs (afterIter p).u.logged (afterIter p).u.dropped
           (!(leftovers (afterIter p)).isEmpty)).excs.isEmpty = false := by
-        cases he : (account (getResult (afterIter p).sp) (afterIter p).u.excs (afterIter p).u.logged (afterIter p).u.dropped
+        cases he : (account (getResult (afterSpin p).sp) (afterIter p).u.excs (afterIter p).u.logged (afterIter p).u.dropped
           (!(leftovers (afterIter p)).isEmpty)).excs with
         | nil => exact absurd he o2
         | cons _ _ => rfl
@@ -2300,20 +2858,13 @@ theorem leftovers_empty_iff (w : W) (hs : w.sels = []) : (leftovers w).isEmpty =
   simp only [leftovers, hs, List.map_nil, List.append_nil, List.isEmpty_iff, List.map_eq_nil_iff]
 
 /-- the value case: what the recorded success and the chain state say about the stages that ran -/
-theorem value_meaning (p : Prog) (pre : List (SName × Stage)) (hf : FinalSem p (afterIter p) pre) (b : Nat)
-    (hb : (afterIter p).sp.success = some b) :
+theorem value_meaning (p : Prog) (pre fut : List (SName × Stage)) (hf : FinalSem p pre fut) (b : Nat)
+    (hres : getResult (afterSpin p).sp = .value b) :
     ((finalAccount p).successful = true ↔
       ((pre.map (·.2)).all (fun st => behOk st.beh) = true ∧ (sidesOf pre).contains .expect = false ∧
        loggedLeft (sidesOf pre) = 0 ∧ (sidesOf pre).contains .dropfailed = false ∧
        ((afterIter p).calls.filter isLeftover).length = 0)) := by
-  obtain ⟨⟨hi, _⟩, _, _⟩ := end_state p
-  have hres : getResult (afterIter p).sp = .value b := by
-    rcases result_cases hi with h | h | h
-    · rw [h.2.1] at hb; cases hb
-    · rw [h.2.1] at hb; cases hb
-    · obtain ⟨b', hb1, hb2⟩ := h.2
-      rw [hb1] at hb; injection hb with hb; subst hb; exact hb2
-  obtain ⟨hb1, hfails, hleft⟩ := hf.recd b hb
+  obtain ⟨_, _, _, _, hb1, hfails, hleft⟩ := hf.value b hres
   obtain ⟨_, a2, _⟩ := account_value b (afterIter p).u.excs (afterIter p).u.logged (afterIter p).u.dropped
     (!(leftovers (afterIter p)).isEmpty)
   simp only [finalAccount, hres]
@@ -2342,7 +2893,7 @@ theorem value_meaning (p : Prog) (pre : List (SName × Stage)) (hf : FinalSem p 
           have := h1 x hx; simp [hok] at this
         · rw [h2] at h; cases h
   have hjunk : (!(leftovers (afterIter p)).isEmpty) = false ↔ ((afterIter p).calls.filter isLeftover).length = 0 := by
-    have hse := (static_end p).1
+    have hse := (iter_end p).static.1
     have hall : (afterIter p).calls.filter isLeftover = (afterIter p).calls :=
       List.filter_eq_self.mpr hleft
     rw [hall]
@@ -2352,35 +2903,64 @@ theorem value_meaning (p : Prog) (pre : List (SName × Stage)) (hf : FinalSem p 
   · rintro ⟨⟨h1, h2⟩, h3, h4, h5⟩; exact ⟨h1, h2, h3, h4, h5⟩
   · rintro ⟨h1, h2, h3, h4, h5⟩; exact ⟨⟨h1, h2⟩, h3, h4, h5⟩
 
+/-- in time, in the spec's sense ⇔ `Spinner.run` returned the chain's verdict -/
+theorem inTime_iff (p : Prog) (pre fut : List (SName × Stage)) (hf : FinalSem p pre fut) :
+    inTime p (model p) = true ↔ ∃ b, getResult (afterSpin p).sp = .value b := by
+  obtain ⟨m1, m2, m3, m4, m5, m6, m7, m8⟩ := model_fields p
+  have hlen : pre.length = (model p).stages.length := by rw [m4]; exact hf.len
+  obtain ⟨t1, t2, t3, t4, t5, t6, t7⟩ := spec_terms p (model p) pre fut hf.path hlen
+  simp only [inTime, Bool.and_eq_true, Bool.not_eq_true']
+  constructor
+  · rintro ⟨⟨⟨hc, hl⟩, hb⟩, hsr⟩
+    rcases hf.cases with h | h | h
+    · exact h
+    · exfalso
+      obtain ⟨_, h2, h3⟩ := hf.timeout h
+      rcases t3.mp hb with hb | ⟨over, ho, hlt⟩
+      · rw [h2] at hb; cases hb
+      · rw [m4] at ho
+        have := h3 over ho; omega
+    · exfalso
+      have hnv : ∀ b, getResult (afterSpin p).sp ≠ .value b := fun b hb => by rw [h] at hb; cases hb
+      obtain ⟨_, _, _, o4⟩ := account_other _ hnv (afterIter p).u.excs (afterIter p).u.logged (afterIter p).u.dropped
+        (!(leftovers (afterIter p)).isEmpty)
+      rw [m2] at hsr
+      simp only [finalAccount] at hsr
+      rw [o4, h] at hsr
+      cases hsr
+  · rintro ⟨b, hb⟩
+    obtain ⟨v1, v2, v3, v4, _⟩ := hf.value b hb
+    refine ⟨⟨⟨t2.mpr v1, ?_⟩, ?_⟩, ?_⟩
+    · simp only [allLive, Bool.and_eq_true, beq_iff_eq, m8, m4]
+      exact ⟨v2, v3⟩
+    · apply t3.mpr
+      obtain ⟨over, ho, h | h⟩ := v4
+      · exact Or.inl h.1
+      · exact Or.inr ⟨over, by rw [m4]; exact ho, h.1⟩
+    · rw [m2]
+      simp only [finalAccount, hb]
+      exact (account_value b _ _ _ _).1
+
 /-- **Headline.** The executable specification holds of the model's trace, for every program. -/
 theorem holds_model (p : Prog) : holds p (model p) = true := by
-  obtain ⟨pre, hf⟩ := final_sem p
-  obtain ⟨⟨hi, _⟩, hcr, _⟩ := end_state p
-  obtain ⟨X, hX1, hX2, hX3, hX4⟩ := events_shape p pre hf
-  obtain ⟨m1, m2, m3, m4, m5, m6, m7⟩ := model_fields p
+  obtain ⟨pre, fut, hf⟩ := final_sem p
+  obtain ⟨X, hX1, hX2, hX3, hX4, hX5⟩ := events_shape p pre fut hf
+  obtain ⟨m1, m2, m3, m4, m5, m6, m7, m8⟩ := model_fields p
   have hlen : pre.length = (model p).stages.length := by rw [m4]; exact hf.len
-  obtain ⟨t1, t2, t3, t4, t5⟩ := spec_terms p (model p) pre (future p (afterIter p).u) hf.path hlen
+  obtain ⟨t1, t2, t3, t4, t5, t6, t7⟩ := spec_terms p (model p) pre fut hf.path hlen
   have hout := outcome_of_shape hX1
-  -- in time ⇔ a result was recorded
-  have hin : inTime p (model p) = true ↔ ∃ b, (afterIter p).sp.success = some b := by
-    rw [hf.rec_iff, inTime, Bool.and_eq_true, t2, t3, m4]
-  have hvalue : (∃ b, (afterIter p).sp.success = some b) ↔ ∃ b, getResult (afterIter p).sp = .value b := by
-    rcases result_cases hi with h | h | h
-    · simp [h.2.1, h.2.2]
-    · simp [h.2.1, h.2.2]
-    · obtain ⟨b, hb1, hb2⟩ := h.2
-      simp [hb1, hb2]
+  have hin := inTime_iff p pre fut hf
   simp only [holds, clauses, List.all_cons, List.all_nil, Bool.and_true, Bool.and_eq_true]
-  refine ⟨?_, ?_, ?_, ?_, ?_⟩
+  refine ⟨?_, ?_, ?_, ?_, ?_, ?_⟩
   · -- bracket
-    simp [cBracket, hX1, hX2, m3]
+    simp [cBracket, hX1, hX2]
   · -- sequential
     rw [t5, m4]; exact hf.seq
   · -- success-iff
     simp only [cSuccessIff, hout, t1, t4, m5]
-    by_cases hrec : ∃ b, (afterIter p).sp.success = some b
+    by_cases hrec : ∃ b, getResult (afterSpin p).sp = .value b
     · obtain ⟨b, hb⟩ := hrec
-      have hv := value_meaning p pre hf b hb
+      have hv := value_meaning p pre fut hf b hb
       have hi' : inTime p (model p) = true := hin.mpr ⟨b, hb⟩
       rw [hi']
       have hl : (some X == some Ev.success) = true ↔ (finalAccount p).successful = true := by
@@ -2396,71 +2976,106 @@ theorem holds_model (p : Prog) : holds p (model p) = true := by
         cases h : inTime p (model p) with
         | false => rfl
         | true => exact absurd (hin.mp h) hrec
-      have hXe : X = .error := hX4 (fun b hb => hrec (hvalue.mpr ⟨b, hb⟩))
+      have hXe : X = .error := hX4 (fun b hb => hrec ⟨b, hb⟩)
       simp [hi', hXe]
   · -- timeout-interrupt
-    simp only [cTimeoutInterrupt, hout, m2]
-    by_cases hrec : ∃ b, (afterIter p).sp.success = some b
-    · have hi' : inTime p (model p) = true := hin.mpr hrec
-      obtain ⟨b, hb⟩ := hvalue.mp hrec
-      have := (account_value b (afterIter p).u.excs (afterIter p).u.logged (afterIter p).u.dropped
-        (!(leftovers (afterIter p)).isEmpty)).1
-      simp [hi', finalAccount, hb, this]
-    · have hi' : inTime p (model p) = false := by
-        cases h : inTime p (model p) with
-        | false => rfl
-        | true => exact absurd (hin.mp h) hrec
-      have hnv : ∀ b, getResult (afterIter p).sp ≠ .value b := fun b hb => hrec (hvalue.mpr ⟨b, hb⟩)
-      have hXe : X = .error := hX4 hnv
-      obtain ⟨_, _, _, o4⟩ := account_other _ hnv (afterIter p).u.excs (afterIter p).u.logged (afterIter p).u.dropped
-        (!(leftovers (afterIter p)).isEmpty)
-      have hstop : (finalAccount p).stopReq = p.stops.any (fun s => decide (s < p.timeout)) := by
-        simp only [finalAccount, o4]
-        have hp := hf.pending_iff
-        have hnot : ¬ (future p (afterIter p).u = [] ∧ InTimeP p pre (afterIter p).u.stages) := fun h => hrec (hf.rec_iff.mpr h)
-        rcases result_cases hi with h | h | h
-        · rw [h.2.2]
-          have := (hp.mp h.1).2
-          simp only [beq_self_eq_true]
-          symm
-          simpa [List.any_eq_true] using this
-        · rw [h.2.2]
-          have hnp : ¬ (afterIter p).sp.tcall = .pending := by rw [h.1]; simp
-          have : ¬ ∃ s ∈ p.stops, s < p.timeout := fun h' => hnp (hp.mpr ⟨hnot, h'⟩)
-          have h2 : p.stops.any (fun s => decide (s < p.timeout)) = false := by
-            cases ha : p.stops.any (fun s => decide (s < p.timeout)) with
-            | false => rfl
-            | true => exact absurd (by simpa [List.any_eq_true] using ha) this
-          rw [h2]; rfl
-        · obtain ⟨b, hb1, _⟩ := h.2
-          exact absurd ⟨b, hb1⟩ hrec
-      simp [hi', hXe, hstop]
+    simp only [cTimeoutInterrupt, hout, m2, Bool.and_eq_true, Bool.or_eq_true, Bool.not_eq_true', beq_iff_eq]
+    refine ⟨⟨?_, ?_⟩, ?_⟩
+    · by_cases hrec : ∃ b, getResult (afterSpin p).sp = .value b
+      · exact Or.inl (hin.mpr hrec)
+      · exact Or.inr (by rw [hX4 (fun b hb => hrec ⟨b, hb⟩)])
+    · cases hsr : (finalAccount p).stopReq with
+      | false => exact Or.inl rfl
+      | true =>
+        right
+        rcases hf.cases with ⟨b, hb⟩ | h | h
+        · have := (account_value b (afterIter p).u.excs (afterIter p).u.logged (afterIter p).u.dropped
+            (!(leftovers (afterIter p)).isEmpty)).1
+          simp only [finalAccount, hb] at hsr
+          rw [this] at hsr; cases hsr
+        · have hnv : ∀ b, getResult (afterSpin p).sp ≠ .value b := fun b hb => by rw [h] at hb; cases hb
+          obtain ⟨_, _, _, o4⟩ := account_other _ hnv (afterIter p).u.excs (afterIter p).u.logged (afterIter p).u.dropped
+            (!(leftovers (afterIter p)).isEmpty)
+          simp only [finalAccount] at hsr
+          rw [o4, h] at hsr; cases hsr
+        · obtain ⟨s, hs1, hs2⟩ := hf.noresult h
+          exact List.any_eq_true.mpr ⟨s, hs1, by simpa using hs2⟩
+    · cases hsr : (finalAccount p).stopReq with
+      | true => exact Or.inr rfl
+      | false =>
+        left
+        rw [List.any_eq_false]
+        intro s hs1 hint
+        simp only [interruptedFor, Bool.and_eq_true, decide_eq_true_eq, Bool.or_eq_true, Bool.not_eq_true'] at hint
+        obtain ⟨hlt, hint⟩ := hint
+        rcases hf.cases with ⟨b, hb⟩ | h | h
+        · obtain ⟨v1, _, _, ⟨over, ho, hcase⟩, _⟩ := hf.value b hb
+          have hcomp : complete p (model p) = true := t2.mpr v1
+          rw [hcomp, t7, m4, ho] at hint
+          rcases hint with hint | hint
+          · cases hint
+          · have hint : s < over := by simpa using hint
+            rcases hcase with ⟨_, h0⟩ | ⟨_, hall⟩
+            · omega
+            · have := hall s hs1; omega
+        · have := (hf.timeout h).1 s hs1; omega
+        · have hnv : ∀ b, getResult (afterSpin p).sp ≠ .value b := fun b hb => by rw [h] at hb; cases hb
+          obtain ⟨_, _, _, o4⟩ := account_other _ hnv (afterIter p).u.excs (afterIter p).u.logged (afterIter p).u.dropped
+            (!(leftovers (afterIter p)).isEmpty)
+          simp only [finalAccount] at hsr
+          rw [o4, h] at hsr; cases hsr
   · -- clean-after
     have hobs : ∀ e ∈ (model p).stages, e.2.2 = duringCount p := by
       intro e he
       rw [m4] at he
-      rw [hf.book.obs e he, (static_end p).2, duringObs_length]
+      rw [hf.book.obs e he, (iter_end p).static.2, duringObs_length]
     simp only [cCleanAfter, m6, m7, afterObs_eq, beq_self_eq_true, Bool.and_true, Bool.true_and, List.all_eq_true, beq_iff_eq]
     exact hobs
+  · -- unclaimed
+    have hki : (model p).raised = true ↔ Exc.ki ∈ (afterIter p).u.excs := by
+      rw [m3]
+      simp only [finalAccount, List.contains_eq_mem, decide_eq_true_eq]
+      exact account_ki _ _ _ _ _
+    simp only [cUnclaimed, hout, t1, t6, Bool.and_eq_true, Bool.or_eq_true, Bool.not_eq_true', beq_iff_eq]
+    refine ⟨⟨?_, ?_⟩, ?_⟩
+    · cases hr : (model p).raised with
+      | false => exact Or.inl rfl
+      | true =>
+        right
+        rw [hX5 (by rw [← m3]; exact hr)]
+    · cases hr : (model p).raised with
+      | true => exact Or.inr rfl
+      | false =>
+        left
+        rw [List.any_eq_false]
+        intro x hx hm
+        simp only [Bool.and_eq_true, beq_iff_eq] at hm
+        have := hki.mpr (hf.book.kiMain x hx hm.1 hm.2)
+        rw [hr] at this; cases this
+    · cases hr : (model p).raised with
+      | false => exact Or.inl rfl
+      | true =>
+        right
+        obtain ⟨x, hx1, hx2⟩ := hf.book.kiSome (Or.inl (hki.mp hr))
+        exact List.any_eq_true.mpr ⟨x.2, List.mem_map.mpr ⟨x, hx1, rfl⟩, hx2⟩
 
 /-! # The property theorems -/
 
 theorem clauses_hold (p : Prog) :
     cBracket p (model p) = true ∧ cSequential p (model p) = true ∧ cSuccessIff p (model p) = true ∧
-    cTimeoutInterrupt p (model p) = true ∧ cCleanAfter p (model p) = true := by
+    cTimeoutInterrupt p (model p) = true ∧ cCleanAfter p (model p) = true ∧ cUnclaimed p (model p) = true := by
   have := holds_model p
   simpa [holds, clauses] using this
 
-/-- **C14 (bracket).**  Exactly one outcome is reported between `startTest` and `stopTest`, and `run()` returns —
+/-- **C14 (bracket).**  Exactly one outcome is reported between `startTest` and `stopTest` —
 for every program, timeout, interrupt, runner variant and logging option. -/
 theorem C14_bracket (p : Prog) :
-    ∃ X, (model p).events = [.startTest, X, .stopTest] ∧ isOutcome X = true ∧ (model p).raised = false := by
+    ∃ X, (model p).events = [.startTest, X, .stopTest] ∧ isOutcome X = true := by
   have h := (clauses_hold p).1
   simp only [cBracket] at h
   split at h
   · rename_i x heq
-    simp only [Bool.and_eq_true, Bool.not_eq_true'] at h
-    exact ⟨x, heq, h.1, h.2⟩
+    exact ⟨x, heq, h⟩
   · cases h
 
 /-- names of the stages that ran = a prefix of the path's names; no stage starts before its predecessor is over -/
@@ -2537,71 +3152,100 @@ theorem C14_success_iff (p : Prog) :
   simp only [Bool.and_eq_true, List.all_eq_true, Bool.not_eq_true', beq_iff_eq, List.contains_eq_mem,
     decide_eq_false_iff_not, and_assoc]
 
-/-- **C14 (timeout / interrupt).**  If the run is not in time the outcome is an error; the result is asked to
-stop exactly when the run was ended by an interrupt (a stop request before the timeout instant, the chain not
-being over by then). -/
+/-- **C14 (timeout / interrupt).**  If the run is not in time the outcome is an error; the result is asked to stop
+only if an interrupt came before the timeout instant; and it is asked to stop whenever an interrupt came before
+the timeout while the chain was not over (the log is incomplete, or its last stage was over only later). -/
 theorem C14_timeout_interrupt (p : Prog) :
     (inTime p (model p) = false → outcome (model p) = some .error) ∧
-    ((model p).stopRequested = true ↔ (inTime p (model p) = false ∧ ∃ s ∈ p.stops, s < p.timeout)) := by
+    ((model p).stopRequested = true → ∃ s ∈ p.stops, s < p.timeout) ∧
+    (∀ s ∈ p.stops, interruptedFor p (model p) s = true → (model p).stopRequested = true) := by
   have h := (clauses_hold p).2.2.2.1
-  simp only [cTimeoutInterrupt, Bool.and_eq_true, Bool.or_eq_true, beq_iff_eq] at h
-  obtain ⟨h1, h2⟩ := h
-  constructor
+  simp only [cTimeoutInterrupt, Bool.and_eq_true, Bool.or_eq_true, beq_iff_eq, Bool.not_eq_true'] at h
+  obtain ⟨⟨h1, h2⟩, h3⟩ := h
+  refine ⟨?_, ?_, ?_⟩
   · intro hi
     rcases h1 with h1 | h1
     · rw [hi] at h1; cases h1
     · exact h1
-  · rw [h2]
-    simp [List.any_eq_true]
+  · intro hs
+    rcases h2 with h2 | h2
+    · rw [hs] at h2; cases h2
+    · obtain ⟨s, hs1, hs2⟩ := List.any_eq_true.mp h2
+      exact ⟨s, hs1, by simpa using hs2⟩
+  · intro s hs hint
+    rcases h3 with h3 | h3
+    · rw [List.any_eq_false] at h3
+      exact absurd hint (h3 s hs)
+    · exact h3
 
 /-- **C14 (clean afterwards).**  After every run — success, failure, timeout or interrupt — the reactor has no
 pending delayed calls and Twisted's log observers are exactly those installed before (same order); while the test
 ran they were: unless suppressed the installed ones, the capturing one if logs are stored, the error observer. -/
 theorem C14_clean_after (p : Prog) :
     (model p).pending = 0 ∧ (model p).obsRestored = true ∧ ∀ e ∈ (model p).stages, e.2.2 = duringCount p := by
-  have h := (clauses_hold p).2.2.2.2
+  have h := (clauses_hold p).2.2.2.2.1
   simp only [cCleanAfter, Bool.and_eq_true, beq_iff_eq, List.all_eq_true] at h
   exact ⟨h.1.1, h.1.2, h.2⟩
+
+/-- **C14 (unclaimed exceptions).**  `run()` re-raises (after `stopTest`) only an exception that no handler claims
+(`KeyboardInterrupt`, `SystemExit`), and then the outcome reported is an error; it does so whenever `setUp`, the test
+method or `tearDown` raised one; and only if some stage that ran raised one or returned a Deferred failing with
+one.  (Of the cleanups' exceptions `_run_cleanups` keeps the last only.) -/
+theorem C14_unclaimed (p : Prog) :
+    ((model p).raised = true → outcome (model p) = some .error) ∧
+    (∀ x ∈ (path p).take (model p).stages.length, isMain x.1 = true → x.2.beh = .raise .ki → (model p).raised = true) ∧
+    ((model p).raised = true → ∃ st ∈ ranStages p (model p), hasKI st.beh = true) := by
+  have h := (clauses_hold p).2.2.2.2.2
+  simp only [cUnclaimed, Bool.and_eq_true, Bool.or_eq_true, beq_iff_eq, Bool.not_eq_true'] at h
+  obtain ⟨⟨h1, h2⟩, h3⟩ := h
+  refine ⟨?_, ?_, ?_⟩
+  · intro hr
+    rcases h1 with h1 | h1
+    · rw [hr] at h1; cases h1
+    · exact h1
+  · intro x hx hm hb
+    rcases h2 with h2 | h2
+    · rw [List.any_eq_false] at h2
+      exact absurd (by simp [hm, hb]) (h2 x hx)
+    · exact h2
+  · intro hr
+    rcases h3 with h3 | h3
+    · rw [hr] at h3; cases h3
+    · obtain ⟨st, hs1, hs2⟩ := List.any_eq_true.mp h3
+      exact ⟨st, hs1, hs2⟩
 
 /-- the log fixtures as list operations: whatever was installed comes back, in order -/
 theorem C14_observers_restored (p : Prog) : afterObs p = List.range p.nObs := afterObs_eq p
 
 /-- **C14 (in time ⇔ recorded).**  `inTime` (a statement about the program and the observed stage log) holds exactly
-when the chain's final Deferred fired while the spinner's timeout call was still pending, i.e. `Spinner.run`
-returned the chain's verdict instead of raising `TimeoutError` / `NoResultError`. -/
+when the chain's final Deferred fired while the spinner's timeout call was still pending and the reactor had not
+been stopped, i.e. `Spinner.run` returned the chain's verdict instead of raising `TimeoutError` / `NoResultError`.
+The result is the one determined when `reactor.run()` returns — before `_clean`'s shake-out iterations; what
+completes during those is not recorded as the run's result. -/
 theorem C14_in_time_iff_recorded (p : Prog) :
-    inTime p (model p) = true ↔ ∃ b, getResult (afterIter p).sp = .value b := by
-  obtain ⟨pre, hf⟩ := final_sem p
-  obtain ⟨⟨hi, _⟩, _, _⟩ := end_state p
-  have hlen : pre.length = (model p).stages.length := hf.len
-  obtain ⟨_, t2, t3, _, _⟩ := spec_terms p (model p) pre (future p (afterIter p).u) hf.path hlen
-  rw [inTime, Bool.and_eq_true, t2, t3]
-  have : (model p).stages = (afterIter p).u.stages := rfl
-  rw [this, ← hf.rec_iff]
-  rcases result_cases hi with h | h | h
-  · simp [h.2.1, h.2.2]
-  · simp [h.2.1, h.2.2]
-  · obtain ⟨b, hb1, hb2⟩ := h.2
-    simp [hb1, hb2]
+    inTime p (model p) = true ↔ ∃ b, getResult (afterSpin p).sp = .value b := by
+  obtain ⟨pre, fut, hf⟩ := final_sem p
+  exact inTime_iff p pre fut hf
 
 /-- **C14 (the loop ends).**  `reactor.run()` always ends because the reactor was crashed — by the chain's result,
 the timeout or an interrupt — within the fuel the model gives it, and when no result was recorded nothing that is
-still queued was due. -/
+still queued was due and runnable in that iteration. -/
 theorem C14_loop_ends_by_crash (p : Prog) :
-    (afterIter p).crashed = true ∧
-    ((afterIter p).sp.success = none → ∀ c ∈ (afterIter p).calls, (afterIter p).now < c.time) :=
-  ⟨(end_state p).2.1, (end_state p).2.2⟩
+    (afterSpin p).crashed = true ∧
+    ((afterSpin p).sp.success = none →
+      ∀ c ∈ (afterSpin p).calls, ¬ (c.time ≤ (afterSpin p).now ∧ eligible (afterSpin p).u.iter c = true)) :=
+  ⟨(spin_end p).crashed, (spin_end p).noDue⟩
 
 /-! ## non-vacuity: concrete programs, evaluated by the kernel -/
 
-def plain (beh : Beh) : MStage := { cleanups := [], stage := { sides := [], beh := beh } }
-def withSides (sides : List Side) (beh : Beh) : MStage := { cleanups := [], stage := { sides := sides, beh := beh } }
+def plain (beh : Beh) : Stage := .mk [] [] beh
+def withSides (sides : List Side) (beh : Beh) : Stage := .mk [] sides beh
 
-def prog (timeout : Nat) (stops : List Nat) (suppress store : Bool) (nObs : Nat) (setUp body tearDown : MStage) : Prog :=
+def prog (timeout : Nat) (stops : List Nat) (suppress store : Bool) (nObs : Nat) (setUp body tearDown : Stage) : Prog :=
   { timeout := timeout, stops := stops, broken := false, suppress := suppress, store := store, nObs := nObs,
     setUp := setUp, body := body, tearDown := tearDown }
 
-def threeDeferreds : MStage := { cleanups := [{ sides := [], beh := .fire 1 }], stage := { sides := [], beh := .fire 2 } }
+def threeDeferreds : Stage := .mk [plain (.fire 1)] [] (.fire 2)
 
 /-- three Deferred-returning stages and a cleanup, in time: success -/
 example : (model (prog 10 [] true true 1 threeDeferreds (plain (.fire 3)) (plain .ret))).events
@@ -2623,5 +3267,32 @@ example : ((model (prog 10 [] true true 0 (plain .ret) (withSides [.logerr] .ret
 /-- … but a logged error that is flushed is fine -/
 example : (model (prog 10 [] false false 2 (plain .ret) (withSides [.logerr, .flush] (.fire 1)) (plain .ret))).events
     = [.startTest, .success, .stopTest] := by decide
+
+/-- a cleanup registered by a cleanup runs right after it: cleanup 1 (registered last) first, then cleanup 2 (which
+it registered), then cleanup 0 -/
+example : ((model (prog 10 [] true true 0 (plain .ret)
+      (.mk [plain .ret, .mk [plain (.fire 1)] [] (.fire 1)] [] .ret) (plain .ret))).stages.map (·.1))
+    = [.setUp, .body, .tearDown, .cleanup 1, .cleanup 2, .cleanup 0] := by decide
+
+/-- `KeyboardInterrupt` out of the last cleanup that fails: the remaining cleanups still run, an error is reported
+and the exception is re-raised by `run()` -/
+example : ((model (prog 10 [] true true 0 (plain .ret) (.mk [plain .ret, plain (.raise .ki)] [] .ret) (plain .ret))).events,
+           (model (prog 10 [] true true 0 (plain .ret) (.mk [plain .ret, plain (.raise .ki)] [] .ret) (plain .ret))).raised,
+           (model (prog 10 [] true true 0 (plain .ret) (.mk [plain .ret, plain (.raise .ki)] [] .ret) (plain .ret))).stages.length)
+    = ([.startTest, .error, .stopTest], true, 5) := by decide
+
+/-- … but of the cleanups' exceptions only the last is kept: a later ordinary error hides the `KeyboardInterrupt` -/
+example : (model (prog 10 [] true true 0 (plain .ret) (.mk [plain (.raise .err), plain (.raise .ki)] [] .ret) (plain .ret))).raised
+    = false := by decide
+
+/-- the result is determined before `_clean`'s iterations (broken-Twisted variant: two of them): the interrupt at
+instant 2 ends the spin while tearDown's zero-delay Deferred, scheduled in that very iteration, has not fired; it
+fires in a shake-out iteration, and the cleanup it starts is logged as not live - the whole path ran, yet the run
+is an error with a stop request -/
+example :
+    let t := model { timeout := 10, stops := [2], broken := true, suppress := true, store := true, nObs := 0,
+                     setUp := plain .ret, body := .mk [plain .ret] [] (.fire 2), tearDown := plain (.fire 0) }
+    (t.events, t.stopRequested, t.live, t.stages.length) = ([.startTest, .error, .stopTest], true, [true, true, true, false], 4) := by
+  decide
 
 end TTV.Props.C14
